@@ -1,26 +1,41 @@
 (* DomSearch.v — property C10 at solver level: the sequential branch-and-bound model (Solver.v) run WITH a
-   dominance rule (SimpleDominanceChecker, Dom.v), no cache, SimpleFringe, clean flavours.
+   dominance rule (SimpleDominanceChecker, Dom.v), no cache, SimpleFringe, clean flavours (CleanLEL, CleanFC).
 
-   FINDINGS (closed, by vm_compute, section 2)
-     C10_refuted_for_admissible_rules   the natural premise "a dominates b (same key, every coordinate >=, value >=
-        when values are used) implies value-to-go(a) >= value-to-go(b)" does NOT make the solver return the optimum:
-        instance cyc_ti (6 variables, 18 base states, use_value = true, coordinate 0 = the exact value-to-go,
-        coordinate 1 = a free tag), CleanLEL, width 2: maximize returns 6 with is_exact = true, the optimum is 11
-        (without the rule: 11).  The same run was reproduced on the Rust code.  Mechanism: a relaxed compilation
-        records exact nodes lying BELOW its cut-set (and a restricted one records nodes it then truncates); such an
-        entry is a promise that only the cut-set ancestor keeps; another sub-problem may record a node dominating
+   FINDINGS (closed, by vm_compute; section 2)
+     C10_refuted_for_admissible_rules   the natural premise [admissible_H] "a dominates b (same key, every coordinate >=)
+        implies value-to-go(a) >= value-to-go(b)", proved here for ALL states and depths of the instance, does NOT make
+        the solver return the optimum: instance cyc_ti (6 variables, 18 base states, use_value = true, coordinate 0 =
+        the exact value-to-go, coordinate 1 = a free tag), CleanLEL, width 2: maximize returns 6 with is_exact = true,
+        the optimum is 11 (without the rule: 11).  The same run was reproduced on the Rust code.  Mechanism: a relaxed
+        compilation records exact nodes lying BELOW its cut-set (a restricted one records nodes it then truncates);
+        such an entry is a promise that only the cut-set ancestor keeps; another sub-problem records a node dominating
         an intermediate node of that ancestor's path while its own continuation is dropped because of the promised
         entry: both optimal runs are lost, each pruning being justified by value-to-go admissibility.
      C10_refuted_without_values   with use_value = false the checker compares states only and prunes nodes of LARGER
-        value: a state-only admissibility premise is refuted on a 2-variable instance (returns 1, optimum 10).
+        value: the same state-only premise is refuted on a 2-variable instance (returns 1, optimum 10, any width).
 
-   POSITIVE RESULT
+   POSITIVE RESULT (closed; sections 3-11)
      premise [opt_undominated]: no reachable (state, value) pair whose best completion is the optimum is STRICTLY
-     dominated (same key) by a reachable pair of the same depth.  It follows from [strictly_admissible]
-     (strict dominance implies a strictly better best completion), which is what the generators' one-coordinate
-     rule (coordinate 0 = value-to-go, use_value = true) satisfies.
-     Section 3: the solver-level induction from per-compilation contracts KD0..KD5 (stated for the optimum only,
-     with a store invariant threaded through the compilations): dom_maximize_correct. *)
+     dominated (same key) by a reachable pair of the same depth.  It follows from [strictly_admissible] (strict
+     dominance implies a strictly better best completion: strictly_admissible_undominated), which the generators'
+     one-coordinate rule (coordinate 0 = value-to-go, use_value = true) satisfies (coord_is_H_strict), and from the
+     executable check [check_undominated] (check_undominated_sound).
+       C10_sequential_dominance_optimal          the statement of Assembly.C01_sequential_optimal with
+                                                 sc_domrule cfg = Some rule, under opt_undominated
+       C10_sequential_dominance_optimal_strict   the same under strictly_admissible
+       C10_dominance_does_not_change_the_answer  maximize with the rule = maximize without it = the optimum
+       C10_table_instances, exd_C10, exd_prunes  non-vacuity on the table family; an instance where the rule prunes
+     NOT proved: the theorem for transition-monotone rules that are not strictly admissible (e.g. knapsack capacity);
+     the numeric invariant used here (the optimum is carried by the incumbent or by an open sub-problem) is not
+     inductive for them, because an optimal node may legitimately be dropped in favour of a recorded entry.
+
+   Plan  1 premises  2 refutations  3 solver-level induction from the contracts KD0..KD5 (stated for the optimum only,
+   a store invariant threaded through the compilations: dom_maximize_correct)  4 the dominance filter of one layer
+   (dom_retain_spec)  5 nothing else touches the store  6 MddProgress.v re-run with a rule (compile_factsD,
+   cutset_size_boundD)  7 MddSim.v re-run with a rule and a threshold tau (move_simD, layer_loop_simT, S1T..S4T):
+   runs whose value exceeds tau are tracked, their nodes are never dropped (tracked_not_droppable)  8 the contracts
+   (KD_all)  9 the theorem  10 sufficient conditions  11 stated forms  12 table family.
+   The 164 lemmas of MddSim.v that do not depend on the absence of a rule are reused as they are ([inst]). *)
 Require Import DDO.Base DDO.Fringe DDO.DP DDO.Cache DDO.Dom DDO.DomProofs DDO.Mdd DDO.MddStruct DDO.MddExact.
 Require Import DDO.Solver DDO.SolverProofs DDO.MddProgress DDO.MddSim DDO.Table DDO.Run DDO.Assembly DDO.TableWf.
 From Coq Require Import Lia List Arith ZArith Bool Permutation.
@@ -722,3 +737,2554 @@ Section DomSolver.
       split; [reflexivity|]. split; [discriminate|]. auto.
   Qed.
 End DomSolver.
+(* ================================================================== 4. the dominance filter of one layer *)
+Local Open Scope nat_scope.
+
+Local Ltac msimpl :=
+  cbn [m_nodes m_edges m_layers m_layer_end m_next m_curr_depth m_path m_lel m_cutset m_best
+       m_best_exact m_is_exact m_has_ebp m_cache m_dom m_log m_polls m_crash
+       with_nodes upd_node add_log set_crash with_next with_cache with_dom with_lel_exact
+       push_layer with_depth with_polls with_best with_cutset append_edge].
+Local Ltac msimpl_in H :=
+  cbn [m_nodes m_edges m_layers m_layer_end m_next m_curr_depth m_path m_lel m_cutset m_best
+       m_best_exact m_is_exact m_has_ebp m_cache m_dom m_log m_polls m_crash
+       with_nodes upd_node add_log set_crash with_next with_cache with_dom with_lel_exact
+       push_layer with_depth with_polls with_best with_cutset append_edge] in H.
+
+Section DomFilter.
+  Context {St : Type}.
+  Variable inp : @cinput St.
+  Variable key : St -> option Z.
+  Variable nd : nat.
+  Variable coord : St -> nat -> Z.
+  Variable usev : bool.
+  Hypothesis Hdom : ci_domrule inp = Some (key, nd, coord, usev).
+  Notation mdd := (@mdd St).
+  Notation gn := (get_node inp).
+
+  Definition sbucket (st : @dstore St Z) (d : nat) (k : Z) : @bucket St := store_bucket Z.eqb st d k.
+
+  (* every recorded entry satisfies P (depth, key, state, value) *)
+  Definition store_all (P : nat -> Z -> St -> Z -> Prop) (st : @dstore St Z) : Prop :=
+    forall d k e ve, In (e, ve) (sbucket st d k) -> P d k e ve.
+
+  Lemma store_all_init P n : store_all P (init_dstore n).
+  Proof.
+    intros d k e ve Hin. unfold sbucket, store_bucket, init_dstore in Hin.
+    match type of Hin with In _ (match ?X with _ => _ end) => destruct X as [l|] eqn:E end; [|destruct Hin].
+    apply nth_error_In in E. apply repeat_spec in E. subst l. destruct Hin.
+  Qed.
+
+  Lemma dom_query_spec (m : mdd) s d v m' r :
+    dom_query inp m s d v = (m', r) -> d < length (m_dom m) ->
+    m_crash m' = m_crash m /\ length (m_dom m') = length (m_dom m) /\
+    (dc_dominated r = true ->
+       exists k os ov, key s = Some k /\ In (os, ov) (sbucket (m_dom m) d k) /\ sdom nd coord usev os ov s v) /\
+    (forall d' k' e ve, In (e, ve) (sbucket (m_dom m') d' k') ->
+       In (e, ve) (sbucket (m_dom m) d' k') \/ (d' = d /\ key s = Some k' /\ e = s /\ ve = v)).
+  Proof.
+    unfold dom_query. rewrite Hdom. intros H Hd.
+    destruct (is_dominated_or_insert Z.eqb key nd coord usev (m_dom m) s d v) as [[st' r0]|] eqn:E.
+    2:{ apply (idoi_None_iff Z.eqb key nd coord usev) in E. destruct E as [_ E]. lia. }
+    inversion H; subst m' r. clear H. msimpl.
+    destruct (key s) as [k|] eqn:Ek.
+    - destruct (idoi_spec Z.eqb Z.eqb_eq key nd coord usev (m_dom m) s d v k st' r0 Ek E) as (B1 & B2 & B3).
+      symmetry in B1. destruct (bucket_query_verdict key nd coord usev s v _ _ _ B1) as (V1 & V2 & V3).
+      split; [reflexivity|]. split; [exact B3|]. split.
+      + intros Hdm. apply V1 in Hdm. destruct Hdm as (os & ov & o & Hin & Hpc).
+        exists k, os, ov. split; [reflexivity|]. split; [exact Hin|].
+        apply (partial_cmp_Lt_iff key nd coord usev s v os ov). exists o. exact Hpc.
+      + intros d' k' e ve Hin. destruct (Nat.eq_dec d' d) as [->|Hnd]; [destruct (Z.eq_dec k' k) as [->|Hnk]|].
+        * unfold sbucket in Hin. destruct (dc_dominated r0) eqn:Er.
+          -- destruct (V3 eq_refl) as [V3' _]. rewrite V3' in Hin. apply filter_In in Hin. left. apply Hin.
+          -- destruct (V2 eq_refl) as [V2' _]. rewrite V2' in Hin. apply in_app_or in Hin. destruct Hin as [Hin|[Hin|[]]].
+             ++ apply filter_In in Hin. left. apply Hin.
+             ++ inversion Hin; subst. right. auto.
+        * left. unfold sbucket in *. rewrite B2 in Hin by (right; exact Hnk). exact Hin.
+        * left. unfold sbucket in *. rewrite B2 in Hin by (left; exact Hnd). exact Hin.
+    - rewrite (idoi_no_key Z.eqb key nd coord usev (m_dom m) s d v Ek) in E. inversion E; subst st' r0.
+      split; [reflexivity|]. split; [reflexivity|]. split; [cbn; discriminate|]. intros d' k' e ve Hin. left. exact Hin.
+  Qed.
+
+  Lemma core_eq_trans' (a b c : @node St) : core_eq a b -> core_eq b c -> core_eq a c.
+  Proof.
+    intros (a1 & a2 & a3 & a4 & a5 & a6 & a7) (b1 & b2 & b3 & b4 & b5 & b6 & b7).
+    repeat split; congruence.
+  Qed.
+  Lemma core_eq_is_exact' (a b : @node St) : core_eq a b -> fl_is_exact (n_flags a) = fl_is_exact (n_flags b).
+  Proof. unfold fl_is_exact. intros (_ & _ & _ & _ & H1 & H2 & _). rewrite H1, H2. reflexivity. Qed.
+
+  Lemma gn_upd_theta_core (m : mdd) id t x : core_eq (gn m x) (gn (upd_node m id (fun n => set_theta n t)) x).
+  Proof.
+    pose proof (ceq_upd_node inp m id (fun n => set_theta n t) (fun n => core_eq_set_theta n t)) as ((_ & _ & _ & A) & _).
+    apply A.
+  Qed.
+
+  (* the retain loop, in terms of the node data BEFORE the loop (the loop only touches theta, the log and the store) *)
+  Lemma dom_retain_spec (P : nat -> Z -> St -> Z -> Prop) l : forall (m m' : mdd) l',
+    dom_retain inp m l = (m', l') ->
+    (forall id, In id l -> n_depth (gn m id) < length (m_dom m)) ->
+    store_all P (m_dom m) ->
+    (forall id k, In id l -> fl_is_exact (n_flags (gn m id)) = true -> key (n_state (gn m id)) = Some k ->
+       P (n_depth (gn m id)) k (n_state (gn m id)) (n_vtop (gn m id))) ->
+    m_crash m' = m_crash m /\ length (m_dom m') = length (m_dom m) /\ store_all P (m_dom m') /\
+    (forall id, In id l -> ~ In id l' ->
+       fl_is_exact (n_flags (gn m id)) = true /\
+       exists k e ve, key (n_state (gn m id)) = Some k /\ P (n_depth (gn m id)) k e ve /\
+                      sdom nd coord usev e ve (n_state (gn m id)) (n_vtop (gn m id))).
+  Proof.
+    induction l as [|id l IH]; intros m m' l' H Hlen HP Hex; cbn [dom_retain] in H.
+    - inversion H; subst. split; [reflexivity|]. split; [reflexivity|]. split; [exact HP|]. intros id [].
+    - destruct (fl_is_exact (n_flags (gn m id))) eqn:Eex.
+      + destruct (dom_query inp m (n_state (gn m id)) (n_depth (gn m id)) (n_vtop (gn m id))) as [m1 r] eqn:Eq.
+        destruct (dom_query_spec m _ _ _ m1 r Eq (Hlen id (or_introl eq_refl))) as (Q1 & Q2 & Q3 & Q4).
+        pose proof (dom_query_ceq inp m (n_state (gn m id)) (n_depth (gn m id)) (n_vtop (gn m id))) as Hc.
+        rewrite Eq in Hc. cbn [fst] in Hc. destruct Hc as ((_ & _ & _ & Hcore) & _).
+        assert (HP1 : store_all P (m_dom m1)).
+        { intros d' k' e ve Hin. destruct (Q4 d' k' e ve Hin) as [Hold|(-> & Hk & -> & ->)]; [apply HP; exact Hold|].
+          apply Hex; auto. left; reflexivity. }
+        destruct (dc_dominated r) eqn:Er.
+        * set (m2 := upd_node m1 id (fun n => set_theta n (dc_threshold r))) in *.
+          assert (Hcore2 : forall x, core_eq (gn m x) (gn m2 x)).
+          { intros x. eapply core_eq_trans'; [apply Hcore|apply gn_upd_theta_core]. }
+          destruct (IH m2 m' l' H) as (I1 & I2 & I3 & I4).
+          -- intros x Hx. destruct (Hcore2 x) as (_ & _ & _ & _ & _ & _ & Hd). rewrite <- Hd.
+             unfold m2. msimpl. rewrite Q2. apply Hlen. right; exact Hx.
+          -- exact HP1.
+          -- intros x k Hx Hxe Hxk. pose proof (Hcore2 x) as Hcx.
+             rewrite <- (core_eq_is_exact' _ _ Hcx) in Hxe.
+             destruct Hcx as (c1 & c2 & _ & _ & _ & _ & c7). rewrite <- c1 in Hxk. rewrite <- c1, <- c2, <- c7.
+             apply Hex; auto. right; exact Hx.
+          -- split; [rewrite I1; unfold m2; msimpl; exact Q1|]. split; [rewrite I2; unfold m2; msimpl; exact Q2|].
+             split; [exact I3|]. intros x [<-|Hx] Hnx.
+             ++ split; [exact Eex|]. destruct (Q3 eq_refl) as (k & os & ov & Hk & Hin & Hs).
+                exists k, os, ov. split; [exact Hk|]. split; [apply HP; exact Hin|exact Hs].
+             ++ destruct (I4 x Hx Hnx) as (J1 & k & e & ve & J2 & J3 & J4). pose proof (Hcore2 x) as Hcx.
+                rewrite <- (core_eq_is_exact' _ _ Hcx) in J1.
+                destruct Hcx as (c1 & c2 & _ & _ & _ & _ & c7). rewrite <- c1 in J2, J4. rewrite <- c2 in J4. rewrite <- c7 in J3.
+                split; [exact J1|]. exists k, e, ve. auto.
+        * destruct (dom_retain inp m1 l) as [m2 k2] eqn:Er2. inversion H; subst m' l'. clear H.
+          destruct (IH m1 m2 k2 Er2) as (I1 & I2 & I3 & I4).
+          -- intros x Hx. destruct (Hcore x) as (_ & _ & _ & _ & _ & _ & Hd). rewrite <- Hd, Q2. apply Hlen. right; exact Hx.
+          -- exact HP1.
+          -- intros x k Hx Hxe Hxk. pose proof (Hcore x) as Hcx.
+             rewrite <- (core_eq_is_exact' _ _ Hcx) in Hxe.
+             destruct Hcx as (c1 & c2 & _ & _ & _ & _ & c7). rewrite <- c1 in Hxk. rewrite <- c1, <- c2, <- c7.
+             apply Hex; auto. right; exact Hx.
+          -- split; [rewrite I1; exact Q1|]. split; [rewrite I2; exact Q2|]. split; [exact I3|].
+             intros x [<-|Hx] Hnx; [exfalso; apply Hnx; left; reflexivity|].
+             destruct (I4 x Hx) as (J1 & k & e & ve & J2 & J3 & J4); [intros Hc; apply Hnx; right; exact Hc|].
+             pose proof (Hcore x) as Hcx. rewrite <- (core_eq_is_exact' _ _ Hcx) in J1.
+             destruct Hcx as (c1 & c2 & _ & _ & _ & _ & c7). rewrite <- c1 in J2, J4. rewrite <- c2 in J4. rewrite <- c7 in J3.
+             split; [exact J1|]. exists k, e, ve. auto.
+      + destruct (dom_retain inp m l) as [m2 k2] eqn:Er2. inversion H; subst m' l'. clear H.
+        destruct (IH m m2 k2 Er2) as (I1 & I2 & I3 & I4).
+        -- intros x Hx. apply Hlen. right; exact Hx.
+        -- exact HP.
+        -- intros x k Hx. apply Hex. right; exact Hx.
+        -- split; [exact I1|]. split; [exact I2|]. split; [exact I3|].
+           intros x [<-|Hx] Hnx; [exfalso; apply Hnx; left; reflexivity|].
+           apply I4; [exact Hx|]. intros Hc; apply Hnx; right; exact Hc.
+  Qed.
+
+  Lemma filter_with_dominance_spec (P : nat -> Z -> St -> Z -> Prop) (m m' : mdd) l l' :
+    filter_with_dominance inp m l = (m', l') ->
+    (forall id, In id l -> n_depth (gn m id) < length (m_dom m)) ->
+    store_all P (m_dom m) ->
+    (forall id k, In id l -> fl_is_exact (n_flags (gn m id)) = true -> key (n_state (gn m id)) = Some k ->
+       P (n_depth (gn m id)) k (n_state (gn m id)) (n_vtop (gn m id))) ->
+    m_crash m' = m_crash m /\ length (m_dom m') = length (m_dom m) /\ store_all P (m_dom m') /\
+    (forall id, In id l -> ~ In id l' ->
+       fl_is_exact (n_flags (gn m id)) = true /\
+       exists k e ve, key (n_state (gn m id)) = Some k /\ P (n_depth (gn m id)) k e ve /\
+                      sdom nd coord usev e ve (n_state (gn m id)) (n_vtop (gn m id))).
+  Proof.
+    unfold filter_with_dominance. intros H Hlen HP Hex.
+    destruct (dom_retain_spec P (sort_by (dom_order inp m) l) m m' l' H) as (R1 & R2 & R3 & R4).
+    - intros id Hid. apply Hlen. apply sort_by_In in Hid. exact Hid.
+    - exact HP.
+    - intros id k Hid. apply Hex. apply sort_by_In in Hid. exact Hid.
+    - split; [exact R1|]. split; [exact R2|]. split; [exact R3|]. intros id Hid. apply R4. apply sort_by_In. exact Hid.
+  Qed.
+End DomFilter.
+
+(* ================================================================== 5. nothing but the dominance query touches the store *)
+Section DomFrame.
+  Context {St : Type}.
+  Variable st_eqb : St -> St -> bool.
+  Variable inp : @cinput St.
+  Notation mdd := (@mdd St).
+  Notation gn := (get_node inp).
+
+  Lemma dom_fold {X} (f : mdd -> X -> mdd) l (m : mdd) :
+    (forall a x, m_dom (f a x) = m_dom a) -> m_dom (fold_left f l m) = m_dom m.
+  Proof. intros Hf. apply (MddStruct.fold_left_proj (@m_dom St)). exact Hf. Qed.
+
+  Lemma dom_branch_on (m : mdd) id d : m_dom (branch_on st_eqb inp m id d) = m_dom m.
+  Proof. unfold branch_on. cbv zeta. destruct (find_next _ _ _ _); reflexivity. Qed.
+
+  Lemma dom_expand_node var (m : mdd) id : m_dom (expand_node st_eqb inp var m id) = m_dom m.
+  Proof.
+    unfold expand_node. cbv zeta. destruct (Z.gtb _ _); [|reflexivity].
+    rewrite dom_fold by (intros; apply dom_branch_on). reflexivity.
+  Qed.
+
+  Lemma dom_expand_layer var l (m : mdd) : m_dom (fold_left (expand_node st_eqb inp var) l m) = m_dom m.
+  Proof. apply dom_fold. intros. apply dom_expand_node. Qed.
+
+  Lemma dom_cache_get (m : mdd) s d : m_dom (fst (cache_get st_eqb inp m s d)) = m_dom m.
+  Proof.
+    unfold cache_get. destruct (ci_use_cache inp); [|reflexivity].
+    destruct (get_threshold _ _ _ _); reflexivity.
+  Qed.
+
+  Lemma dom_filter_with_cache l : forall (m : mdd), m_dom (fst (filter_with_cache st_eqb inp m l)) = m_dom m.
+  Proof.
+    induction l as [|id l IH]; intros m; cbn [filter_with_cache]; [reflexivity|].
+    pose proof (dom_cache_get m (n_state (gn m id)) (n_depth (gn m id))) as Hc.
+    destruct (cache_get st_eqb inp m (n_state (gn m id)) (n_depth (gn m id))) as [m1 th]. cbn [fst] in Hc.
+    destruct th as [t|].
+    - destruct (Z.gtb _ _).
+      + specialize (IH m1). destruct (filter_with_cache st_eqb inp m1 l) as [m2 r]. cbn [fst] in *. congruence.
+      + rewrite IH. cbn [m_dom upd_node with_nodes]. exact Hc.
+    - specialize (IH m1). destruct (filter_with_cache st_eqb inp m1 l) as [m2 r]. cbn [fst] in *. congruence.
+  Qed.
+
+  Lemma dom_prefilter (m : mdd) l : m_dom (fst (prefilter st_eqb inp m l)) = m_dom m.
+  Proof. unfold prefilter. destruct (Nat.ltb _ _); [apply dom_filter_with_cache|reflexivity]. Qed.
+
+  Lemma dom_note_squash (m : mdd) : m_dom (note_squash inp m) = m_dom m.
+  Proof. unfold note_squash. destruct (is_pooled _); [reflexivity|]. destruct (m_lel m); reflexivity. Qed.
+
+  Lemma dom_mark_deleted (m : mdd) ids : m_dom (mark_deleted m ids) = m_dom m.
+  Proof. unfold mark_deleted. apply dom_fold. reflexivity. Qed.
+
+  Lemma dom_redirect_edges (m : mdd) merged mid did : m_dom (redirect_edges inp m merged mid did) = m_dom m.
+  Proof. unfold redirect_edges. apply dom_fold. reflexivity. Qed.
+
+  Lemma dom_relax_layer (m : mdd) l : m_dom (fst (relax_layer st_eqb inp m l)) = m_dom m.
+  Proof.
+    unfold relax_layer. cbv zeta. destruct (ci_width inp) as [|w1]; [cbn; apply dom_note_squash|].
+    match goal with |- context [find ?p ?k] => destruct (find p k) end; cbn [fst].
+    - cbn [m_dom upd_node with_nodes]. rewrite dom_fold.
+      + cbn [m_dom upd_node with_nodes add_log]. apply dom_note_squash.
+      + intros a x. rewrite dom_redirect_edges. reflexivity.
+    - rewrite dom_fold.
+      + cbn [m_dom upd_node with_nodes add_log]. apply dom_note_squash.
+      + intros a x. rewrite dom_redirect_edges. reflexivity.
+  Qed.
+
+  Lemma dom_squash_if_needed (m : mdd) l : m_dom (fst (squash_if_needed st_eqb inp m l)) = m_dom m.
+  Proof.
+    unfold squash_if_needed. destruct (ci_type inp).
+    - reflexivity.
+    - destruct (_ && _); [apply dom_relax_layer|reflexivity].
+    - destruct (Nat.ltb _ _); [|reflexivity]. unfold restrict_layer. cbv zeta. cbn [fst].
+      rewrite dom_mark_deleted. apply dom_note_squash.
+  Qed.
+End DomFrame.
+
+(* ================================================================== 6. the structural contracts with a dominance rule
+   (MddProgress.v re-run: only the filter step differs; the store must be long enough for the depths met) *)
+Section DomProgress.
+  Context {St : Type}.
+  Variable st_eqb : St -> St -> bool.
+  Hypothesis st_eqb_spec : forall a b, st_eqb a b = true <-> a = b.
+  Variable inp : @cinput St.
+  Variable key : St -> option Z.
+  Variable nd : nat.
+  Variable coord : St -> nat -> Z.
+  Variable usev : bool.
+  Hypothesis Hdom : ci_domrule inp = Some (key, nd, coord, usev).
+
+  Notation mdd := (@mdd St).
+  Notation gn := (get_node inp).
+  Notation pb := (ci_problem inp).
+  Notation N := (nb_vars (ci_problem inp)).
+  Notation d0 := (sp_depth (ci_root inp)).
+
+  Hypothesis Hclean : ci_flavour inp = CleanLEL \/ ci_flavour inp = CleanFC.
+  Hypothesis Hnocache : ci_use_cache inp = false.
+  Hypothesis Hnocut : ci_cutoff inp = 0.
+  Hypothesis Hwidth : 1 <= ci_width inp.
+  Hypothesis nv_some : forall k l, k < N -> exists x, next_variable pb k l = Some x.
+  Hypothesis nv_none : forall k l, N <= k -> next_variable pb k l = None.
+  Hypothesis Hroot_depth : d0 <= N.
+
+  Let PLinv := @MddProgress.Linv St inp.
+  Definition LinvD (m : mdd) : Prop := MddProgress.Linv inp m /\ N < length (m_dom m).
+
+  Lemma not_pooledD : is_pooled (ci_flavour inp) = false.
+  Proof. destruct Hclean as [H|H]; rewrite H; reflexivity. Qed.
+
+  Lemma filter_with_dominance_stepD dn (m : mdd) l m' l' :
+    filter_with_dominance inp m l = (m', l') ->
+    Pinv inp dn m -> (forall id, In id l -> n_depth (gn m id) < length (m_dom m)) ->
+    Pinv inp dn m' /\ keep inp m m' /\ ceq inp m m' /\ incl l' l /\ length (m_dom m') = length (m_dom m).
+  Proof.
+    intros H HP Hlen.
+    pose proof (filter_with_dominance_ceq inp m l) as [C1 C2].
+    destruct (filter_with_dominance_spec inp key nd coord usev Hdom (fun _ _ _ _ => True) m m' l l' H Hlen)
+      as (C3 & C4 & _); [intros d k e ve _; exact I|intros; exact I|].
+    rewrite H in C1, C2. simpl in *.
+    split; [eapply (Pinv_ceq inp Hnocut Hwidth Hroot_depth); eauto|].
+    split; [apply (keep_ceq inp Hnocut Hwidth Hroot_depth); auto|]. split; auto.
+  Qed.
+
+  Lemma move_some_stepD (m m' : mdd) l :
+    move_to_next_layer_clean st_eqb inp m = (m', Some l) -> LinvD m ->
+    Minv inp m m' l /\ length (m_dom m') = length (m_dom m).
+  Proof.
+    rewrite move_clean_unfold. intros H [[L1 L2 L3 L4 L5 L6 L7] Hds].
+    set (d := m_curr_depth m) in *.
+    destruct (m_next m) as [|x nx] eqn:Hn; [discriminate|]. rewrite <- Hn in H.
+    set (ma := with_next m []) in *.
+    assert (HPa : Pinv inp d ma) by (apply Pinv_with_next; [exact L1|intros id []]).
+    assert (Hka : keep inp m ma) by apply (keep_with_next inp Hnocut Hwidth Hroot_depth).
+    assert (Hoa : in_open ma (m_next m)) by (intros id Hid; apply (P_next _ _ _ L1); exact Hid).
+    destruct (prefilter st_eqb inp ma (m_next m)) as [m1 l1] eqn:H1.
+    destruct (filter_with_dominance inp m1 l1) as [m2 l2] eqn:H2.
+    destruct (squash_if_needed st_eqb inp m2 l2) as [m3 l3] eqn:H3.
+    inversion H; subst m' l; clear H.
+    destruct (prefilter_step st_eqb inp Hclean Hnocache Hnocut Hwidth Hroot_depth d ma _ m1 l1 H1 HPa) as (A1 & A2 & A3 & A4).
+    assert (Hdom1 : m_dom m1 = m_dom m).
+    { pose proof (dom_prefilter st_eqb inp ma (m_next m)) as Hp. rewrite H1 in Hp. exact Hp. }
+    assert (Hlen1 : forall id, In id l1 -> n_depth (gn m1 id) < length (m_dom m1)).
+    { intros id Hid. rewrite Hdom1.
+      assert (Hop : m_layer_end m1 <= id < length (m_nodes m1)).
+      { apply (in_open_keep inp Hnocut Hwidth Hroot_depth ma m1 (m_next m) l1 A2 A4 Hoa). exact Hid. }
+      rewrite (P_open _ _ _ A1 id) by lia. unfold d. lia. }
+    destruct (filter_with_dominance_stepD d m1 l1 m2 l2 H2 A1 Hlen1) as (B1 & B2 & B3 & B4 & B5).
+    assert (Hk2 : keep inp m m2).
+    { eapply (keep_trans inp Hnocut Hwidth Hroot_depth); [exact Hka|].
+      eapply (keep_trans inp Hnocut Hwidth Hroot_depth); eauto. }
+    assert (Ho2 : in_open m2 l2).
+    { apply (in_open_keep inp Hnocut Hwidth Hroot_depth ma m2 (m_next m) l2);
+        [eapply (keep_trans inp Hnocut Hwidth Hroot_depth); [exact A2|exact B2]|eapply incl_tran; [exact B4|exact A4]|exact Hoa]. }
+    destruct (squash_step st_eqb inp Hclean Hnocut Hwidth Hroot_depth d m2 l2 m3 l3 H3 B1) as (C1 & C2 & C3 & C4 & C5); auto.
+    { rewrite (k_layers _ _ _ Hk2). exact L3. }
+    assert (Hk3 : keep inp m m3) by (eapply (keep_trans inp Hnocut Hwidth Hroot_depth); eauto).
+    assert (Hn3 : m_next m3 = []).
+    { rewrite (squash_next st_eqb inp _ _ _ _ H3).
+      destruct B3 as (_ & b & _). destruct A3 as (_ & a & _). rewrite b, a. reflexivity. }
+    assert (Hlen2 : length (m_nodes m2) = length (m_nodes m)).
+    { destruct B3 as ((_ & _ & b & _) & _). destruct A3 as ((_ & _ & a & _) & _). rewrite b, a. reflexivity. }
+    assert (Hlel2 : m_lel m2 = m_lel m).
+    { destruct B3 as (_ & _ & _ & _ & b & _). destruct A3 as (_ & _ & _ & _ & a & _). rewrite b, a. reflexivity. }
+    set (from := m_layer_end m3). set (to := length (m_nodes m3)).
+    set (m4 := push_layer m3 (seq from (to - from)) to).
+    assert (Hgn4 : forall k, gn m4 k = gn m3 k) by reflexivity.
+    split.
+    2:{ change (m_dom m4) with (m_dom m3).
+        pose proof (dom_squash_if_needed st_eqb inp m2 l2) as Hq. rewrite H3 in Hq. cbn [fst] in Hq.
+        rewrite Hq, B5, Hdom1. reflexivity. }
+    split.
+    - apply (Pinv_push_layer inp Hnocut Hwidth Hroot_depth); auto.
+    - change (m_crash m4) with (m_crash m3). rewrite (k_crash _ _ _ Hk3). exact L2.
+    - change (m_curr_depth m4) with (m_curr_depth m3). apply (k_cd _ _ _ Hk3).
+    - exact L3.
+    - eexists. unfold m4. msimpl. rewrite (k_layers _ _ _ Hk3). reflexivity.
+    - apply (layers_ok_push inp Hnocut Hwidth Hroot_depth).
+      + eapply (layers_ok_keep inp Hnocut Hwidth Hroot_depth); eauto.
+      + intros id Hid. apply in_seq in Hid. split; [unfold to in Hid; lia|].
+        rewrite (P_open _ _ _ C1 id) by (unfold from, to in Hid; lia).
+        rewrite (k_layers _ _ _ Hk3). exact L3.
+    - unfold m4. msimpl. apply Forall_app. split; [rewrite (k_layers _ _ _ Hk3); exact L6|].
+      constructor; [apply seq_NoDup|constructor].
+    - intros k Hk Hr. change (m_lel m4) with (m_lel m3) in Hk.
+      destruct (C5 k Hk) as [Hold|Hnew]; [|auto]. rewrite Hlel2 in Hold. apply L7; auto.
+    - exact Hn3.
+    - intros id Hid. destruct (C4 id Hid) as [c1 c2]. rewrite Hgn4. split; [exact c2|].
+      apply (P_open _ _ _ C1); auto.
+    - change (length (m_nodes m4)) with (length (m_nodes m3)). lia.
+  Qed.
+
+  Lemma LinvD_frame (m m' : mdd) :
+    m_nodes m' = m_nodes m -> m_edges m' = m_edges m -> m_path m' = m_path m -> m_next m' = m_next m ->
+    m_layer_end m' = m_layer_end m -> m_layers m' = m_layers m -> m_curr_depth m' = m_curr_depth m ->
+    m_lel m' = m_lel m -> m_crash m' = m_crash m -> m_dom m' = m_dom m -> LinvD m -> LinvD m'.
+  Proof.
+    intros H1 H2 H3 H4 H5 H6 H7 H8 H9 H10 [HL Hd]. split; [|rewrite H10; exact Hd].
+    apply (Linv_frame inp Hnocut Hwidth Hroot_depth m); auto.
+  Qed.
+
+  Definition PostD (m : mdd) : Prop := MddProgress.Post inp m /\ N < length (m_dom m).
+
+  Lemma expand_finishD var (m m' : mdd) l :
+    Minv inp m m' l -> length (m_dom m') = length (m_dom m) -> LinvD m -> m_curr_depth m < N ->
+    LinvD (with_depth (fold_left (expand_node st_eqb inp var) l m')
+                     (S (m_curr_depth (fold_left (expand_node st_eqb inp var) l m')))) /\
+    m_curr_depth (fold_left (expand_node st_eqb inp var) l m') = m_curr_depth m.
+  Proof.
+    intros HM Hd [_ Hds] HN.
+    destruct (expand_finish st_eqb inp Hclean Hnocut Hwidth Hroot_depth var m m' l HM HN) as [E1 E2].
+    split; [|exact E2]. split; [exact E1|].
+    change (m_dom (with_depth ?a ?b)) with (m_dom a). rewrite dom_expand_layer, Hd. exact Hds.
+  Qed.
+
+  Lemma layer_loop_postD : forall fuel (m : mdd),
+    LinvD m -> N - m_curr_depth m < fuel ->
+    exists m', layer_loop st_eqb inp fuel m = (m', LoopDone) /\ PostD m'.
+  Proof.
+    induction fuel as [|fuel IH]; intros m HL Hf; [lia|].
+    cbn [layer_loop]. cbv zeta.
+    set (states := map (fun id => n_state (gn m id)) (m_next m)).
+    destruct (Nat.lt_ge_cases (m_curr_depth m) N) as [Hlt|Hge].
+    - destruct (nv_some (m_curr_depth m) states Hlt) as [var Hv]. rewrite Hv.
+      set (m1 := add_log m (EvNextVar (m_curr_depth m) states (Some var))).
+      set (m2 := with_polls m1 (S (m_polls m1))).
+      rewrite Hnocut. change (Nat.ltb 0 0) with false. cbn [andb].
+      rewrite not_pooledD.
+      assert (HL2 : LinvD m2) by (apply (LinvD_frame m); auto; reflexivity).
+      destruct (move_to_next_layer_clean st_eqb inp m2) as [m3 [l|]] eqn:Hmv.
+      + destruct (move_some_stepD m2 m3 l Hmv HL2) as [HM Hd3].
+        destruct (expand_finishD var m2 m3 l HM Hd3 HL2 Hlt) as [HL4 Hcd4].
+        apply IH; [exact HL4|]. msimpl. rewrite Hcd4. change (m_curr_depth m2) with (m_curr_depth m). lia.
+      + exists m3. split; [reflexivity|].
+        destruct (move_none_inv st_eqb inp m2 m3 Hmv) as [E1 E2]. split.
+        * right. exists m2. destruct HL2 as [HL2 _]. auto.
+        * rewrite E2. change (m_dom (push_layer (with_next m2 []) [] 0)) with (m_dom m). apply HL.
+    - rewrite (nv_none _ states Hge).
+      eexists. split; [reflexivity|]. split.
+      + left. split; [|exact Hge]. destruct HL as [HL _].
+        apply (Linv_frame inp Hnocut Hwidth Hroot_depth m); auto; reflexivity.
+      + change (m_dom (add_log m ?e)) with (m_dom m). apply HL.
+  Qed.
+
+  Lemma compile_unfoldD tb tb2 c ds polls : N < length ds ->
+    exists ml, layer_loop st_eqb inp (S (S N)) (initialize inp c ds polls) = (ml, LoopDone) /\
+               MddProgress.Post inp ml /\ Sinv inp ml /\ Xs inp ml /\
+               compile st_eqb inp tb tb2 c ds polls = (finalize st_eqb inp tb tb2 ml, Compiled).
+  Proof.
+    intros Hds.
+    destruct (layer_loop_postD (S (S N)) (initialize inp c ds polls)) as (ml & Hl & HP & _).
+    { split; [apply (MddProgress.Linv_initialize inp Hclean Hnocut Hwidth Hroot_depth)|exact Hds]. }
+    { simpl. lia. }
+    destruct (layer_loop_Sinv st_eqb st_eqb_spec inp Hclean (S (S N)) c ds polls) as [HS HX].
+    rewrite Hl in HS, HX. cbn [fst] in HS, HX.
+    exists ml. split; [exact Hl|]. split; [exact HP|]. split; [exact HS|]. split; [exact HX|].
+    unfold compile. cbv zeta. rewrite Hl. reflexivity.
+  Qed.
+
+  Theorem compile_factsD tb tb2 c ds polls (m : mdd) out : N < length ds ->
+    compile st_eqb inp tb tb2 c ds polls = (m, out) ->
+    out = Compiled /\ m_crash m = false /\
+    (forall id, id < length (m_nodes m) -> d0 <= n_depth (gn m id) <= N) /\
+    (forall b, m_best m = Some b \/ m_best_exact m = Some b -> n_depth (gn m b) = N) /\
+    (ci_type inp = Relaxed -> forall sp, In sp (drain_cutset inp m) -> d0 < sp_depth sp <= N) /\
+    NoDup (m_cutset m) /\
+    (ci_type inp = Relaxed -> forall id, In id (m_cutset m) -> id < length (m_nodes m)).
+  Proof.
+    intros Hds H. destruct (compile_unfoldD tb tb2 c ds polls Hds) as (ml & _ & HP & HS & HX & Hc).
+    rewrite Hc in H. inversion H; subst. split; [reflexivity|].
+    destruct (finalize_facts st_eqb inp Hclean Hnocache Hnocut Hwidth Hroot_depth tb tb2 ml HP HS HX)
+      as (F1 & _ & Fd & _ & _ & Fn & G1 & G2 & Fnd & Fc).
+    split; [exact F1|]. split; [exact Fd|]. split; [|split; [|split; [exact Fnd|]]].
+    - intros b Hb. apply Fn. destruct Hb as [Hb|Hb]; [apply G1|apply G2]; exact Hb.
+    - intros Hr sp Hin. destruct (drain_cutset_In inp _ sp Hin) as (id & Hid & ->).
+      destruct (Fc Hr id Hid) as [a b]. specialize (Fd id a). lia.
+    - intros Hr id Hid. apply (Fc Hr id Hid).
+  Qed.
+
+  (* ---- size of the diagram (K5) *)
+  Variable D : nat.
+  Hypothesis dom_bound : forall x s, length (domain pb x s) <= D.
+
+  Lemma layer_loop_countD : forall fuel (m m' : mdd) e,
+    ci_type inp = Relaxed -> LinvD m -> cnt_ok inp D m ->
+    layer_loop st_eqb inp fuel m = (m', e) -> length (m_nodes m') <= Mbound inp D.
+  Proof.
+    induction fuel as [|fuel IH]; intros m m' e Ht HL HC H.
+    - simpl in H. inversion H; subst. apply (cnt_ok_bound inp Hnocut Hwidth Hroot_depth); [exact HC|].
+      destruct HL as [HL _]. pose proof (L_cd _ _ HL). pose proof (L_cdN _ _ HL). lia.
+    - assert (Hhere : length (m_nodes m) <= Mbound inp D).
+      { apply (cnt_ok_bound inp Hnocut Hwidth Hroot_depth); [exact HC|].
+        destruct HL as [HL _]. pose proof (L_cd _ _ HL). pose proof (L_cdN _ _ HL). lia. }
+      revert H. cbn [layer_loop]. cbv zeta.
+      set (states := map (fun id => n_state (gn m id)) (m_next m)).
+      destruct (next_variable (ci_problem inp) (m_curr_depth m) states) as [var|] eqn:Hv.
+      2:{ intros H; inversion H; subst. exact Hhere. }
+      assert (Hlt : m_curr_depth m < N).
+      { destruct (Nat.lt_ge_cases (m_curr_depth m) N) as [G|G]; [exact G|].
+        rewrite (nv_none _ states G) in Hv. discriminate. }
+      set (m1 := add_log m (EvNextVar (m_curr_depth m) states (Some var))).
+      set (m2 := with_polls m1 (S (m_polls m1))).
+      rewrite Hnocut. change (Nat.ltb 0 0) with false. cbn [andb].
+      rewrite not_pooledD.
+      assert (HL2 : LinvD m2) by (apply (LinvD_frame m); auto; reflexivity).
+      destruct (move_to_next_layer_clean st_eqb inp m2) as [m3 [l|]] eqn:Hmv.
+      2:{ intros H; inversion H; subst. destruct (move_none_inv st_eqb inp m2 m' Hmv) as [_ ->]. exact Hhere. }
+      destruct (move_some_stepD m2 m3 l Hmv HL2) as [HM Hd3].
+      destruct (expand_finishD var m2 m3 l HM Hd3 HL2 Hlt) as [HL4 Hcd4].
+      destruct (expand_layer_counts st_eqb inp Hnocut Hwidth Hroot_depth D dom_bound var l m3) as [X1 X2].
+      set (m4 := fold_left (expand_node st_eqb inp var) l m3) in *.
+      intros H. apply (IH _ _ _ Ht HL4) in H; [exact H|].
+      pose proof (M_len _ _ _ _ HM) as Hlen3. change (m_nodes m2) with (m_nodes m) in Hlen3.
+      rewrite (M_next _ _ _ _ HM) in X2. simpl in X2.
+      destruct (M_layers _ _ _ _ HM) as [ids Hly]. change (m_layers m2) with (m_layers m) in Hly.
+      pose proof (expand_layer_step st_eqb inp Hclean Hnocut Hwidth Hroot_depth var (m_curr_depth m2) l m3
+                    (M_P _ _ _ _ HM) (M_l _ _ _ _ HM)) as [_ Hk4].
+      assert (Hk5 : length (m_layers (with_depth m4 (S (m_curr_depth m4)))) = S (length (m_layers m))).
+      { msimpl. fold m4 in Hk4. rewrite (k_layers _ _ _ Hk4), Hly, app_length. simpl. lia. }
+      destruct HC as (C0 & C1 & C2).
+      unfold cnt_ok. rewrite Hk5. msimpl.
+      destruct (length (m_layers m)) as [|[|k]] eqn:Ek.
+      + destruct C0 as [c1 c2]; auto.
+        assert (Hl : length l <= 1).
+        { pose proof (move_first_layers_len st_eqb inp m2 m3 l Hmv Ht) as G. change (m_layers m2) with (m_layers m) in G.
+          change (m_next m2) with (m_next m) in G. rewrite Ek in G. specialize (G ltac:(lia)). lia. }
+        assert (Hm : length l * D <= 1 * D) by (apply Nat.mul_le_mono_r; exact Hl).
+        split; [discriminate|]. split; [intros _; lia|intros G; lia].
+      + destruct C1 as [c1 c2]; auto.
+        assert (Hl : length l <= D).
+        { pose proof (move_first_layers_len st_eqb inp m2 m3 l Hmv Ht) as G. change (m_layers m2) with (m_layers m) in G.
+          change (m_next m2) with (m_next m) in G. rewrite Ek in G. specialize (G ltac:(lia)). lia. }
+        assert (Hm : length l * D <= D * D) by (apply Nat.mul_le_mono_r; exact Hl).
+        split; [discriminate|]. split; [discriminate|]. intros _. simpl. lia.
+      + assert (H2 : 2 <= S (S k)) by lia. specialize (C2 H2).
+        assert (Hl : length l <= ci_width inp).
+        { apply (move_clean_width_relaxed st_eqb inp m2 m3 l Hmv Ht); [|exact Hwidth].
+          change (m_layers m2) with (m_layers m). rewrite Ek. lia. }
+        assert (Hm : length l * D <= ci_width inp * D) by (apply Nat.mul_le_mono_r; exact Hl).
+        split; [discriminate|]. split; [discriminate|]. intros _.
+        replace (S (S (S k)) - 2) with (S (S (S k) - 2)) by lia.
+        rewrite Nat.mul_succ_l. lia.
+  Qed.
+
+  Theorem cutset_size_boundD tb tb2 c ds polls (m : mdd) out : N < length ds ->
+    ci_type inp = Relaxed ->
+    compile st_eqb inp tb tb2 c ds polls = (m, out) -> length (drain_cutset inp m) <= Mbound inp D.
+  Proof.
+    intros Hds Ht H.
+    destruct (compile_factsD tb tb2 c ds polls m out Hds H) as (_ & _ & _ & _ & _ & Fnd & Fc).
+    assert (Hn : length (m_nodes m) <= Mbound inp D).
+    { destruct (compile_unfoldD tb tb2 c ds polls Hds) as (ml & Hl & HP & HS & HX & Hc).
+      rewrite Hc in H. inversion H; subst.
+      destruct (finalize_facts st_eqb inp Hclean Hnocache Hnocut Hwidth Hroot_depth tb tb2 ml HP HS HX) as (_ & -> & _).
+      eapply layer_loop_countD; [exact Ht| | |exact Hl].
+      - split; [apply (MddProgress.Linv_initialize inp Hclean Hnocut Hwidth Hroot_depth)|exact Hds].
+      - split; [|split]; simpl; intros; try discriminate; lia. }
+    assert (H1 : length (drain_cutset inp m) <= length (m_cutset m)).
+    { unfold drain_cutset. destruct (dd_best_value inp m); [|simpl; lia].
+      apply flat_map_length_le. intros id. destruct (f_marked _); simpl; lia. }
+    assert (H2 : length (m_cutset m) <= length (m_nodes m)).
+    { apply NoDup_bounded_length; [exact Fnd|]. intros id Hid. apply (Fc Ht id Hid). }
+    lia.
+  Qed.
+End DomProgress.
+
+(* ================================================================== 7. the simulation argument with a dominance rule
+   MddSim.v re-run.  The tracking invariants are those of MddSim.v for the TWIN input [inpT] = inp with
+   ci_best_lb := max lb tau: its promising runs are the feasible runs of value > lb and > tau, and every function of the
+   compilation that does not read ci_best_lb is convertible for inp and inpT.  The hypothesis [Hsafe] says that a pair
+   (state, value) reached from the root whose best completion exceeds tau is never strictly dominated by a pair
+   satisfying the store invariant [Pst]; [Hexact_Pst] says that what the compilation records satisfies [Pst]. *)
+Local Ltac nsimpl :=
+  cbn [n_state n_vtop n_vbot n_best n_inb n_rub n_theta n_flags n_depth
+       set_flags set_theta set_vbot set_rub set_depth
+       f_exact f_relaxed f_marked f_cutset f_deleted f_cache f_above
+       fl_set_exact fl_set_relaxed fl_set_marked fl_set_cutset fl_set_deleted fl_set_cache fl_set_above
+       fl_new_exact fl_new_relaxed e_from e_to e_dec e_cost].
+
+Section DomSim.
+  Context {St : Type}.
+  Variable st_eqb : St -> St -> bool.
+  Hypothesis st_eqb_spec : forall a b, st_eqb a b = true <-> a = b.
+  Variable inp : @cinput St.
+  Local Notation pb := (ci_problem inp).
+  Local Notation rlx := (ci_relax inp).
+  Local Notation root := (ci_root inp).
+  Local Notation lb := (ci_best_lb inp).
+  Local Notation N := (nb_vars (ci_problem inp)).
+  Local Notation rd := (sp_depth (ci_root inp)).
+  Local Notation rs := (sp_state (ci_root inp)).
+  Local Notation rv := (sp_value (ci_root inp)).
+  Hypothesis Hclean : ci_flavour inp = CleanLEL \/ ci_flavour inp = CleanFC.
+  Hypothesis Hnocache : ci_use_cache inp = false.
+  Hypothesis Hnocut : ci_cutoff inp = 0.
+  Hypothesis Hwidth : 1 <= ci_width inp.
+  Hypothesis Hrd : rd <= N.
+  Hypothesis nv_static : forall k l1 l2, next_variable pb k l1 = next_variable pb k l2.
+  Hypothesis nv_some : forall k l, k < N -> exists x, next_variable pb k l = Some x.
+  Hypothesis nv_none : forall k l, N <= k -> next_variable pb k l = None.
+  Variable cov : St -> St -> Prop.
+  Hypothesis cov_refl : forall s, cov s s.
+  Hypothesis cov_sim : forall s s' x v, cov s s' -> In v (domain pb x s') ->
+    let d := {| d_var := x; d_val := v |} in
+    In v (domain pb x s) /\ cov (transition pb s d) (transition pb s' d) /\
+    (transition_cost pb s' (transition pb s' d) d <= transition_cost pb s (transition pb s d) d)%Z.
+  Hypothesis merge_cov : forall L s s', In s L -> cov s s' -> cov (merge rlx L) s'.
+  Hypothesis relax_ge : forall src dst mg d c, (c <= relax rlx src dst mg d c)%Z.
+  Hypothesis rub_adm : forall k s s' h, cov s s' -> H pb k s' = Some h -> (h <= fast_upper_bound rlx s)%Z.
+  Variable B : Z.
+  Hypothesis HB : (2 * B <= IMAX)%Z.
+  Hypothesis Hguard : forall ds s' v', frun pb rd rs rv ds = Some (s', v') -> (- B <= v' <= B)%Z.
+
+  (* the rule *)
+  Variable key : St -> option Z.
+  Variable nd : nat.
+  Variable coord : St -> nat -> Z.
+  Variable usev : bool.
+  Hypothesis Hdom : ci_domrule inp = Some (key, nd, coord, usev).
+  Variable tau : Z.
+  Variable Pst : nat -> Z -> St -> Z -> Prop.
+  Hypothesis Hexact_Pst : forall ds s v k,
+    frun pb rd rs rv ds = Some (s, v) -> key s = Some k -> Pst (rd + length ds) k s v.
+  Hypothesis Hsafe : forall ds s v k h e ve,
+    frun pb rd rs rv ds = Some (s, v) -> key s = Some k -> H pb (rd + length ds) s = Some h ->
+    (tau < v + h)%Z -> Pst (rd + length ds) k e ve -> ~ sdom nd coord usev e ve s v.
+
+  Notation mdd := (@mdd St).
+  Notation node := (@node St).
+  Notation gn := (get_node inp).
+  Notation frn := (frun pb).
+
+  Definition inpT : @cinput St :=
+    {| ci_flavour := ci_flavour inp; ci_type := ci_type inp; ci_problem := ci_problem inp; ci_relax := ci_relax inp;
+       ci_ranking := ci_ranking inp; ci_domcmp := ci_domcmp inp; ci_width := ci_width inp; ci_root := ci_root inp;
+       ci_best_lb := Z.max lb tau; ci_use_cache := ci_use_cache inp; ci_domrule := ci_domrule inp; ci_cutoff := ci_cutoff inp |}.
+
+  (* ---- the lemmas of MddSim.v that do not depend on the absence of a rule, closed over this section's context *)
+  Ltac inst_with X t :=
+    first
+    [ let A := lazymatch type of t with forall x : ?A, _ => A end in
+      first
+      [ unify A (St -> St -> bool); inst_with X (t st_eqb)
+      | unify A (@cinput St); inst_with X (t X)
+      | unify A (St -> St -> Prop); inst_with X (t cov)
+      | lazymatch type of t with forall b : Z, (2 * b <= IMAX)%Z -> _ => inst_with X (t B HB) end
+      | let T := type of st_eqb_spec in unify A T; inst_with X (t st_eqb_spec)
+      | let T := type of Hclean in unify A T; inst_with X (t Hclean)
+      | let T := type of Hnocache in unify A T; inst_with X (t Hnocache)
+      | let T := type of Hnocut in unify A T; inst_with X (t Hnocut)
+      | let T := type of Hwidth in unify A T; inst_with X (t Hwidth)
+      | let T := type of Hrd in unify A T; inst_with X (t Hrd)
+      | let T := type of nv_static in unify A T; inst_with X (t nv_static)
+      | let T := type of nv_some in unify A T; inst_with X (t nv_some)
+      | let T := type of nv_none in unify A T; inst_with X (t nv_none)
+      | let T := type of cov_refl in unify A T; inst_with X (t cov_refl)
+      | let T := type of cov_sim in unify A T; inst_with X (t cov_sim)
+      | let T := type of merge_cov in unify A T; inst_with X (t merge_cov)
+      | let T := type of relax_ge in unify A T; inst_with X (t relax_ge)
+      | let T := type of rub_adm in unify A T; inst_with X (t rub_adm)
+      | let T := type of Hguard in unify A T; inst_with X (t Hguard) ]
+    | exact t ].
+  Ltac inst t := inst_with inp t.
+  Ltac instT t := inst_with inpT t.
+
+  Let guard_isize := ltac:(inst (@MddSim.guard_isize St)).
+  Let inbinc_refl := ltac:(inst (@MddSim.inbinc_refl St)).
+  Let inbinc_trans := ltac:(inst (@MddSim.inbinc_trans St)).
+  Let gr_refl := ltac:(inst (@MddSim.gr_refl St)).
+  Let gr_trans := ltac:(inst (@MddSim.gr_trans St)).
+  Let inbinc_same_nodes := ltac:(inst (@MddSim.inbinc_same_nodes St)).
+  Let inbinc_upd_node := ltac:(inst (@MddSim.inbinc_upd_node St)).
+  Let inbinc_append_edge := ltac:(inst (@MddSim.inbinc_append_edge St)).
+  Let inbinc_snoc := ltac:(inst (@MddSim.inbinc_snoc St)).
+  Let gr_add_log := ltac:(inst (@MddSim.gr_add_log St)).
+  Let gr_upd_node := ltac:(inst (@MddSim.gr_upd_node St)).
+  Let gr_append_edge := ltac:(inst (@MddSim.gr_append_edge St)).
+  Let gr_snoc := ltac:(inst (@MddSim.gr_snoc St)).
+  Let gr_with_next_app := ltac:(inst (@MddSim.gr_with_next_app St)).
+  Let gr_fold := ltac:(inst (@MddSim.gr_fold St)).
+  Let gr_branch_on := ltac:(inst (@MddSim.gr_branch_on St)).
+  Let gr_expand_node := ltac:(inst (@MddSim.gr_expand_node St)).
+  Let gr_ceq := ltac:(inst (@MddSim.gr_ceq St)).
+  Let gr_edge := ltac:(inst (@MddSim.gr_edge St)).
+  Let gr_state := ltac:(inst (@MddSim.gr_state St)).
+  Let gr_nodes := ltac:(inst (@MddSim.gr_nodes St)).
+  Let gr_edges_len := ltac:(inst (@MddSim.gr_edges_len St)).
+  Let gr_next := ltac:(inst (@MddSim.gr_next St)).
+  Let gr_layers := ltac:(inst (@MddSim.gr_layers St)).
+  Let dpath_cov := ltac:(inst (@MddSim.dpath_cov St)).
+  Let dpath_range := ltac:(inst (@MddSim.dpath_range St)).
+  Let dpath_state := ltac:(inst (@MddSim.dpath_state St)).
+  Let dpath_transport := ltac:(inst (@MddSim.dpath_transport St)).
+  Let dpath_gr := ltac:(inst (@MddSim.dpath_gr St)).
+  Let dpath_peq := ltac:(inst (@MddSim.dpath_peq St)).
+  Let dpath_split := ltac:(inst (@MddSim.dpath_split St)).
+  Let Einv_peq := ltac:(inst (@MddSim.Einv_peq St)).
+  Let Einv_ceq := ltac:(inst (@MddSim.Einv_ceq St)).
+  Let Einv_append_edge := ltac:(inst (@MddSim.Einv_append_edge St)).
+  Let Einv_snoc := ltac:(inst (@MddSim.Einv_snoc St)).
+  Let Einv_upd_open := ltac:(inst (@MddSim.Einv_upd_open St)).
+  Let Einv_frame := ltac:(inst (@MddSim.Einv_frame St)).
+  Let dpath_vtop_gen := ltac:(inst (@MddSim.dpath_vtop_gen St)).
+  Let dpath_vtop := ltac:(inst (@MddSim.dpath_vtop St)).
+  Let dpath_exact := ltac:(inst (@MddSim.dpath_exact St)).
+  Let filter_with_cache_nocache := ltac:(inst (@MddSim.filter_with_cache_nocache St)).
+  Let branch_on_spec := ltac:(inst (@MddSim.branch_on_spec St)).
+  Let Einv_branch_on := ltac:(inst (@MddSim.Einv_branch_on St)).
+  Let branch_on_Cinv := ltac:(inst (@MddSim.branch_on_Cinv St)).
+  Let prefix_isize := ltac:(inst (@MddSim.prefix_isize St)).
+  Let expand_node_track := ltac:(inst (@MddSim.expand_node_track St)).
+  Let expand_node_Cinv := ltac:(inst (@MddSim.expand_node_Cinv St)).
+  Let root_vtop := ltac:(inst (@MddSim.root_vtop St)).
+  Let expand_layer_Cinv := ltac:(inst (@MddSim.expand_layer_Cinv St)).
+  Let expand_layer_track := ltac:(inst (@MddSim.expand_layer_track St)).
+  Let gr_redirect_step := ltac:(inst (@MddSim.gr_redirect_step St)).
+  Let gr_drop_step := ltac:(inst (@MddSim.gr_drop_step St)).
+  Let Rinv_redirect_step := ltac:(inst (@MddSim.Rinv_redirect_step St)).
+  Let Rinv_upd_flag := ltac:(inst (@MddSim.Rinv_upd_flag St)).
+  Let Rinv_drop_step := ltac:(inst (@MddSim.Rinv_drop_step St)).
+  Let redirect_step_track := ltac:(inst (@MddSim.redirect_step_track St)).
+  Let srcs_refl := ltac:(inst (@MddSim.srcs_refl St)).
+  Let srcs_trans := ltac:(inst (@MddSim.srcs_trans St)).
+  Let srcs_edges_eq := ltac:(inst (@MddSim.srcs_edges_eq St)).
+  Let Src_gr := ltac:(inst (@MddSim.Src_gr St)).
+  Let srcs_redirect_step := ltac:(inst (@MddSim.srcs_redirect_step St)).
+  Let srcs_drop_step := ltac:(inst (@MddSim.srcs_drop_step St)).
+  Let srcs_drop_fold := ltac:(inst (@MddSim.srcs_drop_fold St)).
+  Let drop_fold_track := ltac:(inst (@MddSim.drop_fold_track St)).
+  Let dpath_snoc_inv := ltac:(inst (@MddSim.dpath_snoc_inv St)).
+  Let is_exact_set_relaxed := ltac:(inst (@MddSim.is_exact_set_relaxed St)).
+  Let relax_layer_sim := ltac:(inst (@MddSim.relax_layer_sim St)).
+  Let append_edge_lel := ltac:(inst (@MddSim.append_edge_lel St)).
+  Let branch_on_lel := ltac:(inst (@MddSim.branch_on_lel St)).
+  Let expand_node_lel := ltac:(inst (@MddSim.expand_node_lel St)).
+  Let expand_layer_lel := ltac:(inst (@MddSim.expand_layer_lel St)).
+  Let squash_sim := ltac:(inst (@MddSim.squash_sim St)).
+  Let dpath_ceq := ltac:(inst (@MddSim.dpath_ceq St)).
+  Let Src_branch_on := ltac:(inst (@MddSim.Src_branch_on St)).
+  Let Src_expand_node := ltac:(inst (@MddSim.Src_expand_node St)).
+  Let Src_expand_layer := ltac:(inst (@MddSim.Src_expand_layer St)).
+  Let run_prefix := ltac:(inst (@MddSim.run_prefix St)).
+  Let frun_len_le := ltac:(inst (@MddSim.frun_len_le St)).
+  Let Start_isize := ltac:(inst (@MddSim.Start_isize St)).
+  Let Start_H_isize := ltac:(inst (@MddSim.Start_H_isize St)).
+  Let prom_prefix := ltac:(inst (@MddSim.prom_prefix St)).
+  Let dpath_frame := ltac:(inst (@MddSim.dpath_frame St)).
+  Let Linv_initialize := ltac:(inst (@MddSim.Linv_initialize St)).
+  Let zmax_list_spec := ltac:(inst (@MddSim.zmax_list_spec St)).
+  Let pick_argmax_spec := ltac:(inst (@MddSim.pick_argmax_spec St)).
+  Let pick_argmax_some := ltac:(inst (@MddSim.pick_argmax_some St)).
+  Let hdr_lel_cutset := ltac:(inst (@MddSim.hdr_lel_cutset St)).
+  Let hdr_frontier_cutset := ltac:(inst (@MddSim.hdr_frontier_cutset St)).
+  Let hdr_finalize_cutset := ltac:(inst (@MddSim.hdr_finalize_cutset St)).
+  Let hdr_compute_local_bounds := ltac:(inst (@MddSim.hdr_compute_local_bounds St)).
+  Let cache_update_nocache := ltac:(inst (@MddSim.cache_update_nocache St)).
+  Let hdr_compute_thresholds := ltac:(inst (@MddSim.hdr_compute_thresholds St)).
+  Let node_compute_thresholds := ltac:(inst (@MddSim.node_compute_thresholds St)).
+  Let hdr_eq := ltac:(inst (@MddSim.hdr_eq St)).
+  Let finalize_layers_fields := ltac:(inst (@MddSim.finalize_layers_fields St)).
+  Let finalize_hdr := ltac:(inst (@MddSim.finalize_hdr St)).
+  Let gn_finalize_layers := ltac:(inst (@MddSim.gn_finalize_layers St)).
+  Let finalize_core := ltac:(inst (@MddSim.finalize_core St)).
+  Let vstar_opt_enum := ltac:(inst (@MddSim.vstar_opt_enum St)).
+  Let vstar_prom := ltac:(inst (@MddSim.vstar_prom St)).
+  Let vstar_upper := ltac:(inst (@MddSim.vstar_upper St)).
+  Let Sinv_root_vtop := ltac:(inst (@MddSim.Sinv_root_vtop St)).
+  Let track_terminal := ltac:(inst (@MddSim.track_terminal St)).
+  Let clean_chain_frun := ltac:(inst (@MddSim.clean_chain_frun St)).
+  Let exact_terminal_le := ltac:(inst (@MddSim.exact_terminal_le St)).
+  Let best_ge := ltac:(inst (@MddSim.best_ge St)).
+  Let best_exact_ge := ltac:(inst (@MddSim.best_exact_ge St)).
+  Let Forall_upd_nth_at := ltac:(inst (@MddSim.Forall_upd_nth_at St)).
+  Let Ninv_same := ltac:(inst (@MddSim.Ninv_same St)).
+  Let Ninv_upd := ltac:(inst (@MddSim.Ninv_upd St)).
+  Let Ninv_append_edge := ltac:(inst (@MddSim.Ninv_append_edge St)).
+  Let Ninv_snoc := ltac:(inst (@MddSim.Ninv_snoc St)).
+  Let Ninv_fold := ltac:(inst (@MddSim.Ninv_fold St)).
+  Let Ninv_branch_on := ltac:(inst (@MddSim.Ninv_branch_on St)).
+  Let Ninv_expand_node := ltac:(inst (@MddSim.Ninv_expand_node St)).
+  Let filter_with_cache_nodes := ltac:(inst (@MddSim.filter_with_cache_nodes St)).
+  Let Pn_set_flag := ltac:(inst (@MddSim.Pn_set_flag St)).
+  Let Ninv_note_squash := ltac:(inst (@MddSim.Ninv_note_squash St)).
+  Let Ninv_redirect_step := ltac:(inst (@MddSim.Ninv_redirect_step St)).
+  Let Ninv_drop_step := ltac:(inst (@MddSim.Ninv_drop_step St)).
+  Let Ninv_squash := ltac:(inst (@MddSim.Ninv_squash St)).
+  Let Ninv_initialize := ltac:(inst (@MddSim.Ninv_initialize St)).
+  Let compute_local_bounds_unfold := ltac:(inst (@MddSim.compute_local_bounds_unfold St)).
+  Let Stat_refl := ltac:(inst (@MddSim.Stat_refl St)).
+  Let Stat_trans := ltac:(inst (@MddSim.Stat_trans St)).
+  Let Mono_refl := ltac:(inst (@MddSim.Mono_refl St)).
+  Let Mono_trans := ltac:(inst (@MddSim.Mono_trans St)).
+  Let Stat_upd := ltac:(inst (@MddSim.Stat_upd St)).
+  Let Mono_lb_upd := ltac:(inst (@MddSim.Mono_lb_upd St)).
+  Let Mono_fold := ltac:(inst (@MddSim.Mono_fold St)).
+  Let Mono_lb_step := ltac:(inst (@MddSim.Mono_lb_step St)).
+  Let Stat_edge := ltac:(inst (@MddSim.Stat_edge St)).
+  Let lb_step_hit := ltac:(inst (@MddSim.lb_step_hit St)).
+  Let Mono_proc := ltac:(inst (@MddSim.Mono_proc St)).
+  Let proc_hit := ltac:(inst (@MddSim.proc_hit St)).
+  Let skipn_nth_cons := ltac:(inst (@MddSim.skipn_nth_cons St)).
+  Let Stg_step := ltac:(inst (@MddSim.Stg_step St)).
+  Let Stg_mono1 := ltac:(inst (@MddSim.Stg_mono1 St)).
+  Let Stg_mono := ltac:(inst (@MddSim.Stg_mono St)).
+  Let Stg_base := ltac:(inst (@MddSim.Stg_base St)).
+  Let lb_path := ltac:(inst (@MddSim.lb_path St)).
+  Let Stat_fold := ltac:(inst (@MddSim.Stat_fold St)).
+  Let lb_init_spec := ltac:(inst (@MddSim.lb_init_spec St)).
+  Let local_bounds_path := ltac:(inst (@MddSim.local_bounds_path St)).
+  Let frontier_cutset_unfold := ltac:(inst (@MddSim.frontier_cutset_unfold St)).
+  Let FInv_upd_above := ltac:(inst (@MddSim.FInv_upd_above St)).
+  Let FInv_fc_inner := ltac:(inst (@MddSim.FInv_fc_inner St)).
+  Let FInv_fc_step := ltac:(inst (@MddSim.FInv_fc_step St)).
+  Let frontier_cutset_hit := ltac:(inst (@MddSim.frontier_cutset_hit St)).
+  Let lel_finalize_cutset := ltac:(inst (@MddSim.lel_finalize_cutset St)).
+  Let dpath_start_layer := ltac:(inst (@MddSim.dpath_start_layer St)).
+  Let dpath_last_exact := ltac:(inst (@MddSim.dpath_last_exact St)).
+  Let node_finalize_cutset := ltac:(inst (@MddSim.node_finalize_cutset St)).
+  Let node_compute_local_bounds := ltac:(inst (@MddSim.node_compute_local_bounds St)).
+  Let pipe3 := ltac:(inst (@MddSim.pipe3 St)).
+  Let in_bottom_up := ltac:(inst (@MddSim.in_bottom_up St)).
+  Let cut_node := ltac:(inst (@MddSim.cut_node St)).
+  Let S4_core := ltac:(inst (@MddSim.S4_core St)).
+  Let finalize_rub := ltac:(inst (@MddSim.finalize_rub St)).
+  Let marked_upd := ltac:(inst (@MddSim.marked_upd St)).
+  Let marked_src := ltac:(inst (@MddSim.marked_src St)).
+  Let flag_finalize_cutset := ltac:(inst (@MddSim.flag_finalize_cutset St)).
+  Let frontier_cutset_src := ltac:(inst (@MddSim.frontier_cutset_src St)).
+  Let locb_from_path := ltac:(inst (@MddSim.locb_from_path St)).
+
+
+  Local Notation dpath := (MddSim.dpath inp cov).
+  Local Notation is_ex := (MddSim.is_ex inp).
+  Local Notation gr := (MddSim.gr inp).
+  Local Notation Einv := (MddSim.Einv inp).
+  Local Notation Cinv := (MddSim.Cinv inp).
+  Local Notation Src := (@MddSim.Src St).
+  Local Notation srcs := (@MddSim.srcs St).
+  Local Notation enabled := (MddSim.enabled inp).
+  Local Notation Start := (MddSim.Start inp).
+  Local Notation Ninv := (MddSim.Ninv inp).
+  Local Notation SrcLay := (MddSim.SrcLay inp).
+  Local Notation vstar := (MddSim.vstar inp).
+  Local Notation E_le := (MddSim.E_le inp).
+  Local Notation E_from := (MddSim.E_from inp).
+  Local Notation E_inb := (MddSim.E_inb inp).
+  Local Notation dp_nil := (MddSim.dp_nil inp cov).
+  Local Notation lb_go := (MddSim.lb_go inp).
+
+  (* ---- a covering state has at least the value-to-go of the covered one *)
+  Lemma cov_frun ds : forall k s s' v v' sN' w', cov s s' -> (v' <= v)%Z ->
+    frn k s' v' ds = Some (sN', w') -> exists sN w, frn k s v ds = Some (sN, w) /\ cov sN sN' /\ (w' <= w)%Z.
+  Proof.
+    induction ds as [|d ds IH]; intros k s s' v v' sN' w' Hc Hv Hr; cbn [frun] in *.
+    - inversion Hr; subst. exists s, v. auto.
+    - destruct (var_ok pb k d) eqn:Ev; cbn [andb] in *; [|discriminate].
+      destruct (in_domain pb s' d) eqn:Ed; [|discriminate].
+      apply (in_domain_In pb) in Ed.
+      destruct (cov_sim s s' (d_var d) (d_val d) Hc Ed) as (C1 & C2 & C3). cbv zeta in C2, C3.
+      assert (Edd : {| d_var := d_var d; d_val := d_val d |} = d) by (destruct d; reflexivity).
+      rewrite Edd in C2, C3. rewrite (In_in_domain pb s d C1).
+      eapply IH; [exact C2| |exact Hr]. lia.
+  Qed.
+
+  Lemma cov_H k s s' h : k <= N -> cov s s' -> H pb k s' = Some h -> exists h', H pb k s = Some h' /\ (h <= h')%Z.
+  Proof.
+    intros Hk Hc Hh.
+    destruct (H_attained pb nv_static nv_some nv_none (N - k) k s' 0%Z h eq_refl Hk Hh) as (ds & sN & Hr & Hl).
+    destruct (cov_frun ds k s s' 0%Z 0%Z sN (0 + h)%Z Hc ltac:(lia) Hr) as (sN2 & w & Hr2 & _ & Hw).
+    destruct (frun_le_H pb nv_static nv_none ds k s 0%Z sN2 w Hl Hr2) as (h' & Hh' & Hle).
+    exists h'. split; [exact Hh'|lia].
+  Qed.
+
+  (* ---- the node-local invariant Ninv through the dominance filter *)
+  Lemma dom_query_nodes (m : mdd) s d v : m_nodes (fst (dom_query inp m s d v)) = m_nodes m.
+  Proof.
+    unfold dom_query. rewrite Hdom.
+    destruct (is_dominated_or_insert Z.eqb key nd coord usev (m_dom m) s d v) as [[st' r]|]; reflexivity.
+  Qed.
+
+  Lemma dom_retain_Ninv l : forall (m : mdd), Ninv m -> Ninv (fst (dom_retain inp m l)).
+  Proof.
+    induction l as [|id l IH]; intros m H; cbn [dom_retain]; [exact H|].
+    destruct (fl_is_exact (n_flags (gn m id))).
+    - pose proof (dom_query_nodes m (n_state (gn m id)) (n_depth (gn m id)) (n_vtop (gn m id))) as Hq.
+      destruct (dom_query inp m (n_state (gn m id)) (n_depth (gn m id)) (n_vtop (gn m id))) as [m1 r]. cbn [fst] in Hq.
+      assert (H1 : Ninv m1) by (eapply Ninv_same; [exact Hq|exact H]).
+      destruct (dc_dominated r).
+      + apply IH. apply Ninv_upd; [|exact H1]. intros n Hn. exact Hn.
+      + specialize (IH m1 H1). destruct (dom_retain inp m1 l) as [m2 k]. exact IH.
+    - specialize (IH m H). destruct (dom_retain inp m l) as [m2 k]. exact IH.
+  Qed.
+
+  Lemma Ninv_moveD (m : mdd) : Ninv m -> Ninv (fst (move_to_next_layer_clean st_eqb inp m)).
+  Proof.
+    intros H. rewrite move_clean_unfold. destruct (m_next m) as [|c0 cs]; [exact H|].
+    set (curr := c0 :: cs).
+    assert (Hb : Ninv (fst (prefilter st_eqb inp (with_next m []) curr))).
+    { unfold prefilter. destruct (Nat.ltb 0 _); [|exact H].
+      eapply Ninv_same; [apply filter_with_cache_nodes|exact H]. }
+    destruct (prefilter st_eqb inp (with_next m []) curr) as [mb lb0]. cbn [fst] in Hb.
+    assert (Hcc : Ninv (fst (filter_with_dominance inp mb lb0))).
+    { unfold filter_with_dominance. apply dom_retain_Ninv. exact Hb. }
+    destruct (filter_with_dominance inp mb lb0) as [mc lc]. cbn [fst] in Hcc.
+    pose proof (Ninv_squash mc lc Hcc) as Hd.
+    destruct (squash_if_needed st_eqb inp mc lc) as [md ld]. cbn [fst] in *. exact Hd.
+  Qed.
+
+  Lemma layer_loop_NinvD : forall fuel (m : mdd), Ninv m -> Ninv (fst (layer_loop st_eqb inp fuel m)).
+  Proof.
+    induction fuel as [|fuel IH]; intros m H; [exact H|].
+    cbn [layer_loop]. cbv zeta.
+    destruct (next_variable _ _ _) as [var|]; [|exact H].
+    destruct (_ && _); [exact H|].
+    rewrite (not_pooled inp Hclean).
+    match goal with |- context [move_to_next_layer_clean st_eqb inp ?mm] =>
+      pose proof (Ninv_moveD mm) as Hmv; destruct (move_to_next_layer_clean st_eqb inp mm) as [m3 ol] end.
+    cbn [fst] in Hmv. specialize (Hmv H).
+    destruct ol as [l|]; [|exact Hmv].
+    apply IH. eapply Ninv_same; [reflexivity|].
+    apply Ninv_fold; [intros; apply Ninv_expand_node; assumption|exact Hmv].
+  Qed.
+
+  (* ---- a node the filter may drop: exact, and strictly dominated by a pair satisfying the store invariant *)
+  Definition droppable (m : mdd) (u : nat) : Prop :=
+    is_ex m u = true /\
+    exists k e ve, key (n_state (gn m u)) = Some k /\ Pst (n_depth (gn m u)) k e ve /\
+                   sdom nd coord usev e ve (n_state (gn m u)) (n_vtop (gn m u)).
+
+  Lemma tracked_not_droppable (m : mdd) d u s' h v1 :
+    Cinv d m -> d <= N -> In u (m_next m) -> cov (n_state (gn m u)) s' -> H pb d s' = Some h ->
+    (v1 <= n_vtop (gn m u))%Z -> (tau < v1 + h)%Z -> ~ droppable m u.
+  Proof.
+    intros (HD & HX & Hnd & HE) HdN Hu Hc Hh Hv Ht (Hex & k & e & ve & Hk & HP & Hs).
+    pose proof (D_next _ _ _ HD u Hu) as Hr.
+    pose proof (Sinv_exact_flag_clean_chain inp m (Dinv_Sinv inp m HD) u (proj2 Hr) Hex) as Hcc.
+    destruct (clean_chain_frun m u (Dinv_Sinv inp m HD) Hcc (proj2 Hr)) as (dsu & Hru & Hdu).
+    rewrite (Hnd u Hu) in Hdu, HP.
+    destruct (cov_H d _ s' h HdN Hc Hh) as (h' & Hh' & Hle).
+    rewrite Hdu in HP, Hh'.
+    apply (Hsafe dsu _ _ k h' e ve Hru Hk Hh' ltac:(lia) HP). exact Hs.
+  Qed.
+
+  Lemma move_simD (m : mdd) d :
+    Cinv d m -> m_next m <> [] -> d <= N -> N < length (m_dom m) -> store_all Pst (m_dom m) ->
+    exists m3 l ids, move_to_next_layer_clean st_eqb inp m = (m3, Some l) /\
+      Cinv (S d) m3 /\ m_next m3 = [] /\
+      (forall id, In id l -> id < m_layer_end m3 /\ n_depth (gn m3 id) = d) /\
+      m_curr_depth m3 = m_curr_depth m /\ m_layers m3 = m_layers m ++ [ids] /\
+      (forall id, In id l -> In id ids) /\
+      (enabled m3 -> enabled m) /\
+      (forall i0 c0 sc0 u ds s', In u (m_next m) -> ~ droppable m u -> (1 < length (m_layers m) -> ds <> []) -> enabled m3 ->
+        dpath m i0 c0 sc0 ds u s' -> exists u', In u' l /\ dpath m3 i0 c0 sc0 ds u' s') /\
+      srcs m m3 /\
+      (forall x, x < m_layer_end m -> core_eq (gn m x) (gn m3 x)) /\
+      (forall x, Src m3 x -> ~ In x ids) /\
+      (forall x, In x ids -> m_layer_end m <= x) /\
+      m_layer_end m <= m_layer_end m3 /\
+      length (m_dom m3) = length (m_dom m) /\ store_all Pst (m_dom m3).
+  Proof.
+    intros (HD & HX & Hnd & HE) Hne HdN Hdlen Hstore.
+    rewrite move_clean_unfold.
+    destruct (m_next m) as [|c0 cs] eqn:En; [congruence|].
+    set (curr := c0 :: cs) in *.
+    set (ma := with_next m []).
+    assert (Hpa : peq inp m ma) by (apply peq_same_nodes; reflexivity).
+    assert (HDa : Dinv inp ma).
+    { eapply (Dg_peq inp Hclean); [exact Hpa|exact HD|apply Nat.le_refl|apply (D_le _ _ _ HD)|]. intros id []. }
+    assert (HXa : Xinv inp ma) by (eapply Xg_peq; [exact Hpa|reflexivity|reflexivity|reflexivity|exact HX]).
+    assert (HEa : Einv ma).
+    { eapply Einv_frame; [| | | |exact HE]; try reflexivity. apply (E_le _ HE). }
+    assert (Hla : layer_ok inp ma curr d).
+    { intros id Hid. rewrite <- En in Hid. split; [apply (D_next _ _ _ HD id Hid)|apply Hnd; exact Hid]. }
+    (* cache filter *)
+    assert (Hb : ceq inp ma (fst (prefilter st_eqb inp ma curr)) /\ snd (prefilter st_eqb inp ma curr) = curr).
+    { unfold prefilter. destruct (Nat.ltb 0 (length (m_layers ma))).
+      - split; [apply (filter_with_cache_ceq st_eqb inp Hclean curr ma)|apply filter_with_cache_nocache].
+      - split; [apply ceq_refl|reflexivity]. }
+    pose proof (dom_prefilter st_eqb inp ma curr) as Hdomb.
+    destruct (prefilter st_eqb inp ma curr) as [mb lb0]. cbn [fst snd] in Hb, Hdomb. destruct Hb as [Hcb ->].
+    change (m_dom ma) with (m_dom m) in Hdomb.
+    assert (Hcoreb : forall x, core_eq (gn m x) (gn mb x)).
+    { intros x. destruct Hpa as (_ & _ & _ & A4a). destruct Hcb as ((_ & _ & _ & A4b) & _).
+      eapply (core_eq_trans inp Hclean); [apply A4a|apply A4b]. }
+    (* dominance filter *)
+    pose proof (filter_with_dominance_ceq inp mb curr) as [Hcc Hlc].
+    destruct (filter_with_dominance inp mb curr) as [mc lc] eqn:Efd. cbn [fst snd] in Hcc, Hlc.
+    destruct (filter_with_dominance_spec inp key nd coord usev Hdom Pst mb mc curr lc Efd) as (_ & F2 & F3 & F4).
+    { intros id Hid. rewrite Hdomb. destruct (Hcoreb id) as (_ & _ & _ & _ & _ & _ & c7). rewrite <- c7.
+      rewrite <- En in Hid. rewrite (Hnd id Hid). lia. }
+    { rewrite Hdomb. exact Hstore. }
+    { intros id k Hid Hex Hk. destruct (Hcoreb id) as (c1 & c2 & _ & _ & c5 & c6 & c7).
+      rewrite <- c1 in Hk. rewrite <- c1, <- c2, <- c7.
+      assert (Hex' : fl_is_exact (n_flags (gn m id)) = true).
+      { unfold fl_is_exact in *. rewrite c5, c6. exact Hex. }
+      rewrite <- En in Hid. pose proof (D_next _ _ _ HD id Hid) as Hr.
+      pose proof (Sinv_exact_flag_clean_chain inp m (Dinv_Sinv inp m HD) id (proj2 Hr) Hex') as Hcch.
+      destruct (clean_chain_frun m id (Dinv_Sinv inp m HD) Hcch (proj2 Hr)) as (dsu & Hru & Hdu).
+      rewrite Hdu. apply Hexact_Pst; assumption. }
+    assert (Hac : ceq inp ma mc) by (eapply ceq_trans; eauto).
+    assert (HDc : Dinv inp mc) by (eapply (Dg_ceq inp Hclean); eauto).
+    assert (HXc : Xinv inp mc) by (eapply Xinv_ceq; eauto).
+    assert (HEc : Einv mc) by (eapply Einv_ceq; eauto).
+    assert (Hlcl : layer_ok inp mc lc d).
+    { eapply layer_ok_stable; [apply ceq_stable; exact Hac|exact Hla|]. exact Hlc. }
+    assert (Hnc : m_next mc = []) by (destruct Hac as (_ & Hn & _); rewrite Hn; reflexivity).
+    (* squash *)
+    destruct (squash_if_needed_inv st_eqb inp Hclean mc lc d HDc HXc Hlcl) as (Q1 & Q2 & Q3 & Q4 & Q5).
+    destruct (squash_sim mc lc d HDc HXc HEc Hlcl) as (S1 & S2 & S2s & S3 & S4).
+    destruct (squash_if_needed st_eqb inp mc lc) as [md ld] eqn:Esq. cbn [fst snd] in *.
+    set (from := m_layer_end md). set (to := length (m_nodes md)).
+    assert (Hft : from <= to) by apply (D_le _ _ _ Q1).
+    set (m3 := push_layer md (seq from (to - from)) to).
+    assert (Hp : peq inp md m3) by (apply peq_same_nodes; reflexivity).
+    exists m3, ld, (seq from (to - from)).
+    split; [reflexivity|].
+    assert (Hlay3 : m_layers m3 = m_layers m ++ [seq from (to - from)]).
+    { unfold m3. msimpl. f_equal. rewrite (gr_layers _ _ S2).
+      destruct Hac as (_ & _ & _ & Hl & _). rewrite Hl. reflexivity. }
+    assert (Hle_mc : m_layer_end mc = m_layer_end m).
+    { destruct Hac as (_ & _ & Hl & _). rewrite Hl. reflexivity. }
+    assert (Hle_md : m_layer_end md = m_layer_end m).
+    { destruct Q3 as (q1 & _). rewrite q1. exact Hle_mc. }
+    split; [|split; [|split; [|split; [|split; [|split; [|split; [|split; [|split; [|split; [|split; [|split; [|split; [|split]]]]]]]]]]]]].
+    - split; [|split; [|split]].
+      + eapply (Dg_peq inp Hclean); [exact Hp|exact Q1|exact Hft|apply Nat.le_refl|].
+        intros id Hid. unfold m3 in Hid. msimpl_in Hid. rewrite Q4, Hnc in Hid. destruct Hid.
+      + apply Xg_push_layer.
+        * eapply Xg_weaken; [|exact Q2]. exact Hft.
+        * apply Nat.le_refl.
+        * intros id Hid. apply in_seq in Hid. unfold m3. msimpl. unfold from, to in *. lia.
+      + intros id Hid. unfold m3 in Hid. msimpl_in Hid. rewrite Q4, Hnc in Hid. destruct Hid.
+      + apply (Einv_frame md m3); [reflexivity|reflexivity|exact Hft|apply Nat.le_refl|exact S1].
+    - unfold m3. msimpl. rewrite Q4. exact Hnc.
+    - intros id Hid. destruct (Q5 id Hid) as [Hr Hdp]. unfold m3. msimpl. split; [unfold to; lia|exact Hdp].
+    - unfold m3. msimpl. destruct Q3 as (_ & _ & _ & _ & q5). rewrite q5.
+      destruct Hac as (_ & _ & _ & _ & _ & _ & a7). rewrite a7. reflexivity.
+    - exact Hlay3.
+    - intros id Hid. destruct (Q5 id Hid) as [Hr _]. apply in_seq. unfold from, to. lia.
+    - intros Hen. assert (Hmc : enabled mc) by (apply S3; exact Hen).
+      intros Ht. specialize (Hmc Ht). destruct Hac as (_ & _ & _ & _ & Hlel & _). rewrite Hlel in Hmc. exact Hmc.
+    - intros i0 cc0 sc0 u ds s' Hu Hnd' Hds Hen Hpth.
+      assert (Hpc : dpath mc i0 cc0 sc0 ds u s').
+      { eapply dpath_ceq; [exact Hac|]. eapply dpath_peq; [exact Hpa| |exact Hpth]. auto. }
+      destruct (S4 i0 cc0 sc0 u ds s') as (u' & Hu' & Hp').
+      + destruct (in_dec Nat.eq_dec u lc) as [Hin|Hnin]; [exact Hin|]. exfalso. apply Hnd'.
+        destruct (F4 u Hu Hnin) as (G1 & k & e & ve & G2 & G3 & G4).
+        destruct (Hcoreb u) as (c1 & c2 & _ & _ & c5 & c6 & c7).
+        split.
+        * unfold is_ex, fl_is_exact in *. rewrite c5, c6. exact G1.
+        * exists k, e, ve. rewrite c1, c2, c7. auto.
+      + intros H1. apply Hds. destruct Hac as (_ & _ & _ & Hl & _). rewrite Hl in H1. exact H1.
+      + exact Hen.
+      + exact Hpc.
+      + exists u'. split; [exact Hu'|]. eapply dpath_peq; [exact Hp| |exact Hp'].
+        intros k x. unfold m3. msimpl. apply nth_layers_app.
+    - eapply srcs_trans; [|eapply srcs_trans; [exact S2s|apply srcs_edges_eq; reflexivity]].
+      apply srcs_edges_eq. destruct Hac as ((Hce & _) & _). rewrite Hce. reflexivity.
+    - intros x Hx.
+      destruct Hpa as (_ & _ & _ & A4a). destruct Hac as ((_ & _ & _ & A4c) & _).
+      destruct Q3 as (_ & _ & q3 & _). destruct Hp as (_ & _ & _ & A4p).
+      eapply (core_eq_trans inp Hclean); [apply A4a|]. eapply (core_eq_trans inp Hclean); [apply A4c|].
+      eapply (core_eq_trans inp Hclean); [apply q3; rewrite Hle_mc; exact Hx|apply A4p].
+    - intros x (eid & He1 & He2) Hin. apply in_seq in Hin.
+      change (m_edges m3) with (m_edges md) in He1. change (get_edge m3 eid) with (get_edge md eid) in He2.
+      pose proof (E_from _ S1 eid He1) as Hf. rewrite He2 in Hf. unfold from in Hin. lia.
+    - intros x Hin. apply in_seq in Hin. unfold from in Hin. lia.
+    - unfold m3. msimpl. unfold to, from in *. lia.
+    - change (m_dom m3) with (m_dom md). pose proof (dom_squash_if_needed st_eqb inp mc lc) as Hq.
+      rewrite Esq in Hq. cbn [fst] in Hq. rewrite Hq, F2, Hdomb. reflexivity.
+    - change (m_dom m3) with (m_dom md). pose proof (dom_squash_if_needed st_eqb inp mc lc) as Hq.
+      rewrite Esq in Hq. cbn [fst] in Hq. rewrite Hq. exact F3.
+  Qed.
+
+
+  (* ---- the tracking invariants: those of MddSim.v for the twin input, written with this section's names *)
+  Definition promT (ds : list decision) (sN : St) (w : Z) : Prop :=
+    frn rd rs rv ds = Some (sN, w) /\ rd + length ds = N /\ (Z.max lb tau < w)%Z.
+  Definition promCT (i : nat) (sc : St) (vc : Z) (ds2 : list decision) (sN : St) (w : Z) : Prop :=
+    frn (rd + i) sc vc ds2 = Some (sN, w) /\ rd + i + length ds2 = N /\ (Z.max lb tau < w)%Z.
+  Definition TinvT (m : mdd) : Prop :=
+    forall ds sN w, promT ds sN w -> enabled m ->
+    exists u s', In u (m_next m) /\ dpath m 0 0 rs (firstn (m_curr_depth m - rd) ds) u s'.
+  Definition UTinvT (m : mdd) : Prop :=
+    forall i c sc vc ds2 sN w, i < m_curr_depth m - rd ->
+      In c (nth i (m_layers m) []) -> Src m c ->
+      cov (n_state (gn m c)) sc -> (vc <= n_vtop (gn m c))%Z -> Start i sc vc ->
+      promCT i sc vc ds2 sN w -> enabled m ->
+      n_depth (gn m c) = rd + i /\
+      exists u s', In u (m_next m) /\ dpath m i c sc (firstn (m_curr_depth m - rd - i) ds2) u s'.
+  Definition LinvT (m : mdd) : Prop :=
+    Cinv (m_curr_depth m) m /\ rd <= m_curr_depth m /\ m_curr_depth m <= N /\
+    length (m_layers m) = m_curr_depth m - rd /\ TinvT m /\ UTinvT m /\ SrcLay m /\
+    N < length (m_dom m) /\ store_all Pst (m_dom m).
+  Definition UPostT (ml : mdd) : Prop :=
+    forall i c sc vc ds2 sN w,
+      In c (nth i (m_layers ml) []) -> Src ml c ->
+      cov (n_state (gn ml c)) sc -> (vc <= n_vtop (gn ml c))%Z -> Start i sc vc ->
+      promCT i sc vc ds2 sN w -> enabled ml ->
+      Einv ml /\ Xinv inp ml /\ length (m_layers ml) = N - rd /\ n_depth (gn ml c) = rd + i /\
+      exists u s', In u (m_next ml) /\ m_layer_end ml <= u < length (m_nodes ml) /\ dpath ml i c sc ds2 u s'.
+  Definition PostT (ml : mdd) : Prop :=
+    (forall u, In u (m_next ml) -> n_depth (gn ml u) = N) /\
+    (forall ds sN w, promT ds sN w -> enabled ml ->
+      Einv ml /\ length (m_layers ml) = N - rd /\
+      exists u s', In u (m_next ml) /\ m_layer_end ml <= u < length (m_nodes ml) /\ dpath ml 0 0 rs ds u s') /\
+    UPostT ml /\ SrcLay ml /\ (m_next ml <> [] -> Xinv inp ml).
+
+  Lemma prom_prefixT ds sN w j : promT ds sN w -> j < length ds ->
+    exists s1 v1 dj rest h, frn rd rs rv (firstn j ds) = Some (s1, v1) /\ skipn j ds = dj :: rest /\
+      var_ok pb (rd + j) dj = true /\ In (d_val dj) (domain pb (d_var dj) s1) /\
+      H pb (rd + j) s1 = Some h /\ (Z.max lb tau < v1 + h)%Z.
+  Proof. exact (ltac:(instT (@MddSim.prom_prefix St)) ds sN w j). Qed.
+
+  Lemma run_prefixT k0 s0 v0 ds sN w jj :
+    frn k0 s0 v0 ds = Some (sN, w) -> k0 + length ds = N -> (Z.max lb tau < w)%Z -> jj < length ds ->
+    exists s1 v1 dj rest h, frn k0 s0 v0 (firstn jj ds) = Some (s1, v1) /\ skipn jj ds = dj :: rest /\
+      var_ok pb (k0 + jj) dj = true /\ In (d_val dj) (domain pb (d_var dj) s1) /\
+      H pb (k0 + jj) s1 = Some h /\ (Z.max lb tau < v1 + h)%Z.
+  Proof. exact (ltac:(instT (@MddSim.run_prefix St)) k0 s0 v0 ds sN w jj). Qed.
+
+  Lemma layer_loop_simT : forall fuel (m m' : mdd),
+    LinvT m -> layer_loop st_eqb inp fuel m = (m', LoopDone) ->
+    PostT m' /\ N < length (m_dom m') /\ store_all Pst (m_dom m').
+  Proof.
+    induction fuel as [|fuel IH]; intros m m' HL Hloop; [simpl in Hloop; inversion Hloop|].
+    destruct HL as (HC & Hd1 & Hd2 & Hlen & HT & HU & HSL & Hdl & Hst).
+    set (d := m_curr_depth m) in *.
+    cbn [layer_loop] in Hloop. cbv zeta in Hloop.
+    set (states := map (fun id => n_state (gn m id)) (m_next m)) in *.
+    destruct (next_variable pb (m_curr_depth m) states) as [var|] eqn:Eov.
+    2:{ (* the variables are exhausted *)
+      inversion Hloop; subst m'. clear Hloop.
+      split; [|split; [exact Hdl|exact Hst]].
+      assert (HdN : d = N).
+      { destruct (Nat.lt_ge_cases d N) as [Hlt|Hge]; [|lia].
+        destruct (nv_some d states Hlt) as [x Hx]. unfold d in Hx. rewrite Hx in Eov. discriminate. }
+      destruct HC as (HD & HX & Hnd & HE).
+      split; [|split; [|split; [|split]]].
+      - intros u Hu. change (n_depth (gn m u) = N). rewrite <- HdN. apply Hnd. exact Hu.
+      - intros ds sN w Hp Hen.
+        split; [eapply Einv_frame; [| | | |exact HE]; try reflexivity; apply (E_le _ HE)|].
+        split; [msimpl; rewrite Hlen; lia|].
+        destruct (HT ds sN w Hp Hen) as (u & s' & Hu & Hpth).
+        exists u, s'. split; [exact Hu|]. split; [apply (D_next _ _ _ HD u Hu)|].
+        destruct Hp as (_ & Hl & _).
+        rewrite firstn_all2 in Hpth by (fold d; lia).
+        eapply dpath_frame; [| | |exact Hpth]; reflexivity.
+      - intros i c sc vc ds2 sN w Hc HSrc Hcov Hvc HSt Hpc Hen.
+        assert (Hi : i < d - rd).
+        { destruct (Nat.lt_ge_cases i (length (m_layers m))) as [Hlt|Hge]; [lia|].
+          msimpl_in Hc. rewrite nth_overflow in Hc by exact Hge. destruct Hc. }
+        destruct (HU i c sc vc ds2 sN w Hi Hc HSrc Hcov Hvc HSt Hpc Hen) as (Hdep & u & s' & Hu & Hpth).
+        split; [eapply Einv_frame; [| | | |exact HE]; try reflexivity; apply (E_le _ HE)|].
+        split; [eapply Xinv_ceq; [apply ceq_add_log|exact HX]|].
+        split; [msimpl; rewrite Hlen; lia|]. split; [exact Hdep|].
+        exists u, s'. split; [exact Hu|]. split; [apply (D_next _ _ _ HD u Hu)|].
+        destruct Hpc as (_ & Hl & _). fold d in Hpth.
+        rewrite firstn_all2 in Hpth by lia.
+        eapply dpath_frame; [| | |exact Hpth]; reflexivity.
+      - exact HSL.
+      - intros _. eapply Xinv_ceq; [apply ceq_add_log|exact HX]. }
+    set (m1 := add_log m (EvNextVar (m_curr_depth m) states (Some var))) in *.
+    set (m2 := with_polls m1 (S (m_polls m1))) in *.
+    rewrite Hnocut in Hloop. cbn [Nat.ltb Nat.leb andb] in Hloop.
+    rewrite (not_pooled inp Hclean) in Hloop.
+    assert (HdN : d < N).
+    { destruct (Nat.lt_ge_cases d N) as [Hlt|Hge]; [exact Hlt|].
+      pose proof (nv_none d states Hge) as Hn. unfold d in Hn. rewrite Hn in Eov. discriminate. }
+    assert (Hc2 : ceq inp m m2) by (eapply ceq_trans; [apply ceq_add_log|apply ceq_with_polls]).
+    assert (HC2 : Cinv d m2).
+    { destruct HC as (HD & HX & Hnd & HE).
+      split; [eapply (Dg_ceq inp Hclean); eauto|]. split; [eapply Xinv_ceq; eauto|]. split; [exact Hnd|].
+      eapply Einv_ceq; eauto. }
+    destruct (m_next m) as [|c0 cs] eqn:En.
+    - (* the next layer is empty: the loop stops *)
+      rewrite move_clean_unfold in Hloop. change (m_next m2) with (m_next m) in Hloop. rewrite En in Hloop.
+      inversion Hloop; subst m'. clear Hloop.
+      split; [|split; [exact Hdl|exact Hst]].
+      split; [intros u []|]. split; [|split; [|split]].
+      + intros ds sN w Hp Hen. exfalso.
+        destruct (HT ds sN w Hp) as (u & s' & Hu & _); [exact Hen|]. rewrite En in Hu. destruct Hu.
+      + intros i c sc vc ds2 sN w Hc HSrc Hcov Hvc HSt Hpc Hen. exfalso.
+        msimpl_in Hc.
+        assert (Hi : i < d - rd).
+        { destruct (Nat.lt_ge_cases i (length (m_layers m))) as [Hlt|Hge]; [lia|].
+          rewrite app_nth2 in Hc by exact Hge.
+          destruct (i - length (m_layers m2)) as [|k]; [simpl in Hc; destruct Hc|destruct k; simpl in Hc; destruct Hc]. }
+        change (m_layers m2) with (m_layers m) in Hc. rewrite app_nth1 in Hc by lia.
+        destruct (HU i c sc vc ds2 sN w Hi Hc HSrc Hcov Hvc HSt Hpc Hen) as (_ & u & s' & Hu & _).
+        rewrite En in Hu. destruct Hu.
+      + intros c Hc. destruct (HSL c Hc) as (i & Hi & Hdp). exists i. split; [msimpl; apply nth_layers_app; exact Hi|exact Hdp].
+      + intros Hne. exfalso. apply Hne. reflexivity.
+    - assert (Hne : m_next m2 <> []) by (change (m_next m2) with (m_next m); rewrite En; discriminate).
+      destruct (move_simD m2 d HC2 Hne ltac:(lia) Hdl Hst) as (m3 & l & ids & Emv & C3 & N3 & L3 & D3 & Ly3 & Lids & En3 & T3 & Sr3 & Cl3 & Ns3 & Ge3 & Le3 & Dl3 & St3).
+      rewrite Emv in Hloop.
+      destruct (expand_layer_Cinv var l d m3 C3 L3) as (C4 & S4 & G4).
+      { exists states. exact Eov. }
+      set (m4 := fold_left (expand_node st_eqb inp var) l m3) in *.
+      set (m5 := with_depth m4 (S (m_curr_depth m4))) in *.
+      assert (Hcd4 : m_curr_depth m4 = d).
+      { destruct S4 as (_ & _ & _ & _ & s5). rewrite s5, D3. reflexivity. }
+      apply (IH m5 m'); [|exact Hloop].
+      assert (Hp5 : peq inp m4 m5) by (apply peq_same_nodes; reflexivity).
+      assert (Hly4 : m_layers m4 = m_layers m ++ [ids]) by (rewrite (gr_layers _ _ G4); exact Ly3).
+      assert (Hen35 : enabled m5 -> enabled m3).
+      { intros Hen5 Ht. specialize (Hen5 Ht). change (m_lel m5) with (m_lel m4) in Hen5.
+        unfold m4 in Hen5. rewrite expand_layer_lel in Hen5. exact Hen5. }
+      assert (Hdj_of : forall dj k, var_ok pb (rd + k) dj = true -> rd + k = d -> var = d_var dj).
+      { intros dj k P3 Hk. apply (var_ok_spec pb nv_static (rd + k) dj states) in P3.
+        rewrite Hk in P3. unfold d in P3. rewrite P3 in Eov. inversion Eov; reflexivity. }
+      assert (Hdom5 : m_dom m5 = m_dom m3) by (unfold m5, m4; apply dom_expand_layer).
+      split; [|split; [|split; [|split; [|split; [|split; [|split; [|split]]]]]]].
+      9:{ rewrite Hdom5. exact St3. }
+      8:{ rewrite Hdom5, Dl3. exact Hdl. }
+      + change (m_curr_depth m5) with (S (m_curr_depth m4)). rewrite Hcd4.
+        destruct C4 as (D4 & X4 & Nd4 & E4).
+        split; [|split; [|split]].
+        * eapply (Dg_peq inp Hclean); [exact Hp5|exact D4|apply Nat.le_refl|apply (D_le _ _ _ D4)|apply (D_next _ _ _ D4)].
+        * eapply Xg_peq; [exact Hp5|reflexivity|reflexivity|reflexivity|exact X4].
+        * exact Nd4.
+        * eapply Einv_frame; [| | | |exact E4]; try reflexivity. apply (E_le _ E4).
+      + change (m_curr_depth m5) with (S (m_curr_depth m4)). lia.
+      + change (m_curr_depth m5) with (S (m_curr_depth m4)). lia.
+      + change (m_curr_depth m5) with (S (m_curr_depth m4)). change (m_layers m5) with (m_layers m4).
+        rewrite Hly4, app_length, Hlen, Hcd4. cbn [length]. lia.
+      + (* tracking *)
+        intros ds sN w Hp Hen5.
+        change (m_curr_depth m5) with (S (m_curr_depth m4)). rewrite Hcd4.
+        assert (Hen3 : enabled m3).
+        { intros Ht. specialize (Hen5 Ht). change (m_lel m5) with (m_lel m4) in Hen5.
+          unfold m4 in Hen5. rewrite expand_layer_lel in Hen5. exact Hen5. }
+        assert (Hen : enabled m).
+        { intros Ht. specialize (En3 Hen3 Ht). exact En3. }
+        destruct (HT ds sN w Hp Hen) as (u & s' & Hu & Hpth). fold d in Hpth.
+        set (j := d - rd) in *.
+        pose proof Hp as (_ & Hdsl & _).
+        assert (Hj : j < length ds) by (unfold j; lia).
+        destruct (prom_prefixT ds sN w j Hp Hj) as (s1 & v1 & dj & rest & h & P1 & P2 & P3 & P4 & P5 & P6T).
+        assert (P6 : (lb < v1 + h)%Z) by lia.
+        assert (Hfl : length (firstn j ds) = j) by (rewrite firstn_length; lia).
+        assert (Hs1 : s1 = s').
+        { rewrite (frun_state pb _ _ _ _ _ _ P1). symmetry. apply (dpath_state _ _ _ _ _ _ _ Hpth). }
+        subst s1.
+        destruct (T3 0 0 rs u (firstn j ds) s') as (u' & Hu' & Hp3).
+        * change (m_next m2) with (m_next m). exact Hu.
+        * pose proof HC as (HD0 & HX0 & Hnd0 & HE0).
+          apply (tracked_not_droppable m2 d u s' h v1 HC2 ltac:(lia)).
+          -- change (m_next m2) with (m_next m). exact Hu.
+          -- change (gn m2 u) with (gn m u). eapply dpath_cov; exact Hpth.
+          -- replace d with (rd + j) by (unfold j; lia). exact P5.
+          -- change (gn m2 u) with (gn m u).
+             apply (dpath_vtop m (firstn j ds) u s' HE0 Hpth (root_vtop m HD0) _ _ P1).
+          -- lia.
+        * intros H1. change (m_layers m2) with (m_layers m) in H1. rewrite Hlen in H1. fold j in H1.
+          intros E. rewrite E in Hfl. simpl in Hfl. lia.
+        * exact Hen3.
+        * eapply dpath_ceq; [exact Hc2|exact Hpth].
+        * assert (Hdj : var = d_var dj).
+          { apply (var_ok_spec pb nv_static (rd + j) dj states) in P3.
+            replace (rd + j) with d in P3 by (unfold j; lia). unfold d in P3. rewrite P3 in Eov.
+            inversion Eov; reflexivity. }
+          pose proof (expand_layer_track var l d m3 0 0 rs rv u' (firstn j ds) s' v1 (d_val dj) h) as X.
+          cbv zeta in X. rewrite !Nat.add_0_r in X.
+          destruct X as (t' & Ht' & Hpt'); auto.
+          -- exists states. exact Eov.
+          -- destruct (L3 u' Hu'). lia.
+          -- apply root_vtop. apply C3.
+          -- simpl. rewrite Hfl, Ly3. change (m_layers m2) with (m_layers m). rewrite app_nth2 by lia.
+             rewrite Hlen. fold j. rewrite Nat.sub_diag. simpl. apply Lids. exact Hu'.
+          -- rewrite Hdj. exact P4.
+          -- rewrite Hfl. exact P5.
+          -- apply (prefix_isize (firstn j ds) s' v1 h P1); [rewrite Hfl; unfold j; lia|rewrite Hfl; exact P5].
+          -- fold m4 in Ht', Hpt'. exists t', (transition pb s' {| d_var := var; d_val := d_val dj |}).
+             split; [exact Ht'|].
+             replace (S d - rd) with (S j) by (unfold j; lia).
+             rewrite (firstn_S_skipn j ds dj rest P2).
+             assert (Edj : dj = {| d_var := var; d_val := d_val dj |}) by (rewrite Hdj; destruct dj; reflexivity).
+             match goal with |- context [?ll ++ [dj]] =>
+               replace (ll ++ [dj]) with (ll ++ [{| d_var := var; d_val := d_val dj |}]) by (rewrite <- Edj; reflexivity) end.
+             eapply dpath_frame; [| | |exact Hpt']; reflexivity.
+      + (* tracking from every expanded node *)
+        intros i c sc vc ds2 sN w Hi Hc HSrc Hcov Hvc HSt Hpc Hen5.
+        change (m_curr_depth m5) with (S (m_curr_depth m4)) in Hi |- *. rewrite Hcd4 in Hi |- *.
+        change (m_layers m5) with (m_layers m4) in Hc. rewrite Hly4 in Hc.
+        change (gn m5 c) with (gn m4 c) in Hcov, Hvc |- *.
+        pose proof (Hen35 Hen5) as Hen3.
+        assert (Hen : enabled m) by (intros Ht; exact (En3 Hen3 Ht)).
+        set (j := d - rd) in *.
+        pose proof Hpc as (Hrun & Hdsl & HlbwT).
+        assert (Hlbw : (lb < w)%Z) by lia.
+        assert (HSrc4 : Src m4 c) by exact HSrc.
+        destruct C3 as (D3' & X3' & Nd3' & E3').
+        pose proof S4 as (s41 & s42 & s43 & s44 & s45).
+        destruct (Nat.lt_ge_cases i j) as [Hij|Hij].
+        * (* a start of an earlier layer *)
+          rewrite app_nth1 in Hc by lia.
+          assert (Hclt : c < m_layer_end m).
+          { destruct HC as (_ & HX & _). apply (X_layers _ _ _ HX (nth i (m_layers m) []) c); [apply nth_In; lia|exact Hc]. }
+          assert (Hcore : core_eq (gn m c) (gn m4 c)).
+          { eapply (core_eq_trans inp Hclean); [apply (Cl3 c Hclt)|]. apply s43.
+            change (m_layer_end m2) with (m_layer_end m) in Le3. lia. }
+          destruct Hcore as (k1 & k2 & _ & _ & _ & _ & k7).
+          assert (HSrcm : Src m c).
+          { destruct (Src_expand_layer var l m3 c HSrc4) as [H3|H3].
+            - apply Sr3 in H3. exact H3.
+            - exfalso. apply Lids in H3. apply Ge3 in H3. change (m_layer_end m2) with (m_layer_end m) in H3. lia. }
+          assert (Hcov' : cov (n_state (gn m c)) sc) by (rewrite k1; exact Hcov).
+          assert (Hvc' : (vc <= n_vtop (gn m c))%Z) by (rewrite k2; exact Hvc).
+          destruct (HU i c sc vc ds2 sN w Hij Hc HSrcm Hcov' Hvc' HSt Hpc Hen) as (Hdep & u & s' & Hu & Hpth).
+          fold d in Hpth. fold j in Hpth.
+          assert (Hjj : j - i < length ds2) by (unfold j; lia).
+          destruct (run_prefixT (rd + i) sc vc ds2 sN w (j - i) Hrun Hdsl HlbwT Hjj)
+            as (s1 & v1 & dj & rest & h & P1 & P2 & P3 & P4 & P5 & P6T).
+          assert (P6 : (lb < v1 + h)%Z) by lia.
+          assert (Hfl : length (firstn (j - i) ds2) = j - i) by (rewrite firstn_length; lia).
+          assert (Hs1 : s1 = s').
+          { rewrite (frun_state pb _ _ _ _ _ _ P1). symmetry. apply (dpath_state _ _ _ _ _ _ _ Hpth). }
+          subst s1.
+          destruct (T3 i c sc u (firstn (j - i) ds2) s') as (u' & Hu' & Hp3).
+          -- exact Hu.
+          -- pose proof HC as (HD0 & HX0 & Hnd0 & HE0).
+             apply (tracked_not_droppable m2 d u s' h v1 HC2 ltac:(lia)).
+             ++ exact Hu.
+             ++ change (gn m2 u) with (gn m u). eapply dpath_cov; exact Hpth.
+             ++ replace d with (rd + i + (j - i)) by (unfold j; lia). exact P5.
+             ++ change (gn m2 u) with (gn m u).
+                refine (dpath_vtop_gen m i c sc (firstn (j - i) ds2) u s' (rd + i) vc HE0 Hpth Hvc' _ s' v1 P1).
+                intros ds1 s1 w1 Hr1. eapply Start_isize; eauto.
+             ++ lia.
+          -- intros _ E. rewrite E in Hfl. simpl in Hfl. lia.
+          -- exact Hen3.
+          -- eapply dpath_ceq; [exact Hc2|exact Hpth].
+          -- assert (Hdj : var = d_var dj) by (apply (Hdj_of dj (i + (j - i))); [rewrite Nat.add_assoc; exact P3|unfold j; lia]).
+             destruct (expand_layer_track var l d m3 i c sc vc u' (firstn (j - i) ds2) s' v1 (d_val dj) h)
+               as (t' & Ht' & Hpt').
+             ++ split; [exact D3'|]. split; [exact X3'|]. split; [exact Nd3'|exact E3'].
+             ++ exact L3.
+             ++ exists states. exact Eov.
+             ++ change (m_layer_end m2) with (m_layer_end m) in Le3. lia.
+             ++ destruct (Cl3 c Hclt) as (_ & q2 & _). rewrite <- q2.
+                change (gn m2 c) with (gn m c). rewrite k2. exact Hvc.
+             ++ intros ds1 s1 w1 Hr1. eapply Start_isize; eauto.
+             ++ exact Hu'.
+             ++ rewrite Hfl, Ly3. change (m_layers m2) with (m_layers m).
+                replace (i + (j - i)) with (length (m_layers m)) by (rewrite Hlen; fold j; lia).
+                rewrite app_nth2 by lia. rewrite Nat.sub_diag. simpl. apply Lids. exact Hu'.
+             ++ exact Hp3.
+             ++ exact P1.
+             ++ rewrite Hdj. exact P4.
+             ++ rewrite Hfl. exact P5.
+             ++ exact P6.
+             ++ apply (Start_H_isize i sc vc (firstn (j - i) ds2) s' v1 h HSt P1).
+                ** rewrite Hfl. unfold j. lia.
+                ** rewrite Hfl. exact P5.
+             ++ fold m4 in Ht', Hpt'. split; [rewrite <- k7; exact Hdep|].
+                exists t', (transition pb s' {| d_var := var; d_val := d_val dj |}).
+                split; [exact Ht'|].
+                replace (S d - rd - i) with (S (j - i)) by (unfold j; lia).
+                rewrite (firstn_S_skipn (j - i) ds2 dj rest P2).
+                assert (Edj : dj = {| d_var := var; d_val := d_val dj |}) by (rewrite Hdj; destruct dj; reflexivity).
+                match goal with |- context [?ll ++ [dj]] =>
+               replace (ll ++ [dj]) with (ll ++ [{| d_var := var; d_val := d_val dj |}]) by (rewrite <- Edj; reflexivity) end.
+                eapply dpath_frame; [| | |exact Hpt']; reflexivity.
+        * (* a start of the layer just expanded *)
+          assert (i = j) by (unfold j in *; lia). subst i.
+          rewrite app_nth2 in Hc by lia. rewrite Hlen in Hc. fold j in Hc. rewrite Nat.sub_diag in Hc. simpl in Hc.
+          assert (Hcl : In c l).
+          { destruct (Src_expand_layer var l m3 c HSrc4) as [H3|H3]; [|exact H3].
+            exfalso. apply (Ns3 c H3). exact Hc. }
+          destruct (L3 c Hcl) as [Hclt Hcdep].
+          assert (Hclen : c < length (m_nodes m3)) by (pose proof (D_le _ _ _ D3'); lia).
+          destruct (s43 c Hclt) as (k1 & k2 & _ & _ & _ & _ & k7).
+          assert (Hjj : 0 < length ds2) by (unfold j in *; lia).
+          destruct (run_prefixT (rd + j) sc vc ds2 sN w 0 Hrun Hdsl HlbwT Hjj)
+            as (s1 & v1 & dj & rest & h & P1 & P2 & P3 & P4 & P5 & P6T).
+          assert (P6 : (lb < v1 + h)%Z) by lia.
+          simpl in P1. inversion P1; subst s1 v1. clear P1.
+          assert (Hdj : var = d_var dj) by (apply (Hdj_of dj (j + 0)); [rewrite Nat.add_assoc; exact P3|unfold j; lia]).
+          destruct (expand_layer_track var l d m3 j c sc vc c [] sc vc (d_val dj) h) as (t' & Ht' & Hpt').
+          -- split; [exact D3'|]. split; [exact X3'|]. split; [exact Nd3'|exact E3'].
+          -- exact L3.
+          -- exists states. exact Eov.
+          -- exact Hclt.
+          -- rewrite k2. exact Hvc.
+          -- intros ds1 s1 w1 Hr1. eapply Start_isize; eauto.
+          -- exact Hcl.
+          -- simpl. rewrite Nat.add_0_r, Ly3. change (m_layers m2) with (m_layers m).
+             rewrite app_nth2 by lia. rewrite Hlen. fold j. rewrite Nat.sub_diag. simpl. exact Hc.
+          -- apply dp_nil; [exact Hclen|]. rewrite k1. exact Hcov.
+          -- reflexivity.
+          -- rewrite Hdj. exact P4.
+          -- simpl. exact P5.
+          -- exact P6.
+          -- apply (Start_H_isize j sc vc [] sc vc h HSt eq_refl); [simpl; unfold j; lia|simpl; exact P5].
+          -- fold m4 in Ht', Hpt'. split; [rewrite <- k7, Hcdep; unfold j; lia|].
+             exists t', (transition pb sc {| d_var := var; d_val := d_val dj |}).
+             split; [exact Ht'|].
+             replace (S d - rd - j) with 1 by (unfold j; lia).
+             rewrite (firstn_S_skipn 0 ds2 dj rest P2). simpl firstn.
+             assert (Edj : dj = {| d_var := var; d_val := d_val dj |}) by (rewrite Hdj; destruct dj; reflexivity).
+             match goal with |- context [?ll ++ [dj]] =>
+               replace (ll ++ [dj]) with (ll ++ [{| d_var := var; d_val := d_val dj |}]) by (rewrite <- Edj; reflexivity) end.
+             eapply dpath_frame; [| | |exact Hpt']; reflexivity.
+      + (* sources lie in layers *)
+        intros c HSrc. change (m_layers m5) with (m_layers m4). rewrite Hly4.
+        change (gn m5 c) with (gn m4 c).
+        pose proof S4 as (s41 & s42 & s43 & s44 & s45).
+        destruct (Src_expand_layer var l m3 c HSrc) as [H3|H3].
+        * apply Sr3 in H3. destruct (HSL c H3) as (i & Hi & Hdp). exists i. split; [apply nth_layers_app; exact Hi|].
+          assert (Hclt : c < m_layer_end m).
+          { destruct HC as (_ & HX & _).
+            destruct (Nat.lt_ge_cases i (length (m_layers m))) as [Hlt|Hge].
+            - apply (X_layers _ _ _ HX (nth i (m_layers m) []) c); [apply nth_In; exact Hlt|exact Hi].
+            - rewrite nth_overflow in Hi by exact Hge. destruct Hi. }
+          assert (Hcore : core_eq (gn m c) (gn m4 c)).
+          { eapply (core_eq_trans inp Hclean); [apply (Cl3 c Hclt)|]. apply s43.
+            change (m_layer_end m2) with (m_layer_end m) in Le3. lia. }
+          destruct Hcore as (_ & _ & _ & _ & _ & _ & k7). rewrite <- k7. exact Hdp.
+        * exists (length (m_layers m)). split.
+          -- rewrite app_nth2 by lia. rewrite Nat.sub_diag. simpl. apply Lids. exact H3.
+          -- destruct (L3 c H3) as [Hclt Hcdep]. destruct (s43 c Hclt) as (_ & _ & _ & _ & _ & _ & k7).
+             rewrite <- k7, Hcdep, Hlen. fold d. lia.
+  Qed.
+
+  Lemma LinvT_initialize c ds polls : N < length ds -> store_all Pst ds -> LinvT (initialize inp c ds polls).
+  Proof.
+    intros Hdsl Hdst.
+    destruct (MddExact.initialize_inv inp c ds polls) as (I1 & I2 & I3).
+    split; [|split; [|split; [|split; [|split; [|split; [|split; [|split]]]]]]].
+    9:{ exact Hdst. }
+    8:{ exact Hdsl. }
+    - split; [exact I1|]. split; [exact I2|]. split; [exact I3|].
+      split.
+      + simpl. lia.
+      + intros eid He. simpl in He. lia.
+      + intros id eid Hid Hin. simpl in Hid. assert (id = 0) by lia. subst id. destruct Hin.
+    - simpl. apply Nat.le_refl.
+    - simpl. exact Hrd.
+    - simpl. lia.
+    - intros ds0 sN w Hp Hen. exists 0, rs. split; [left; reflexivity|].
+      replace (m_curr_depth (initialize inp c ds polls) - rd) with 0 by (simpl; lia).
+      simpl firstn. apply dp_nil; [simpl; lia|]. simpl. apply cov_refl.
+    - intros i cc sc vc ds2 sN w Hi. exfalso. simpl in Hi. lia.
+    - intros cc (eid & He & _). simpl in He. lia.
+  Qed.
+
+
+  Lemma dom_finalize tb tb2 (ml : mdd) : m_dom (finalize st_eqb inp tb tb2 ml) = m_dom ml.
+  Proof.
+    assert (Hins : insens (@m_dom St)) by (repeat split).
+    unfold finalize.
+    rewrite (ins_compute_thresholds st_eqb inp Hnocache _ Hins).
+    rewrite (ins_compute_local_bounds inp _ Hins).
+    rewrite (ins_finalize_cutset inp Hclean _ Hins) by reflexivity.
+    unfold finalize_exact, find_best_node, finalize_layers. cbv zeta. msimpl.
+    rewrite (not_pooled inp Hclean). destruct (m_next ml); reflexivity.
+  Qed.
+
+
+
+  Lemma compile_postT tb tb2 c ds polls m :
+    N < length ds -> store_all Pst ds ->
+    compile st_eqb inp tb tb2 c ds polls = (m, Compiled) ->
+    exists ml, m = finalize st_eqb inp tb tb2 ml /\ Sinv inp ml /\ Xs inp ml /\ PostT ml /\ Ninv ml /\
+               store_all Pst (m_dom m) /\ N < length (m_dom m).
+  Proof.
+    unfold compile. cbv zeta. intros Hdsl Hdst H.
+    pose proof (layer_loop_Sinv st_eqb st_eqb_spec inp Hclean (S (S (nb_vars (ci_problem inp)))) c ds polls) as [HS HX].
+    pose proof (layer_loop_NinvD (S (S (nb_vars (ci_problem inp)))) (initialize inp c ds polls) (Ninv_initialize c ds polls)) as HN.
+    destruct (layer_loop st_eqb inp (S (S (nb_vars (ci_problem inp)))) (initialize inp c ds polls)) as [ml e] eqn:El.
+    cbn [fst] in HS, HX, HN. destruct e; inversion H. exists ml.
+    destruct (layer_loop_simT _ _ _ (LinvT_initialize c ds polls Hdsl Hdst) El) as (HP & Hln & Hst).
+    split; [reflexivity|]. split; [exact HS|]. split; [exact HX|]. split; [exact HP|]. split; [exact HN|].
+    rewrite dom_finalize. split; [exact Hst|exact Hln].
+  Qed.
+
+
+  Lemma vstar_promT o : vstar = Some o -> (Z.max lb tau < o)%Z -> exists ds sN, promT ds sN o.
+  Proof.
+    unfold vstar. intros Hv Hlb. destruct (H pb rd rs) as [h|] eqn:Eh; [|discriminate].
+    simpl in Hv. inversion Hv; subst o.
+    destruct (H_attained pb nv_static nv_some nv_none (N - rd) rd rs rv h eq_refl Hrd Eh) as (ds & sN & Hr & Hl).
+    exists ds, sN. split; [exact Hr|]. split; [exact Hl|exact Hlb].
+  Qed.
+
+  Lemma track_terminalT (ml : mdd) o :
+    Sinv inp ml -> PostT ml -> enabled ml -> vstar = Some o -> (Z.max lb tau < o)%Z ->
+    exists ds sN u s', promT ds sN o /\ Einv ml /\ length (m_layers ml) = N - rd /\ In u (m_next ml) /\
+      m_layer_end ml <= u < length (m_nodes ml) /\
+      dpath ml 0 0 rs ds u s' /\ (o <= n_vtop (gn ml u))%Z.
+  Proof.
+    intros HS (_ & HP & _) Hen Hv Hlb.
+    destruct (vstar_promT o Hv Hlb) as (ds & sN & Hp).
+    destruct (HP ds sN o Hp Hen) as (HE & Hlen & u & s' & Hu & Hr & Hpth).
+    pose proof Hp as (Hrun & _ & _).
+    exists ds, sN, u, s'.
+    split; [exact Hp|]. split; [exact HE|]. split; [exact Hlen|]. split; [exact Hu|]. split; [exact Hr|].
+    split; [exact Hpth|].
+    apply (dpath_vtop ml ds u s' HE Hpth (Sinv_root_vtop ml HS) _ _ Hrun).
+  Qed.
+
+  (* S1 (C06, bound) *)
+  Theorem S1T tb tb2 c ds polls m o :
+    N < length ds -> store_all Pst ds ->
+    compile st_eqb inp tb tb2 c ds polls = (m, Compiled) ->
+    ci_type inp = Relaxed \/ ci_type inp = Exact ->
+    vstar = Some o -> (o > lb)%Z -> (o > tau)%Z ->
+    exists b, dd_best_value inp m = Some b /\ (o <= b)%Z.
+  Proof.
+    intros Hdsl Hdst Hc Ht Hv Hlb Htau. destruct (compile_postT _ _ _ _ _ _ Hdsl Hdst Hc) as (ml & -> & HS & HX & HP & _).
+    assert (Hen : enabled ml) by (intros E; destruct Ht as [E'|E']; rewrite E' in E; discriminate).
+    destruct (track_terminalT ml o HS HP Hen Hv) as (ds0 & sN & u & s' & _ & _ & _ & Hu & _ & _ & Hvt); [lia|].
+    destruct (best_ge tb tb2 ml u HS HX Hu) as (b & Hb & _ & Hge).
+    unfold dd_best_value. rewrite Hb. simpl. eexists; split; [reflexivity|lia].
+  Qed.
+
+  (* S2 (K2; C06 (b); C07) *)
+  Theorem S2T tb tb2 c ds polls m o :
+    N < length ds -> store_all Pst ds ->
+    compile st_eqb inp tb tb2 c ds polls = (m, Compiled) ->
+    dd_is_exact m = true -> vstar = Some o -> (o > lb)%Z -> (o > tau)%Z ->
+    dd_best_exact_value inp m = Some o.
+  Proof.
+    intros Hdsl Hdst Hc Hex Hv Hlb Htau. destruct (compile_postT _ _ _ _ _ _ Hdsl Hdst Hc) as (ml & -> & HS & HX & HP & _).
+    destruct (finalize_spec st_eqb inp Hclean tb tb2 ml HS HX) as (F1 & F2 & F3 & F4 & F5 & F6 & F7).
+    destruct (finalize_hdr tb tb2 ml) as (H1 & H2 & H3 & H4). cbv zeta in H1, H2, H3, H4.
+    set (m := finalize st_eqb inp tb tb2 ml) in *.
+    unfold dd_is_exact in Hex.
+    assert (Hen : enabled ml).
+    { intros Et. destruct (m_has_ebp m) eqn:Eb.
+      - rewrite (H2 eq_refl) in Et. discriminate.
+      - rewrite orb_false_r in Hex. rewrite Hex in H1. destruct (m_lel ml); [discriminate|reflexivity]. }
+    destruct (track_terminalT ml o HS HP Hen Hv) as (ds0 & sN & u & s' & _ & _ & _ & Hu & Hur & _ & Hvt); [lia|].
+    assert (Hbest : exists b, m_best_exact m = Some b /\ In b (m_next ml) /\ (o <= n_vtop (gn m b))%Z).
+    { destruct (m_has_ebp m) eqn:Eb.
+      - destruct (best_ge tb tb2 ml u HS HX Hu) as (b & Hb & Hin & Hge). fold m in Hb, Hge.
+        exists b. split; [rewrite H4; exact Hb|]. split; [exact Hin|lia].
+      - rewrite orb_false_r in Hex. rewrite Hex in H1.
+        assert (Hlel : m_lel ml = None) by (destruct (m_lel ml); [discriminate|reflexivity]).
+        assert (Hux : is_ex ml u = true) by (apply (X_lel_none _ _ _ HX Hlel); lia).
+        destruct (best_exact_ge tb tb2 ml u HS HX Hu Hux Eb) as (b & Hb & Hin & Hge). fold m in Hb, Hge.
+        exists b. split; [exact Hb|]. split; [exact Hin|lia]. }
+    destruct Hbest as (b & Hb & Hin & Hge).
+    destruct (F5 b Hb) as [Hblt Hcc].
+    assert (Hdep : n_depth (gn m b) = N).
+    { destruct (finalize_core tb tb2 ml b HS HX) as (_ & _ & _ & _ & _ & _ & c7). fold m in c7.
+      rewrite <- c7. apply (proj1 HP). exact Hin. }
+    pose proof (exact_terminal_le m b o F3 Hcc Hblt Hdep Hv) as Hle.
+    unfold dd_best_exact_value. rewrite Hb. simpl. f_equal. lia.
+  Qed.
+
+
+  (* ---------------------------------------------------------------- S4 core: the cut-set node of an optimal path *)
+  Lemma S4_coreT tb tb2 (ml : mdd) o :
+    ci_type inp = Relaxed -> Sinv inp ml -> Xs inp ml -> Ninv ml -> PostT ml ->
+    vstar = Some o -> (Z.max lb tau < o)%Z ->
+    let m := finalize st_eqb inp tb tb2 ml in
+    dd_is_exact m = false -> (forall e, dd_best_exact_value inp m = Some e -> (e < o)%Z) ->
+    exists c, In c (m_cutset m) /\ f_marked (n_flags (gn m c)) = true /\
+      oadd (n_vtop (gn m c)) (H pb (n_depth (gn m c)) (n_state (gn m c))) = Some o /\
+      (o <= sat_add (n_vtop (gn m c)) (n_vbot (gn m c)))%Z /\
+      (o <= sat_add (n_vtop (gn m c)) (n_rub (gn m c)))%Z.
+  Proof.
+    intros Ht HS HX HN HP Hv Hlb m Hnex Hbe.
+    assert (Hen : enabled ml) by (intros E; rewrite Ht in E; discriminate).
+    destruct (track_terminalT ml o HS HP Hen Hv Hlb) as (ds & sN & u & s' & Hprom & HE & Hlen & Hu & Hur & Hp & Hvt).
+    destruct (finalize_hdr tb tb2 ml) as (H1 & H2 & H3 & H4). cbv zeta in H1, H2, H3, H4. fold m in H1, H2, H3, H4.
+    unfold dd_is_exact in Hnex. apply orb_false_iff in Hnex. destruct Hnex as [Hnx Hebp].
+    rewrite Hnx in H1. destruct (m_lel ml) as [k|] eqn:Hlel; [|discriminate].
+    pose proof Hprom as (Hrun & Hdsl & _).
+    (* the terminal node of the path is not exact *)
+    assert (Hxu : is_ex ml u = false).
+    { destruct (is_ex ml u) eqn:Ex; [|reflexivity]. exfalso.
+      destruct (best_exact_ge tb tb2 ml u HS HX Hu Ex Hebp) as (b & Hb & _ & Hge). fold m in Hb, Hge.
+      specialize (Hbe (n_vtop (gn m b))). unfold dd_best_exact_value in Hbe. rewrite Hb in Hbe.
+      specialize (Hbe eq_refl). lia. }
+    destruct (cut_node tb tb2 ml k ds u s' Ht HS HX HN HE Hlel) as (ds1 & ds2 & c & sc & E & Hne & P1 & P2 & Xc & Hcut); auto.
+    { lia. }
+    cbv zeta in Hcut.
+    destruct (pipe3 tb tb2 ml HS HX) as (G1 & G2 & G3 & G4 & G5 & S3 & X3 & Pl3). cbv zeta in G1, G2, G3, G4, G5, S3, X3, Pl3.
+    set (m3 := finalize_exact inp (find_best_node inp tb tb2 (finalize_layers inp ml))) in *.
+    set (m4 := finalize_cutset inp m3) in *.
+    set (m5 := compute_local_bounds inp m4).
+    assert (Em : m = compute_thresholds st_eqb inp m5) by reflexivity.
+    (* semantic facts about c *)
+    assert (Hrs : n_state (gn ml 0) = rs) by (destruct (S_root _ _ HS) as (_ & r2 & _); exact r2).
+    assert (Hrdp : n_depth (gn ml 0) = rd) by (destruct (S_root _ _ HS) as (_ & _ & _ & r4 & _); exact r4).
+    destruct (dpath_exact _ _ _ _ _ _ _ HE P1 Hrs Xc) as (Hsc & Hdc & _). rewrite Hrdp in Hdc.
+    rewrite E, frun_app in Hrun.
+    destruct (frn rd rs rv ds1) as [[sc' vc]|] eqn:Er1; [|discriminate].
+    assert (sc' = sc).
+    { rewrite (frun_state pb _ _ _ _ _ _ Er1). symmetry. apply (dpath_state _ _ _ _ _ _ _ P1). }
+    subst sc'.
+    assert (HsN : sN = s').
+    { rewrite (frun_state pb _ _ _ _ _ _ Hrun). symmetry. apply (dpath_state _ _ _ _ _ _ _ P2). }
+    subst sN.
+    pose proof (dpath_vtop ml ds1 c sc HE P1 (Sinv_root_vtop ml HS) _ _ Er1) as Hvc.
+    rewrite E, app_length in Hdsl.
+    destruct (frun_le_H pb nv_static nv_none ds2 (rd + length ds1) sc vc s' o) as (h & Hh & Hle); [lia|exact Hrun|].
+    assert (Hclen : c < length (m_nodes ml)) by (eapply dpath_range; eauto).
+    assert (Hup : (n_vtop (gn ml c) + h <= o)%Z).
+    { pose proof (Sinv_exact_flag_clean_chain inp ml HS c Hclen Xc) as Hcc.
+      destruct (clean_chain_frun ml c HS Hcc Hclen) as (dsc & Hrc & Hdepc).
+      assert (Hl : length dsc = length ds1) by lia.
+      destruct (H_attained pb nv_static nv_some nv_none (N - (rd + length ds1)) (rd + length ds1) sc
+                  (n_vtop (gn ml c)) h eq_refl ltac:(lia) Hh) as (dsx & sx & Hrx & Hlx).
+      apply (vstar_upper o (dsc ++ dsx) sx _ Hv).
+      - rewrite frun_app, Hrc, Hl, Hsc. exact Hrx.
+      - rewrite app_length. lia. }
+    assert (Hvceq : n_vtop (gn ml c) = vc) by lia.
+    assert (Hoeq : (vc + h = o)%Z) by lia.
+    destruct (Hguard _ _ _ Er1) as [Hg1 Hg2].
+    assert (Hgo : (- B <= o <= B)%Z).
+    { apply (Hguard (ds1 ++ ds2) s'). rewrite frun_app, Er1. exact Hrun. }
+    assert (Hiso_o : in_isize o) by (unfold in_isize, IMIN, IMAX in *; lia).
+    (* transfer to the finalized diagram *)
+    destruct (finalize_cutset_spec inp Hclean m3 S3 X3) as [B34 _]. fold m4 in B34.
+    destruct B34 as (P34 & _).
+    assert (Pl4 : peq inp ml m4) by (eapply peq_trans; eauto).
+    destruct (finalize_layers_fields ml) as (_ & _ & _ & _ & F5).
+    assert (Hly4 : m_layers m4 = m_layers ml ++ [seq (m_layer_end ml) (length (m_nodes ml) - m_layer_end ml)]).
+    { unfold m4. rewrite finalize_cutset_layers, G3, F5. destruct (m_next ml); [destruct Hu|reflexivity]. }
+    assert (P2' : dpath m4 (length ds1) c sc ds2 u s').
+    { eapply dpath_peq; [exact Pl4| |exact P2]. intros j x. rewrite Hly4. apply nth_layers_app. }
+    assert (Hgo4 : lb_go m4 = true).
+    { unfold MddSim.lb_go. rewrite Ht. unfold m4. rewrite (lel_finalize_cutset m3 k) by (rewrite G4; exact Hlel).
+      fold m4. rewrite Hly4, app_length. cbn [opt_default length is_relaxed_ct].
+      pose proof (X_lel_lt _ _ _ HX Ht k Hlel). rewrite andb_true_r. apply Nat.ltb_lt. lia. }
+    destruct (local_bounds_path m4 (length ds1) c sc ds2 u s' (rd + length ds1) vc o Hgo4 P2' Hrun) as [M1 M2].
+    { rewrite Hly4, app_length. simpl. lia. }
+    { rewrite Hly4, last_last. apply in_seq. lia. }
+    { intros da db s1 v1 Ed Hr1.
+      destruct (Hguard (ds1 ++ da) s1 v1) as [Q1 Q2]; [rewrite frun_app, Er1; exact Hr1|].
+      unfold in_isize, IMIN, IMAX in *. lia. }
+    fold m5 in M1, M2.
+    (* nodes of the final diagram *)
+    destruct (finalize_core tb tb2 ml c HS HX) as (c1 & c2 & _ & _ & _ & _ & c7). fold m in c1, c2, c7.
+    assert (Hmk : f_marked (n_flags (gn m c)) = true).
+    { rewrite Em. rewrite (node_compute_thresholds _ (fun n => f_marked (n_flags n))) by reflexivity. exact M1. }
+    assert (Hvb : n_vbot (gn m c) = n_vbot (gn m5 c)).
+    { rewrite Em. apply (node_compute_thresholds _ (@n_vbot St)). reflexivity. }
+    assert (Hrb : n_rub (gn m c) = n_rub (gn ml c)).
+    { rewrite Em. rewrite (node_compute_thresholds _ (@n_rub St)) by reflexivity.
+      unfold m5. rewrite (node_compute_local_bounds _ (@n_rub St)) by reflexivity.
+      unfold m4. rewrite (node_finalize_cutset _ (@n_rub St)) by reflexivity.
+      rewrite (gn_nodes_eq inp ml m3 c G1). reflexivity. }
+    assert (Hcs : m_cutset m = m_cutset m4).
+    { destruct (compute_local_bounds_keq inp Hclean m4) as (_ & _ & _ & _ & K5). fold m5 in K5.
+      destruct (compute_thresholds_keq st_eqb inp m5) as (_ & _ & _ & _ & K6). rewrite Em. congruence. }
+    exists c. split; [rewrite Hcs; exact Hcut|]. split; [exact Hmk|].
+    rewrite <- c1, <- c2, <- c7, Hsc, Hdc, Hh, Hvceq. split; [simpl; f_equal; exact Hoeq|]. split.
+    - rewrite Hvb. apply sat_add_ge; [exact Hiso_o|]. lia.
+    - rewrite Hrb. apply sat_add_ge; [exact Hiso_o|].
+      assert (Hhr : (h <= n_rub (gn ml c))%Z).
+      { unfold Ninv in HN. rewrite Forall_forall in HN.
+        destruct (HN (gn ml c)) as (_ & _ & [Q|Q]); [apply nth_In; exact Hclen| |].
+        - rewrite Q. lia.
+        - rewrite Q. apply (rub_adm (rd + length ds1) _ sc h); [rewrite Hsc; apply cov_refl|exact Hh]. }
+      lia.
+  Qed.
+
+  Theorem S4T tb tb2 c ds polls m o :
+    N < length ds -> store_all Pst ds ->
+    compile st_eqb inp tb tb2 c ds polls = (m, Compiled) ->
+    ci_type inp = Relaxed -> dd_is_exact m = false -> vstar = Some o -> (o > lb)%Z -> (o > tau)%Z ->
+    (forall e, dd_best_exact_value inp m = Some e -> (e < o)%Z) ->
+    exists sp, In sp (drain_cutset inp m) /\
+      oadd (sp_value sp) (H pb (sp_depth sp) (sp_state sp)) = Some o /\ (o <= sp_ub sp)%Z.
+  Proof.
+    intros Hdsl Hdst Hc Ht Hnex Hv Hlb Htau Hbe.
+    destruct (S1T _ _ _ _ _ _ _ Hdsl Hdst Hc (or_introl Ht) Hv Hlb Htau) as (bv & Hbv & Hbvo).
+    destruct (compile_postT _ _ _ _ _ _ Hdsl Hdst Hc) as (ml & -> & HS & HX & HP & HN & _).
+    destruct (S4_coreT tb tb2 ml o Ht HS HX HN HP Hv ltac:(lia) Hnex Hbe) as (cn & Hin & Hmk & Hbest & Hlocb & Hrub).
+    set (m := finalize st_eqb inp tb tb2 ml) in *.
+    set (n := gn m cn) in *.
+    exists {| sp_state := n_state n; sp_value := n_vtop n; sp_path := best_path inp m cn;
+              sp_ub := Z.min (Z.min (sat_add (n_vtop n) (n_rub n)) (sat_add (n_vtop n) (n_vbot n))) bv;
+              sp_depth := n_depth n |}.
+    split; [|split].
+    - unfold drain_cutset. rewrite Hbv. apply in_flat_map. exists cn. split; [exact Hin|].
+      cbv zeta. fold n. rewrite Hmk. left; reflexivity.
+    - exact Hbest.
+    - cbn [sp_ub]. lia.
+  Qed.
+
+
+
+  Theorem S3cT tb tb2 c ds polls m sp o :
+    N < length ds -> store_all Pst ds ->
+    compile st_eqb inp tb tb2 c ds polls = (m, Compiled) ->
+    ci_type inp = Relaxed ->
+    In sp (drain_cutset inp m) ->
+    oadd (sp_value sp) (H pb (sp_depth sp) (sp_state sp)) = Some o -> (o > lb)%Z -> (o > tau)%Z ->
+    exists id bv, In id (m_cutset m) /\ dd_best_value inp m = Some bv /\
+      sp_ub sp = Z.min (Z.min (sat_add (n_vtop (gn m id)) (n_rub (gn m id)))
+                              (sat_add (n_vtop (gn m id)) (n_vbot (gn m id)))) bv /\
+      (o <= sat_add (n_vtop (gn m id)) (n_rub (gn m id)))%Z /\ (o <= bv)%Z /\
+      f_marked (n_flags (gn m id)) = true /\ sp_state sp = n_state (gn m id) /\
+      sp_value sp = n_vtop (gn m id) /\ sp_depth sp = n_depth (gn m id).
+  Proof.
+    intros Hdsl Hdst Hc Ht Hsp Ho Hlb Htau.
+    destruct (compile_postT _ _ _ _ _ _ Hdsl Hdst Hc) as (ml & Em & HS & HX & HP & HN & _).
+    destruct (finalize_spec st_eqb inp Hclean tb tb2 ml HS HX) as ((_ & _ & L & A4) & _ & HSm & _ & _ & F6 & _).
+    rewrite <- Em in L, A4, HSm, F6.
+    unfold drain_cutset in Hsp. destruct (dd_best_value inp m) as [bv|] eqn:Ebv; [|destruct Hsp].
+    apply in_flat_map in Hsp. destruct Hsp as (id & Hid & Hsp). cbv zeta in Hsp.
+    destruct (f_marked (n_flags (gn m id))) eqn:Emk; [|destruct Hsp].
+    destruct Hsp as [<-|[]]. cbn [sp_ub sp_state sp_value sp_depth] in *.
+    destruct (F6 id Hid) as [Hidlt Hex].
+    pose proof (Sinv_exact_flag_clean_chain inp m HSm id Hidlt Hex) as Hcc.
+    destruct (clean_chain_frun m id HSm Hcc Hidlt) as (dsc & Hrc & Hdepc).
+    destruct (H pb (n_depth (gn m id)) (n_state (gn m id))) as [h|] eqn:Eh; [|discriminate].
+    simpl in Ho. inversion Ho; subst o. clear Ho.
+    assert (Hdle : rd + length dsc <= N).
+    { destruct (Nat.le_gt_cases (rd + length dsc) N) as [Hl|Hg]; [exact Hl|]. exfalso.
+      destruct (rev dsc) as [|dl r] eqn:Er.
+      - assert (dsc = []) by (rewrite <- (rev_involutive dsc), Er; reflexivity). subst dsc. simpl in Hg. lia.
+      - assert (Ed : dsc = rev r ++ [dl]) by (rewrite <- (rev_involutive dsc), Er; reflexivity).
+        rewrite Ed in Hrc. rewrite frun_app in Hrc.
+        destruct (frn rd rs rv (rev r)) as [[s1 v1]|]; [|discriminate].
+        cbn [frun] in Hrc. rewrite Ed, app_length in Hg. simpl in Hg.
+        assert (Hv0 : var_ok pb (rd + length (rev r)) dl = false).
+        { unfold var_ok. rewrite nv_none by lia. reflexivity. }
+        rewrite Hv0 in Hrc. discriminate. }
+    rewrite Hdepc in Eh.
+    pose proof (prefix_isize _ _ _ _ Hrc Hdle Eh) as Hiso.
+    destruct (H_attained pb nv_static nv_some nv_none (N - (rd + length dsc)) (rd + length dsc) _
+                (n_vtop (gn m id)) h eq_refl Hdle Eh) as (dsx & sx & Hrx & Hlx).
+    assert (Hfull : frn rd rs rv (dsc ++ dsx) = Some (sx, (n_vtop (gn m id) + h)%Z)).
+    { rewrite frun_app, Hrc. exact Hrx. }
+    destruct (frun_le_H pb nv_static nv_none (dsc ++ dsx) rd rs rv sx _ ltac:(rewrite app_length; lia) Hfull)
+      as (h0 & Hh0 & Hle0).
+    assert (Hvs : vstar = Some (rv + h0)%Z) by (unfold vstar; rewrite Hh0; reflexivity).
+    destruct (S1T _ _ _ _ _ _ _ Hdsl Hdst Hc (or_introl Ht) Hvs ltac:(lia) ltac:(lia)) as (bv' & Hbv' & Hbvo).
+    rewrite Ebv in Hbv'. inversion Hbv'; subst bv'.
+    exists id, bv. split; [exact Hid|]. split; [reflexivity|]. split; [reflexivity|].
+    split; [|split; [lia|repeat split; auto]].
+    apply sat_add_ge; [exact Hiso|].
+    assert (Hr : (h <= n_rub (gn m id))%Z).
+    { rewrite Em, finalize_rub. rewrite Em in Hidlt. rewrite <- Em in Hidlt. rewrite L in Hidlt.
+      destruct (A4 id) as (a1 & _).
+      unfold Ninv in HN. rewrite Forall_forall in HN.
+      destruct (HN (gn ml id)) as (_ & _ & [Q|Q]); [apply nth_In; exact Hidlt| |].
+      - rewrite Q. destruct (Hguard _ _ _ Hrc) as [Q1 Q2]. destruct (Hguard _ _ _ Hfull) as [Q3 Q4]. lia.
+      - rewrite Q, a1. apply (rub_adm (rd + length dsc) _ (n_state (gn m id)) h); [apply cov_refl|exact Eh]. }
+    lia.
+  Qed.
+
+  (* S3 (K3_ub, C08 iii) in full *)
+  Theorem S3T tb tb2 c ds polls m sp o :
+    N < length ds -> store_all Pst ds ->
+    compile st_eqb inp tb tb2 c ds polls = (m, Compiled) ->
+    ci_type inp = Relaxed -> dd_is_exact m = false ->
+    In sp (drain_cutset inp m) ->
+    oadd (sp_value sp) (H pb (sp_depth sp) (sp_state sp)) = Some o -> (o > lb)%Z -> (o > tau)%Z ->
+    (o <= sp_ub sp)%Z.
+  Proof.
+    intros Hdsl Hdst Hc Ht Hnex Hsp Ho Hlb Htau.
+    destruct (S3cT tb tb2 c ds polls m sp o Hdsl Hdst Hc Ht Hsp Ho Hlb Htau)
+      as (id & bv & Hid & Hbv & Hub & Hrubp & Hbvp & Hmk & Est & Evl & Edp).
+    rewrite Hub. rewrite Est, Evl, Edp in Ho.
+    destruct (compile_postT _ _ _ _ _ _ Hdsl Hdst Hc) as (ml & Em & HS & HX & HP & HN & _).
+    destruct HP as (HPa & HPb & HUP & HSL & HXn).
+    destruct (finalize_spec st_eqb inp Hclean tb tb2 ml HS HX) as ((_ & _ & L & A4) & _ & HSm & _ & _ & F6 & _).
+    rewrite <- Em in L, A4, HSm, F6.
+    destruct (finalize_hdr tb tb2 ml) as (H1 & H2 & H3 & H4). cbv zeta in H1, H2, H3, H4. rewrite <- Em in H1, H2, H3, H4.
+    unfold dd_is_exact in Hnex. apply orb_false_iff in Hnex. destruct Hnex as [Hnx Hebp].
+    rewrite Hnx in H1. destruct (m_lel ml) as [k|] eqn:Hlel; [|discriminate].
+    assert (Hen : enabled ml) by (intros E; rewrite Ht in E; discriminate).
+    (* the next layer of the loop was not empty *)
+    assert (Hnn : m_next ml <> []).
+    { unfold dd_best_value in Hbv. rewrite H3 in Hbv.
+      destruct (pick tb (argmax_candidates inp (finalize_layers inp ml) (m_next ml))) as [b|] eqn:Eb; [|discriminate].
+      apply pick_In in Eb. apply (argmax_candidates_In inp Hclean) in Eb.
+      intros E. rewrite E in Eb. destruct Eb. }
+    pose proof (HXn Hnn) as HXi.
+    destruct (F6 id Hid) as [Hidlt Hex].
+    pose proof (Sinv_exact_flag_clean_chain inp m HSm id Hidlt Hex) as Hcc.
+    destruct (clean_chain_frun m id HSm Hcc Hidlt) as (dsc & Hrc & Hdepc).
+    destruct (A4 id) as (a1 & a2 & _ & _ & _ & _ & a7).
+    (* the pipeline *)
+    destruct (pipe3 tb tb2 ml HS HX) as (G1 & G2 & G3 & G4 & G5 & S3 & X3 & Pl3). cbv zeta in G1, G2, G3, G4, G5, S3, X3, Pl3.
+    set (m3 := finalize_exact inp (find_best_node inp tb tb2 (finalize_layers inp ml))) in *.
+    set (m4 := finalize_cutset inp m3) in *.
+    set (m5 := compute_local_bounds inp m4).
+    assert (Emm : m = compute_thresholds st_eqb inp m5) by (rewrite Em; reflexivity).
+    assert (Hgn3 : forall x, gn m3 x = gn ml x) by (intros x; apply gn_nodes_eq; exact G1).
+    destruct (finalize_layers_fields ml) as (_ & _ & _ & _ & F5).
+    assert (Hly3 : m_layers m3 = m_layers ml ++ [seq (m_layer_end ml) (length (m_nodes ml) - m_layer_end ml)]).
+    { rewrite G3, F5. destruct (m_next ml); [congruence|reflexivity]. }
+    (* the cut-set node is the source of an arc *)
+    assert (HSrc : Src ml id).
+    { assert (Hcs : m_cutset m = m_cutset m4).
+      { destruct (compute_local_bounds_keq inp Hclean m4) as (_ & _ & _ & _ & K5). fold m5 in K5.
+        destruct (compute_thresholds_keq st_eqb inp m5) as (_ & _ & _ & _ & K6). rewrite Emm. congruence. }
+      rewrite Hcs in Hid.
+      assert (Hsrc3 : forall x, Src m3 x -> Src ml x).
+      { intros x (eid & E1 & E2). exists eid. rewrite G2 in E1. rewrite (ge_edges_eq ml m3 eid G2) in E2. auto. }
+      destruct Hclean as [Hf|Hf].
+      - (* last exact layer: the node lies in layer k, hence not in the last layer *)
+        unfold m4, finalize_cutset in Hid. cbv zeta in Hid. rewrite Hf, G4, Hlel, Ht in Hid.
+        cbn [is_relaxed_ct orb opt_default] in Hid. rewrite G4, Hlel in Hid. cbn [opt_default] in Hid.
+        destruct (lel_cutset_spec inp m3 k) as [_ Hcs3]. rewrite Hcs3, G5 in Hid.
+        rewrite (X_cutset _ _ _ HX) in Hid. simpl in Hid.
+        pose proof (X_lel_lt _ _ _ HX Ht k Hlel) as Hk.
+        rewrite <- G3, Hly3, nth_error_app1 in Hid by exact Hk.
+        destruct (nth_error (m_layers ml) k) as [ids|] eqn:Enk; [|destruct Hid].
+        assert (Hidl : id < m_layer_end ml).
+        { apply (X_layers _ _ _ HXi ids id); [eapply nth_error_In; eauto|exact Hid]. }
+        assert (Hm5 : f_marked (n_flags (gn m5 id)) = true).
+        { rewrite Emm in Hmk. rewrite (node_compute_thresholds _ (fun n => f_marked (n_flags n))) in Hmk by reflexivity. exact Hmk. }
+        assert (S4' : Sinv inp m4).
+        { destruct (finalize_cutset_spec inp Hclean m3 S3 X3) as [(P34 & N34 & _) _]. fold m4 in P34, N34.
+          eapply (Sinv_peq inp Hclean); [exact P34| |exact S3].
+          intros y Hy. rewrite N34 in Hy. destruct P34 as (_ & _ & L34 & _). rewrite L34. apply (S_next _ _ S3). exact Hy. }
+        destruct (marked_src m4 S4') with (x := id) as [Hl|Hs].
+        + intros x. unfold m4. rewrite (flag_finalize_cutset f_marked) by (intros; reflexivity).
+          rewrite Hgn3.
+          destruct (Nat.lt_ge_cases x (length (m_nodes ml))) as [Hlt|Hge].
+          * unfold Ninv in HN. rewrite Forall_forall in HN. apply (HN (gn ml x)). apply nth_In. exact Hlt.
+          * rewrite (gn_out_of_range inp ml x Hge). reflexivity.
+        + exact Hm5.
+        + exfalso. unfold m4 in Hl. rewrite finalize_cutset_layers, Hly3, last_last in Hl. apply in_seq in Hl. lia.
+        + apply Hsrc3. destruct Hs as (eid & E1 & E2).
+          destruct (finalize_cutset_spec inp Hclean m3 S3 X3) as [((Pe & _) & _) _]. fold m4 in Pe.
+          exists eid. rewrite Pe in E1. rewrite (ge_edges_eq m3 m4 eid Pe) in E2. auto.
+      - unfold m4, finalize_cutset in Hid. cbv zeta in Hid. rewrite Hf, G4, Hlel, Ht in Hid.
+        cbn [is_relaxed_ct orb] in Hid.
+        destruct (frontier_cutset_src m3 S3) with (c := id) as [Hc0|Hs]; [|exact Hid| |apply Hsrc3; exact Hs].
+        + intros x Hx Hcx. exfalso. rewrite Hgn3 in Hcx. rewrite G1 in Hx.
+          unfold Ninv in HN. rewrite Forall_forall in HN.
+          destruct (HN (gn ml x)) as [Q _]; [apply nth_In; exact Hx|]. congruence.
+        + rewrite G5, (X_cutset _ _ _ HX) in Hc0. destruct Hc0. }
+    destruct (HSL id HSrc) as (i & Hil & Hdi).
+    assert (Hli : length dsc = i) by lia.
+    assert (HSt : Start i (n_state (gn m id)) (n_vtop (gn m id))) by (exists dsc; auto).
+    destruct (H pb (n_depth (gn m id)) (n_state (gn m id))) as [h|] eqn:Eh; [|discriminate].
+    simpl in Ho. inversion Ho; subst o. clear Ho.
+    assert (Hdle : rd + i <= N).
+    { rewrite <- Hli. apply (frun_len_le dsc rd rs rv _ Hrc Hrd). }
+    rewrite Hdepc, Hli in Eh.
+    destruct (H_attained pb nv_static nv_some nv_none (N - (rd + i)) (rd + i) _ (n_vtop (gn m id)) h eq_refl Hdle Eh)
+      as (ds2 & sN & Hr2 & Hl2).
+    assert (Hpc : promCT i (n_state (gn m id)) (n_vtop (gn m id)) ds2 sN (n_vtop (gn m id) + h)%Z).
+    { split; [exact Hr2|]. split; [lia|lia]. }
+    assert (Hcv : cov (n_state (gn ml id)) (n_state (gn m id))) by (rewrite a1; apply cov_refl).
+    assert (Hvv : (n_vtop (gn m id) <= n_vtop (gn ml id))%Z) by (rewrite a2; lia).
+    destruct (HUP i id (n_state (gn m id)) (n_vtop (gn m id)) ds2 sN _ Hil HSrc Hcv Hvv HSt Hpc Hen)
+      as (HE & _ & Hlen & _ & u & s' & Hu & Hur & Hpth).
+    assert (HsN : sN = s').
+    { rewrite (frun_state pb _ _ _ _ _ _ Hr2). symmetry. apply (dpath_state _ _ _ _ _ _ _ Hpth). }
+    subst sN.
+    destruct (Hguard (dsc ++ ds2) s' _ ltac:(rewrite frun_app, Hrc, Hli; exact Hr2)) as [Go1 Go2].
+    destruct (locb_from_path tb tb2 ml k i id (n_state (gn m id)) (n_vtop (gn m id)) ds2 u s'
+                (n_vtop (gn m id) + h)%Z Ht HS HX Hlel) as [_ Mv]; auto.
+    { lia. }
+    { intros da db s1 v1 Ed Hr1.
+      destruct (Hguard (dsc ++ da) s1 v1) as [Q1 Q2]; [rewrite frun_app, Hrc, Hli; exact Hr1|].
+      unfold in_isize, IMIN, IMAX in *. lia. }
+    rewrite <- Em in Mv.
+    assert (Hloc : (n_vtop (gn m id) + h <= sat_add (n_vtop (gn m id)) (n_vbot (gn m id)))%Z).
+    { apply sat_add_ge; [unfold in_isize, IMIN, IMAX in *; lia|lia]. }
+    lia.
+  Qed.
+End DomSim.
+
+(* ================================================================== 8. the contracts KD0..KD5 for Mdd.compile, under [opt_undominated] *)
+
+(* the contracts consumed by the solver-level theorem of section 3, as one proposition *)
+Definition dom_contracts {St : Type} (st_eqb : St -> St -> bool) (cfg : @sconfig St)
+    (dsok : @dstore St Z -> Prop) (M : nat) : Prop :=
+  let pb := sc_problem cfg in let N := nb_vars (sc_problem cfg) in
+  let good := sgood (sc_problem cfg) in let feas := sfeasible (sc_problem cfg) in let bst := MddSim.best cfg in
+  (forall ct n lb c ds polls m out,
+    dd_ct ct -> good n -> sp_depth n <= N -> dsok ds ->
+    compile st_eqb (mk_input cfg ct n lb) 0 0 c ds polls = (m, out) ->
+    out = Compiled /\ m_crash m = false /\ dsok (m_dom m)) /\
+  (forall ct n lb c ds polls m out,
+    dd_ct ct -> good n -> sp_depth n <= N -> dsok ds ->
+    compile st_eqb (mk_input cfg ct n lb) 0 0 c ds polls = (m, out) ->
+    forall v, dd_best_exact_value (mk_input cfg ct n lb) m = Some v ->
+    exists sol, dd_best_exact_solution (mk_input cfg ct n lb) m = Some sol /\ feas sol v) /\
+  (forall ct n lb c ds polls m out,
+    dd_ct ct -> good n -> sp_depth n <= N -> dsok ds ->
+    compile st_eqb (mk_input cfg ct n lb) 0 0 c ds polls = (m, out) ->
+    dd_is_exact m = true ->
+    forall o, bst (root_node cfg) = Some o -> bst n = Some o -> (o > lb)%Z ->
+    dd_best_exact_value (mk_input cfg ct n lb) m = Some o) /\
+  (forall n lb c ds polls m out,
+    good n -> sp_depth n <= N -> dsok ds ->
+    compile st_eqb (mk_input cfg Relaxed n lb) 0 0 c ds polls = (m, out) ->
+    dd_is_exact m = false ->
+    forall x, In x (drain_cutset (mk_input cfg Relaxed n lb) m) -> good x) /\
+  (forall n lb c ds polls m out,
+    good n -> sp_depth n <= N -> dsok ds ->
+    compile st_eqb (mk_input cfg Relaxed n lb) 0 0 c ds polls = (m, out) ->
+    dd_is_exact m = false ->
+    forall x, In x (drain_cutset (mk_input cfg Relaxed n lb) m) -> sp_depth n < sp_depth x <= N) /\
+  (forall n lb c ds polls m out,
+    good n -> sp_depth n <= N -> dsok ds ->
+    compile st_eqb (mk_input cfg Relaxed n lb) 0 0 c ds polls = (m, out) ->
+    dd_is_exact m = false ->
+    forall x, In x (drain_cutset (mk_input cfg Relaxed n lb) m) ->
+    forall o, bst (root_node cfg) = Some o -> bst x = Some o -> (o > lb)%Z -> (o <= sp_ub x)%Z) /\
+  (forall n lb c ds polls m out,
+    good n -> sp_depth n <= N -> dsok ds ->
+    compile st_eqb (mk_input cfg Relaxed n lb) 0 0 c ds polls = (m, out) ->
+    dd_is_exact m = false ->
+    forall o, bst (root_node cfg) = Some o -> bst n = Some o -> (o > lb)%Z ->
+    (forall e, dd_best_exact_value (mk_input cfg Relaxed n lb) m = Some e -> (e < o)%Z) ->
+    exists x, In x (drain_cutset (mk_input cfg Relaxed n lb) m) /\ bst x = Some o) /\
+  (forall n lb c ds polls m out,
+    good n -> sp_depth n <= N -> dsok ds ->
+    compile st_eqb (mk_input cfg Relaxed n lb) 0 0 c ds polls = (m, out) ->
+    dd_is_exact m = false ->
+    length (drain_cutset (mk_input cfg Relaxed n lb) m) <= M).
+
+Section DomContracts.
+  Context {St : Type}.
+  Variable st_eqb : St -> St -> bool.
+  Hypothesis st_eqb_spec : forall a b, st_eqb a b = true <-> a = b.
+  Variable cfg : @sconfig St.
+  Local Notation pb := (sc_problem cfg).
+  Local Notation rlx := (sc_relax cfg).
+  Local Notation N := (nb_vars (sc_problem cfg)).
+  Variable key : St -> option Z.
+  Variable nd : nat.
+  Variable coord : St -> nat -> Z.
+  Variable usev : bool.
+  Hypothesis cfg_clean : sc_flavour cfg = CleanLEL \/ sc_flavour cfg = CleanFC.
+  Hypothesis cfg_nocache : sc_use_cache cfg = false.
+  Hypothesis cfg_dom : sc_domrule cfg = Some (key, nd, coord, usev).
+  Hypothesis cfg_nocut : sc_cutoff cfg = 0.
+  Hypothesis cfg_width : 1 <= sc_width cfg.
+  Hypothesis nv_static : forall k l1 l2, next_variable pb k l1 = next_variable pb k l2.
+  Hypothesis nv_some : forall k l, k < N -> exists x, next_variable pb k l = Some x.
+  Hypothesis nv_none : forall k l, N <= k -> next_variable pb k l = None.
+  Variable cov : St -> St -> Prop.
+  Hypothesis cov_refl : forall s, cov s s.
+  Hypothesis cov_sim : forall s s' x v, cov s s' -> In v (domain pb x s') ->
+    let d := {| d_var := x; d_val := v |} in
+    In v (domain pb x s) /\ cov (transition pb s d) (transition pb s' d) /\
+    (transition_cost pb s' (transition pb s' d) d <= transition_cost pb s (transition pb s d) d)%Z.
+  Hypothesis merge_cov : forall L s s', In s L -> cov s s' -> cov (merge rlx L) s'.
+  Hypothesis relax_ge : forall src dst mg d c, (c <= relax rlx src dst mg d c)%Z.
+  Hypothesis rub_adm : forall k s s' h, cov s s' -> H pb k s' = Some h -> (h <= fast_upper_bound rlx s)%Z.
+  Variable D : nat.
+  Hypothesis dom_bound : forall x s, length (domain pb x s) <= D.
+  Variable B : Z.
+  Hypothesis HB : (2 * B <= IMAX)%Z.
+  Hypothesis guard0 : forall ds s' v', frun pb 0 (init_state pb) (init_value pb) ds = Some (s', v') -> (- B <= v' <= B)%Z.
+  Hypothesis Hund : opt_undominated pb key nd coord usev.
+
+  Local Notation good := (sgood pb).
+  Local Notation feas := (sfeasible pb).
+  Local Notation bst := (MddSim.best cfg).
+
+  (* the store invariant: every entry sits in the bucket of its key and is reached by a feasible run from the root *)
+  Definition Pst (d : nat) (k : Z) (e : St) (ve : Z) : Prop := key e = Some k /\ reach pb d e ve.
+  Definition dsok (ds : @dstore St Z) : Prop := N < length ds /\ store_all Pst ds.
+
+  Lemma dsok_init : dsok (init_dstore N).
+  Proof.
+    split; [unfold init_dstore; rewrite repeat_length; lia|apply store_all_init].
+  Qed.
+
+  Lemma gguardD n : good n -> forall ds s' v',
+    frun pb (sp_depth n) (sp_state n) (sp_value n) ds = Some (s', v') -> (- B <= v' <= B)%Z.
+  Proof. apply sgood_guard. exact guard0. Qed.
+
+  Lemma good_reach n ds s v : good n ->
+    frun pb (sp_depth n) (sp_state n) (sp_value n) ds = Some (s, v) -> reach pb (sp_depth n + length ds) s v.
+  Proof.
+    intros (_ & ds0 & G1 & _ & G3) Hr. exists (ds0 ++ ds). split; [|rewrite app_length; lia].
+    rewrite frun_app, G3, G1. exact Hr.
+  Qed.
+
+  Lemma HexactD n : good n -> forall ds s v k,
+    frun pb (sp_depth n) (sp_state n) (sp_value n) ds = Some (s, v) -> key s = Some k ->
+    Pst (sp_depth n + length ds) k s v.
+  Proof. intros Hg ds s v k Hr Hk. split; [exact Hk|]. eapply good_reach; eauto. Qed.
+
+  (* with tau = B nothing is promising: used for the structural contracts *)
+  Lemma HsafeB n : good n -> sp_depth n <= N -> forall ds s v k h e ve,
+    frun pb (sp_depth n) (sp_state n) (sp_value n) ds = Some (s, v) -> key s = Some k ->
+    H pb (sp_depth n + length ds) s = Some h -> (B < v + h)%Z -> Pst (sp_depth n + length ds) k e ve ->
+    ~ sdom nd coord usev e ve s v.
+  Proof.
+    intros Hg Hd ds s v k h e ve Hr _ Hh Hlt _ _. exfalso.
+    assert (Hle : sp_depth n + length ds <= N).
+    { apply (frun_length pb nv_none ds _ _ _ _ Hr Hd). }
+    destruct (H_attained pb nv_static nv_some nv_none (N - (sp_depth n + length ds)) (sp_depth n + length ds) s v h eq_refl Hle Hh)
+      as (ds2 & s2 & Hr2 & _).
+    assert (Hfull : frun pb (sp_depth n) (sp_state n) (sp_value n) (ds ++ ds2) = Some (s2, (v + h)%Z)).
+    { rewrite frun_app, Hr. exact Hr2. }
+    pose proof (gguardD n Hg _ _ _ Hfull). lia.
+  Qed.
+
+  Lemma OPT_enum : bst (root_node cfg) = opt_enum pb.
+  Proof. unfold MddSim.best, opt_enum. cbn [root_node sp_value sp_depth sp_state]. symmetry. apply opt_enum_from_H. Qed.
+
+  (* with tau = o - 1 for the optimum o: what opt_undominated says *)
+  Lemma HsafeO n o : good n -> bst (root_node cfg) = Some o -> forall ds s v k h e ve,
+    frun pb (sp_depth n) (sp_state n) (sp_value n) ds = Some (s, v) -> key s = Some k ->
+    H pb (sp_depth n + length ds) s = Some h -> (o - 1 < v + h)%Z -> Pst (sp_depth n + length ds) k e ve ->
+    ~ sdom nd coord usev e ve s v.
+  Proof.
+    intros Hg Ho ds s v k h e ve Hr Hk Hh Hlt [Hke Hre] Hs.
+    rewrite OPT_enum in Ho.
+    pose proof (Hund o Ho (sp_depth n + length ds) e ve s v Hre (good_reach n ds s v Hg Hr)
+                  (ex_intro _ k (conj Hke Hk)) Hs h Hh). lia.
+  Qed.
+
+  Local Notation inp0 ct n lb := (mk_input cfg ct n lb).
+
+  Lemma KD_struct ct n lb c ds polls m out :
+    good n -> sp_depth n <= N -> dsok ds ->
+    compile st_eqb (inp0 ct n lb) 0 0 c ds polls = (m, out) ->
+    out = Compiled /\ m_crash m = false /\ dsok (m_dom m) /\
+    (forall b, m_best m = Some b \/ m_best_exact m = Some b -> n_depth (get_node (inp0 ct n lb) m b) = N) /\
+    (ct = Relaxed -> forall sp, In sp (drain_cutset (inp0 ct n lb) m) -> sp_depth n < sp_depth sp <= N).
+  Proof.
+    intros Hg Hd [Hl Hs] Hc.
+    destruct (compile_factsD st_eqb st_eqb_spec (inp0 ct n lb) key nd coord usev cfg_dom cfg_clean cfg_nocache cfg_nocut
+                cfg_width nv_some nv_none Hd 0 0 c ds polls m out Hl Hc) as (-> & F1 & _ & F3 & F4 & _).
+    split; [reflexivity|]. split; [exact F1|]. split; [|split; [exact F3|exact F4]].
+    destruct (compile_postT st_eqb st_eqb_spec (inp0 ct n lb) cfg_clean cfg_nocache cfg_nocut cfg_width Hd
+                nv_static nv_some nv_none cov cov_refl cov_sim merge_cov relax_ge rub_adm B HB (gguardD n Hg)
+                key nd coord usev cfg_dom B Pst (HexactD n Hg) (HsafeB n Hg Hd) 0 0 c ds polls m Hl Hs Hc)
+      as (ml & _ & _ & _ & _ & _ & S1 & S2).
+    split; [exact S2|exact S1].
+  Qed.
+
+  Theorem KD0_holds : forall ct n lb c ds polls m out,
+    dd_ct ct -> good n -> sp_depth n <= N -> dsok ds ->
+    compile st_eqb (inp0 ct n lb) 0 0 c ds polls = (m, out) ->
+    out = Compiled /\ m_crash m = false /\ dsok (m_dom m).
+  Proof.
+    intros ct n lb c ds polls m out _ Hg Hd Hds Hc.
+    destruct (KD_struct ct n lb c ds polls m out Hg Hd Hds Hc) as (A & B0 & C & _). auto.
+  Qed.
+
+  Theorem KD1_holds : forall ct n lb c ds polls m out,
+    dd_ct ct -> good n -> sp_depth n <= N -> dsok ds ->
+    compile st_eqb (inp0 ct n lb) 0 0 c ds polls = (m, out) ->
+    forall v, dd_best_exact_value (inp0 ct n lb) m = Some v ->
+    exists sol, dd_best_exact_solution (inp0 ct n lb) m = Some sol /\ feas sol v.
+  Proof.
+    intros ct n lb c ds polls m out _ Hg Hd Hds Hc v Hv.
+    destruct (KD_struct ct n lb c ds polls m out Hg Hd Hds Hc) as (-> & _ & _ & Hbd & _).
+    unfold dd_best_exact_value in Hv. unfold dd_best_exact_solution.
+    destruct (m_best_exact m) as [b|] eqn:Eb; [|discriminate]. simpl in Hv. inversion Hv; subst v. simpl.
+    destruct (best_exact_solution_genuine st_eqb st_eqb_spec (inp0 ct n lb) cfg_clean 0 0 c ds polls m b Hc Eb)
+      as (Hlt & Hcc & _ & Hpath & Hlen).
+    pose proof (Assembly.clean_chain_frun st_eqb st_eqb_spec (inp0 ct n lb) cfg_clean nv_static B HB (gguardD n Hg)
+                  0 0 c ds polls m b Hc Hcc Hlt) as Hrun.
+    pose proof (Hbd b (or_intror eq_refl)) as HdN.
+    destruct Hg as (_ & ds0 & G1 & G2 & G3).
+    eexists. split; [reflexivity|].
+    exists (ds0 ++ rev (chain (inp0 ct n lb) m b)), (n_state (get_node (inp0 ct n lb) m b)).
+    split; [|split].
+    - rewrite app_length, rev_length, G1, Hlen, HdN. cbn [mk_input ci_root ci_problem]. lia.
+    - rewrite Hpath. apply Permutation_app; [exact G2|]. apply Permutation_sym, Permutation_rev.
+    - rewrite frun_app, G3, G1. exact Hrun.
+  Qed.
+
+  Theorem KD3_depth_holds : forall n lb c ds polls m out,
+    good n -> sp_depth n <= N -> dsok ds ->
+    compile st_eqb (inp0 Relaxed n lb) 0 0 c ds polls = (m, out) ->
+    dd_is_exact m = false ->
+    forall x, In x (drain_cutset (inp0 Relaxed n lb) m) -> sp_depth n < sp_depth x <= N.
+  Proof.
+    intros n lb c ds polls m out Hg Hd Hds Hc _ x Hx.
+    destruct (KD_struct Relaxed n lb c ds polls m out Hg Hd Hds Hc) as (_ & _ & _ & _ & Hcd).
+    apply Hcd; auto.
+  Qed.
+
+  Theorem KD3_good_holds : forall n lb c ds polls m out,
+    good n -> sp_depth n <= N -> dsok ds ->
+    compile st_eqb (inp0 Relaxed n lb) 0 0 c ds polls = (m, out) ->
+    dd_is_exact m = false ->
+    forall x, In x (drain_cutset (inp0 Relaxed n lb) m) -> good x.
+  Proof.
+    intros n lb c ds polls m out Hg Hd Hds Hc Hex x Hx.
+    destruct (KD3_depth_holds n lb c ds polls m out Hg Hd Hds Hc Hex x Hx) as [_ HxN].
+    destruct (KD_struct Relaxed n lb c ds polls m out Hg Hd Hds Hc) as (-> & _).
+    destruct (cutset_nodes_exact st_eqb st_eqb_spec (inp0 Relaxed n lb) cfg_clean 0 0 c ds polls m x Hc Hx)
+      as (id & _ & Hlt & _ & Hcc & Hpath & Hst & Hval & _ & _ & Hlen).
+    pose proof (Assembly.clean_chain_frun st_eqb st_eqb_spec (inp0 Relaxed n lb) cfg_clean nv_static B HB (gguardD n Hg)
+                  0 0 c ds polls m id Hc Hcc Hlt) as Hrun.
+    destruct Hg as (_ & ds0 & G1 & G2 & G3).
+    split; [exact HxN|].
+    exists (ds0 ++ rev (chain (inp0 Relaxed n lb) m id)). split; [|split].
+    - rewrite app_length, rev_length, G1, Hlen. reflexivity.
+    - rewrite Hpath. apply Permutation_app; [exact G2|]. apply Permutation_sym, Permutation_rev.
+    - rewrite frun_app, G3, G1, Hst, Hval. exact Hrun.
+  Qed.
+
+  Definition KboundD : nat := 3 + D + D * D + N * (1 + sc_width cfg * D).
+
+  Theorem KD5_holds : forall n lb c ds polls m out,
+    good n -> sp_depth n <= N -> dsok ds ->
+    compile st_eqb (inp0 Relaxed n lb) 0 0 c ds polls = (m, out) ->
+    dd_is_exact m = false ->
+    length (drain_cutset (inp0 Relaxed n lb) m) <= KboundD.
+  Proof.
+    intros n lb c ds polls m out Hg Hd [Hl _] Hc _.
+    exact (cutset_size_boundD st_eqb st_eqb_spec (inp0 Relaxed n lb) key nd coord usev cfg_dom cfg_clean cfg_nocache
+             cfg_nocut cfg_width nv_some nv_none Hd D dom_bound 0 0 c ds polls m out Hl eq_refl Hc).
+  Qed.
+
+  Theorem KD2_holds : forall ct n lb c ds polls m out,
+    dd_ct ct -> good n -> sp_depth n <= N -> dsok ds ->
+    compile st_eqb (inp0 ct n lb) 0 0 c ds polls = (m, out) ->
+    dd_is_exact m = true ->
+    forall o, bst (root_node cfg) = Some o -> bst n = Some o -> (o > lb)%Z ->
+    dd_best_exact_value (inp0 ct n lb) m = Some o.
+  Proof.
+    intros ct n lb c ds polls m out _ Hg Hd Hds Hc Hex o Ho Hb Hlb.
+    destruct (KD_struct ct n lb c ds polls m out Hg Hd Hds Hc) as (-> & _).
+    destruct Hds as [Hl Hs].
+    exact (S2T st_eqb st_eqb_spec (inp0 ct n lb) cfg_clean cfg_nocache cfg_nocut cfg_width Hd
+             nv_static nv_some nv_none cov cov_refl cov_sim merge_cov relax_ge rub_adm B HB (gguardD n Hg)
+             key nd coord usev cfg_dom (o - 1)%Z Pst (HexactD n Hg) (HsafeO n o Hg Ho)
+             0 0 c ds polls m o Hl Hs Hc Hex Hb Hlb ltac:(lia)).
+  Qed.
+
+  Theorem KD4_holds : forall n lb c ds polls m out,
+    good n -> sp_depth n <= N -> dsok ds ->
+    compile st_eqb (inp0 Relaxed n lb) 0 0 c ds polls = (m, out) ->
+    dd_is_exact m = false ->
+    forall o, bst (root_node cfg) = Some o -> bst n = Some o -> (o > lb)%Z ->
+    (forall e, dd_best_exact_value (inp0 Relaxed n lb) m = Some e -> (e < o)%Z) ->
+    exists x, In x (drain_cutset (inp0 Relaxed n lb) m) /\ bst x = Some o.
+  Proof.
+    intros n lb c ds polls m out Hg Hd Hds Hc Hex o Ho Hb Hlb Hbe.
+    destruct (KD_struct Relaxed n lb c ds polls m out Hg Hd Hds Hc) as (-> & _).
+    destruct Hds as [Hl Hs].
+    destruct (S4T st_eqb st_eqb_spec (inp0 Relaxed n lb) cfg_clean cfg_nocache cfg_nocut cfg_width Hd
+             nv_static nv_some nv_none cov cov_refl cov_sim merge_cov relax_ge rub_adm B HB (gguardD n Hg)
+             key nd coord usev cfg_dom (o - 1)%Z Pst (HexactD n Hg) (HsafeO n o Hg Ho)
+             0 0 c ds polls m o Hl Hs Hc eq_refl Hex Hb Hlb ltac:(lia) Hbe) as (x & H1 & H2 & _).
+    exists x. auto.
+  Qed.
+
+  Theorem KD3_ub_holds : forall n lb c ds polls m out,
+    good n -> sp_depth n <= N -> dsok ds ->
+    compile st_eqb (inp0 Relaxed n lb) 0 0 c ds polls = (m, out) ->
+    dd_is_exact m = false ->
+    forall x, In x (drain_cutset (inp0 Relaxed n lb) m) ->
+    forall o, bst (root_node cfg) = Some o -> bst x = Some o -> (o > lb)%Z -> (o <= sp_ub x)%Z.
+  Proof.
+    intros n lb c ds polls m out Hg Hd Hds Hc Hex x Hx o Ho Hb Hlb.
+    destruct (KD_struct Relaxed n lb c ds polls m out Hg Hd Hds Hc) as (-> & _).
+    destruct Hds as [Hl Hs].
+    exact (S3T st_eqb st_eqb_spec (inp0 Relaxed n lb) cfg_clean cfg_nocache cfg_nocut cfg_width Hd
+             nv_static nv_some nv_none cov cov_refl cov_sim merge_cov relax_ge rub_adm B HB (gguardD n Hg)
+             key nd coord usev cfg_dom (o - 1)%Z Pst (HexactD n Hg) (HsafeO n o Hg Ho)
+             0 0 c ds polls m x o Hl Hs Hc eq_refl Hex Hx Hb Hlb ltac:(lia)).
+  Qed.
+  Theorem KD_all : dom_contracts st_eqb cfg dsok KboundD.
+  Proof.
+    unfold dom_contracts. cbv zeta.
+    split; [exact KD0_holds|]. split; [exact KD1_holds|]. split; [exact KD2_holds|]. split; [exact KD3_good_holds|].
+    split; [exact KD3_depth_holds|]. split; [exact KD3_ub_holds|]. split; [exact KD4_holds|exact KD5_holds].
+  Qed.
+End DomContracts.
+
+
+(* ================================================================== 9. C10, sequential solver *)
+Section DomMain.
+  Context {St : Type}.
+  Variable st_eqb : St -> St -> bool.
+  Hypothesis st_eqb_spec : forall a b, st_eqb a b = true <-> a = b.
+  Variable cfg : @sconfig St.
+  Local Notation pb := (sc_problem cfg).
+  Local Notation N := (nb_vars (sc_problem cfg)).
+  Variable key : St -> option Z.
+  Variable nd : nat.
+  Variable coord : St -> nat -> Z.
+  Variable usev : bool.
+  (* ---- configuration: clean flavour, no cache, SimpleFringe, width >= 1, no cutoff, and a RULE *)
+  Hypothesis cfg_clean : sc_flavour cfg = CleanLEL \/ sc_flavour cfg = CleanFC.
+  Hypothesis cfg_nocache : sc_use_cache cfg = false.
+  Hypothesis cfg_dom : sc_domrule cfg = Some (key, nd, coord, usev).
+  Hypothesis cfg_nodup : sc_nodup cfg = false.
+  Hypothesis cfg_width : 1 <= sc_width cfg.
+  Hypothesis cfg_nocut : sc_cutoff cfg = 0.
+  (* ---- the user's model, as in Assembly.C01_sequential_optimal *)
+  Hypothesis nv_static : forall k l1 l2, next_variable pb k l1 = next_variable pb k l2.
+  Hypothesis nv_some : forall k l, k < N -> exists x, next_variable pb k l = Some x.
+  Hypothesis nv_none : forall k l, N <= k -> next_variable pb k l = None.
+  Hypothesis Hwf : wf_relaxation cfg.
+  Variable D : nat.
+  Hypothesis dom_bound : forall x s, length (domain pb x s) <= D.
+  Variable B : Z.
+  Hypothesis HB : (2 * B <= IMAX)%Z.
+  Hypothesis guard0 : forall ds s' v', frun pb 0 (init_state pb) (init_value pb) ds = Some (s', v') -> (- B <= v' <= B)%Z.
+  (* ---- the premise on the rule *)
+  Hypothesis Hund : opt_undominated pb key nd coord usev.
+
+  Lemma contracts_hold_dom : dom_contracts st_eqb cfg (dsok cfg key) (KboundD cfg D).
+  Proof.
+    destruct Hwf as (cov & [((W1 & W2 & W3 & W4) & W5) | ((W1 & W2 & W3 & W4) & W5 & W6 & W7)]).
+    - exact (KD_all st_eqb st_eqb_spec cfg key nd coord usev cfg_clean cfg_nocache cfg_dom cfg_nocut cfg_width
+               nv_static nv_some nv_none cov W1 W2 W3 W5 W4 D dom_bound B HB guard0 Hund).
+    - pose proof (KD_all st_eqb st_eqb_spec (clip_cfg cfg) key nd coord usev cfg_clean cfg_nocache cfg_dom cfg_nocut cfg_width
+               nv_static nv_some nv_none cov W1 W2 W3 (clip_relax_ge cfg cfg_width W7) W4 D dom_bound B HB guard0 Hund)
+        as (K0 & K1 & K2 & K3g & K3d & K3u & K4 & K5).
+      pose proof (clip_compile_cfg st_eqb cfg cfg_clean W5 W6) as Hclip.
+      unfold dom_contracts. cbv zeta.
+      split; [|split; [|split; [|split; [|split; [|split; [|split]]]]]].
+      + intros ct n lb c ds polls m out H1 H2 H3 H4 Hc. rewrite <- Hclip in Hc.
+        exact (K0 ct n lb c ds polls m out H1 H2 H3 H4 Hc).
+      + intros ct n lb c ds polls m out H1 H2 H3 H4 Hc. rewrite <- Hclip in Hc.
+        exact (K1 ct n lb c ds polls m out H1 H2 H3 H4 Hc).
+      + intros ct n lb c ds polls m out H1 H2 H3 H4 Hc. rewrite <- Hclip in Hc.
+        exact (K2 ct n lb c ds polls m out H1 H2 H3 H4 Hc).
+      + intros n lb c ds polls m out H2 H3 H4 Hc. rewrite <- Hclip in Hc.
+        exact (K3g n lb c ds polls m out H2 H3 H4 Hc).
+      + intros n lb c ds polls m out H2 H3 H4 Hc. rewrite <- Hclip in Hc.
+        exact (K3d n lb c ds polls m out H2 H3 H4 Hc).
+      + intros n lb c ds polls m out H2 H3 H4 Hc. rewrite <- Hclip in Hc.
+        exact (K3u n lb c ds polls m out H2 H3 H4 Hc).
+      + intros n lb c ds polls m out H2 H3 H4 Hc. rewrite <- Hclip in Hc.
+        exact (K4 n lb c ds polls m out H2 H3 H4 Hc).
+      + intros n lb c ds polls m out H2 H3 H4 Hc. rewrite <- Hclip in Hc.
+        exact (K5 n lb c ds polls m out H2 H3 H4 Hc).
+  Qed.
+
+  Local Notation good := (sgood pb).
+  Local Notation feas := (sfeasible pb).
+  Local Notation bst := (MddSim.best cfg).
+
+  Lemma feasible_le_optD sol v : feas sol v -> exists o, bst (root_node cfg) = Some o /\ (v <= o)%Z.
+  Proof.
+    intros (ds & st & H1 & _ & H3).
+    destruct (frun_le_H pb nv_static nv_none ds 0 _ _ st v H1 H3) as (h & Hh & Hle).
+    exists (init_value pb + h)%Z. split; [|exact Hle].
+    unfold MddSim.best. cbn [root_node sp_value sp_depth sp_state]. rewrite Hh. reflexivity.
+  Qed.
+
+  Lemma opt_in_isizeD o : bst (root_node cfg) = Some o -> (IMIN < o <= IMAX)%Z.
+  Proof.
+    unfold MddSim.best. cbn [root_node sp_value sp_depth sp_state].
+    destruct (H pb 0 (init_state pb)) as [h|] eqn:Eh; [|discriminate]. simpl. intros E. inversion E; subst o.
+    destruct (H_attained pb nv_static nv_some nv_none (N - 0) 0 (init_state pb) (init_value pb) h eq_refl
+                ltac:(lia) Eh) as (ds & s' & Hr & _).
+    pose proof (guard0 ds s' _ Hr). unfold IMIN, IMAX in *. lia.
+  Qed.
+
+  (* strong form: the returned solution is a feasible run in exact integer arithmetic *)
+  Theorem C10_sequential_dominance_optimal_run :
+    exists f0, forall fuel, f0 <= fuel ->
+      let r := maximize st_eqb cfg fuel None in
+      r_crash r = false /\ r_outoffuel r = false /\ r_exact r = true /\ r_value r = opt_enum pb /\
+      (forall v, opt_enum pb = Some v ->
+         r_lb r = v /\ r_ub r = v /\ exists sol, r_sol r = Some (sort_by dec_var_cmp sol) /\ feas sol v) /\
+      (opt_enum pb = None -> r_sol r = None /\ r_lb r = IMIN).
+  Proof.
+    destruct contracts_hold_dom as (K0 & K1 & K2 & K3g & K3d & K3u & K4 & K5).
+    exists (d_fuel0 cfg (KboundD cfg D)). intros fuel Hfuel.
+    pose proof (dom_maximize_correct st_eqb cfg cfg_nocache cfg_nodup good bst feas
+                  (sgood_root pb (root_node cfg) eq_refl eq_refl eq_refl eq_refl)
+                  feasible_le_optD opt_in_isizeD (fun c u => sgood_set_ub pb c u) (fun c u => eq_refl)
+                  (dsok cfg key) (dsok_init cfg key cfg_nocut cfg_width) (KboundD cfg D) K0 K1 K2 K3g K3d K3u K4 K5 fuel Hfuel) as Hr.
+    unfold d_result_ok in Hr. rewrite (OPT_enum cfg) in Hr. exact Hr.
+  Qed.
+
+  Theorem C10_sequential_dominance_optimal :
+    exists f0, forall fuel, f0 <= fuel ->
+      let r := maximize st_eqb cfg fuel None in
+      r_crash r = false /\ r_outoffuel r = false /\ r_exact r = true /\ r_value r = opt_enum pb /\
+      (forall v, opt_enum pb = Some v ->
+         r_lb r = v /\ r_ub r = v /\
+         exists sol, r_sol r = Some (sort_by dec_var_cmp sol) /\ MddProgress.feasible pb sol v) /\
+      (opt_enum pb = None -> r_sol r = None /\ r_lb r = IMIN).
+  Proof.
+    destruct C10_sequential_dominance_optimal_run as [f0 Hf]. exists f0. intros fuel Hfuel.
+    destruct (Hf fuel Hfuel) as (A1 & A2 & A3 & A4 & A5 & A6).
+    split; [exact A1|]. split; [exact A2|]. split; [exact A3|]. split; [exact A4|]. split; [|exact A6].
+    intros v Hv. destruct (A5 v Hv) as (E1 & E2 & sol & S1 & S2). split; [exact E1|]. split; [exact E2|].
+    exists sol. split; [exact S1|]. apply (sfeasible_feasible pb B HB guard0). exact S2.
+  Qed.
+End DomMain.
+
+(* ================================================================== 10. sufficient conditions, corollaries *)
+Section Corollaries.
+  Context {St : Type}.
+  Variable pb : problem St.
+  Local Notation N := (nb_vars pb).
+  Hypothesis nv_static : forall k l1 l2, next_variable pb k l1 = next_variable pb k l2.
+  Hypothesis nv_some : forall k l, k < N -> exists x, next_variable pb k l = Some x.
+  Hypothesis nv_none : forall k l, N <= k -> next_variable pb k l = None.
+  Variable key : St -> option Z.
+  Variable nd : nat.
+  Variable coord : St -> nat -> Z.
+  Variable usev : bool.
+
+  Lemma reach_best_le_opt d a va h o :
+    reach pb d a va -> H pb d a = Some h -> opt_enum pb = Some o -> (va + h <= o)%Z.
+  Proof.
+    intros (ds & Hr & Hl) Hh Ho. subst d.
+    assert (Hle : 0 + length ds <= N) by (apply (frun_length pb nv_none ds 0 _ _ _ Hr); lia).
+    destruct (H_attained pb nv_static nv_some nv_none (N - length ds) (length ds) a va h eq_refl Hle Hh)
+      as (ds2 & s2 & Hr2 & Hl2).
+    assert (Hfull : frun pb 0 (init_state pb) (init_value pb) (ds ++ ds2) = Some (s2, (va + h)%Z)).
+    { rewrite frun_app, Hr. exact Hr2. }
+    destruct (frun_le_H pb nv_static nv_none (ds ++ ds2) 0 _ _ s2 _ ltac:(rewrite app_length; lia) Hfull)
+      as (h0 & Hh0 & Hle0).
+    unfold opt_enum in Ho. rewrite opt_enum_from_H, Hh0 in Ho. simpl in Ho. inversion Ho; subst o. exact Hle0.
+  Qed.
+
+  (* strict admissibility is enough *)
+  Lemma strictly_admissible_undominated :
+    strictly_admissible pb key nd coord usev -> opt_undominated pb key nd coord usev.
+  Proof.
+    intros Hs o Ho d a va b vb Ha Hb Hk Hd h Hh.
+    destruct (Hs d a va b vb Ha Hb Hk Hd h Hh) as (h' & Hh' & Hlt).
+    pose proof (reach_best_le_opt d a va h' o Ha Hh' Ho). lia.
+  Qed.
+
+  (* the exact one-coordinate rule of the generators: coordinate 0 = value-to-go, values are used *)
+  Definition coord_is_H : Prop :=
+    forall d s v k, reach pb d s v -> key s = Some k -> H pb d s = Some (coord s 0).
+
+  Lemma coord_is_H_strict : nd = 1 -> usev = true -> coord_is_H -> strictly_admissible pb key nd coord usev.
+  Proof.
+    intros -> -> Hc d a va b vb Ha Hb (k & Ka & Kb) [[L1 L2] Hn] h Hh.
+    rewrite (Hc d b vb k Hb Kb) in Hh. inversion Hh; subst h.
+    exists (coord a 0). split; [apply (Hc d a va k Ha Ka)|].
+    specialize (L1 0 ltac:(lia)). specialize (L2 eq_refl).
+    destruct (Z_lt_le_dec (vb + coord b 0) (va + coord a 0)) as [Hlt|Hge]; [exact Hlt|].
+    exfalso. apply Hn. split; [intros i Hi; assert (i = 0) by lia; subst i; lia|intros _; lia].
+  Qed.
+
+  (* ---- an executable sufficient check: enumerate the reachable (state, value) pairs of every depth *)
+  Definition var_at (k : nat) : option nat := next_variable pb k [].
+
+  Definition next_pairs (k : nat) (l : list (St * Z)) : list (St * Z) :=
+    match var_at k with
+    | None => []
+    | Some x =>
+        flat_map (fun '(s, v) =>
+          map (fun val => let d := {| d_var := x; d_val := val |} in
+                          (transition pb s d, (v + transition_cost pb s (transition pb s d) d)%Z))
+              (domain pb x s)) l
+    end.
+
+  Fixpoint reach_pairs (d : nat) : list (St * Z) :=
+    match d with
+    | O => [(init_state pb, init_value pb)]
+    | S k => next_pairs k (reach_pairs k)
+    end.
+
+  Lemma reach_pairs_complete ds : forall s v,
+    frun pb 0 (init_state pb) (init_value pb) ds = Some (s, v) -> In (s, v) (reach_pairs (length ds)).
+  Proof.
+    induction ds as [|d ds IH] using rev_ind; intros s v Hr.
+    - simpl in Hr. inversion Hr; subst. left; reflexivity.
+    - rewrite frun_app in Hr.
+      destruct (frun pb 0 (init_state pb) (init_value pb) ds) as [[s1 v1]|] eqn:E1; [|discriminate].
+      specialize (IH s1 v1 eq_refl). cbn [frun] in Hr. simpl in Hr.
+      destruct (var_ok pb (length ds) d) eqn:Ev; cbn [andb] in Hr; [|discriminate].
+      destruct (in_domain pb s1 d) eqn:Ed; [|discriminate]. inversion Hr; subst s v. clear Hr.
+      rewrite app_length. simpl. rewrite Nat.add_1_r. cbn [reach_pairs]. unfold next_pairs, var_at.
+      apply (var_ok_spec pb nv_static (length ds) d []) in Ev. rewrite Ev.
+      apply in_flat_map. exists (s1, v1). split; [exact IH|].
+      apply in_map_iff. exists (d_val d). split; [|apply (in_domain_In pb); exact Ed].
+      destruct d as [x val]. reflexivity.
+  Qed.
+
+  Definition sdomb (a : St) (va : Z) (b : St) (vb : Z) : bool :=
+    DomSpec.le_allb nd coord usev b vb a va && negb (DomSpec.le_allb nd coord usev a va b vb).
+
+  Definition same_keyb (a b : St) : bool :=
+    match key a, key b with Some k, Some k' => Z.eqb k k' | _, _ => false end.
+
+  (* every strictly dominated reachable pair has a best completion below the optimum *)
+  Definition undominated_at (o : Z) (d : nat) : bool :=
+    forallb (fun '(a, va) =>
+      forallb (fun '(b, vb) =>
+        negb (same_keyb a b && sdomb a va b vb) ||
+        match H pb d b with Some h => (vb + h <? o)%Z | None => true end) (reach_pairs d)) (reach_pairs d).
+
+  Definition check_undominated : bool :=
+    match opt_enum pb with
+    | None => true
+    | Some o => forallb (undominated_at o) (seq 0 (S N))
+    end.
+
+  Lemma check_undominated_sound : check_undominated = true -> opt_undominated pb key nd coord usev.
+  Proof.
+    unfold check_undominated. intros Hc o Ho d a va b vb Ha Hb (k & Ka & Kb) [Hd1 Hd2] h Hh.
+    rewrite Ho in Hc. rewrite forallb_forall in Hc.
+    destruct Ha as (dsa & Hra & Hla). destruct Hb as (dsb & Hrb & Hlb).
+    assert (HdN : d <= N).
+    { subst d. pose proof (frun_length pb nv_none dsa 0 _ _ _ Hra). lia. }
+    specialize (Hc d ltac:(apply in_seq; lia)). unfold undominated_at in Hc.
+    rewrite forallb_forall in Hc.
+    pose proof (reach_pairs_complete dsa a va Hra) as Ia. rewrite Hla in Ia.
+    pose proof (reach_pairs_complete dsb b vb Hrb) as Ib. rewrite Hlb in Ib.
+    specialize (Hc (a, va) Ia). cbv beta iota in Hc. rewrite forallb_forall in Hc.
+    specialize (Hc (b, vb) Ib). cbv beta iota in Hc.
+    assert (Hk : same_keyb a b = true) by (unfold same_keyb; rewrite Ka, Kb; apply Z.eqb_refl).
+    assert (Hs : sdomb a va b vb = true).
+    { unfold sdomb. apply andb_true_iff. split; [apply DomSpec.le_allb_spec; exact Hd1|].
+      apply negb_true_iff. destruct (DomSpec.le_allb nd coord usev a va b vb) eqn:E; [|reflexivity].
+      exfalso. apply Hd2. apply DomSpec.le_allb_spec. exact E. }
+    rewrite Hk, Hs, Hh in Hc. cbn [andb negb orb] in Hc. apply Z.ltb_lt in Hc. exact Hc.
+  Qed.
+End Corollaries.
+
+(* ================================================================== 11. the stated forms of C10 *)
+Definition without_rule {St : Type} (cfg : @sconfig St) : @sconfig St :=
+  {| sc_flavour := sc_flavour cfg; sc_problem := sc_problem cfg; sc_relax := sc_relax cfg; sc_ranking := sc_ranking cfg;
+     sc_domcmp := sc_domcmp cfg; sc_domrule := None; sc_width := sc_width cfg; sc_use_cache := sc_use_cache cfg;
+     sc_nodup := sc_nodup cfg; sc_cutoff := sc_cutoff cfg |}.
+
+Section C10.
+  Context {St : Type}.
+  Variable st_eqb : St -> St -> bool.
+  Hypothesis st_eqb_spec : forall a b, st_eqb a b = true <-> a = b.
+  Variable cfg : @sconfig St.
+  Local Notation pb := (sc_problem cfg).
+  Local Notation N := (nb_vars (sc_problem cfg)).
+  Variable key : St -> option Z.
+  Variable nd : nat.
+  Variable coord : St -> nat -> Z.
+  Variable usev : bool.
+  Hypothesis cfg_clean : sc_flavour cfg = CleanLEL \/ sc_flavour cfg = CleanFC.
+  Hypothesis cfg_nocache : sc_use_cache cfg = false.
+  Hypothesis cfg_dom : sc_domrule cfg = Some (key, nd, coord, usev).
+  Hypothesis cfg_nodup : sc_nodup cfg = false.
+  Hypothesis cfg_width : 1 <= sc_width cfg.
+  Hypothesis cfg_nocut : sc_cutoff cfg = 0.
+  Hypothesis nv_static : forall k l1 l2, next_variable pb k l1 = next_variable pb k l2.
+  Hypothesis nv_some : forall k l, k < N -> exists x, next_variable pb k l = Some x.
+  Hypothesis nv_none : forall k l, N <= k -> next_variable pb k l = None.
+  Hypothesis Hwf : wf_relaxation cfg.
+  Variable D : nat.
+  Hypothesis dom_bound : forall x s, length (domain pb x s) <= D.
+  Variable B : Z.
+  Hypothesis HB : (2 * B <= IMAX)%Z.
+  Hypothesis guard0 : forall ds s' v', frun pb 0 (init_state pb) (init_value pb) ds = Some (s', v') -> (- B <= v' <= B)%Z.
+
+  (* with a strictly admissible rule *)
+  Theorem C10_sequential_dominance_optimal_strict :
+    strictly_admissible pb key nd coord usev ->
+    exists f0, forall fuel, f0 <= fuel ->
+      let r := maximize st_eqb cfg fuel None in
+      r_crash r = false /\ r_outoffuel r = false /\ r_exact r = true /\ r_value r = opt_enum pb /\
+      (forall v, opt_enum pb = Some v ->
+         r_lb r = v /\ r_ub r = v /\
+         exists sol, r_sol r = Some (sort_by dec_var_cmp sol) /\ MddProgress.feasible pb sol v) /\
+      (opt_enum pb = None -> r_sol r = None /\ r_lb r = IMIN).
+  Proof.
+    intros Hs.
+    exact (C10_sequential_dominance_optimal st_eqb st_eqb_spec cfg key nd coord usev cfg_clean cfg_nocache cfg_dom
+             cfg_nodup cfg_width cfg_nocut nv_static nv_some nv_none Hwf D dom_bound B HB guard0
+             (strictly_admissible_undominated pb nv_static nv_some nv_none key nd coord usev Hs)).
+  Qed.
+
+  (* enabling the checker does not change the answer *)
+  Theorem C10_dominance_does_not_change_the_answer :
+    opt_undominated pb key nd coord usev ->
+    exists f0, forall fuel, f0 <= fuel ->
+      let r := maximize st_eqb cfg fuel None in
+      let r0 := maximize st_eqb (without_rule cfg) fuel None in
+      r_value r = r_value r0 /\ r_value r = opt_enum pb /\ r_lb r = r_lb r0 /\
+      r_exact r = true /\ r_exact r0 = true /\ r_crash r = false /\ r_crash r0 = false /\
+      r_outoffuel r = false /\ r_outoffuel r0 = false.
+  Proof.
+    intros Hu.
+    destruct (C10_sequential_dominance_optimal st_eqb st_eqb_spec cfg key nd coord usev cfg_clean cfg_nocache cfg_dom
+                cfg_nodup cfg_width cfg_nocut nv_static nv_some nv_none Hwf D dom_bound B HB guard0 Hu) as [f1 H1].
+    destruct (C01_sequential_optimal st_eqb st_eqb_spec (without_rule cfg) cfg_clean cfg_nocache eq_refl cfg_nodup cfg_width
+                nv_static nv_some nv_none Hwf D dom_bound B HB guard0 cfg_nocut) as [f2 H2].
+    exists (Nat.max f1 f2). intros fuel Hfuel.
+    destruct (H1 fuel ltac:(lia)) as (A1 & A2 & A3 & A4 & A5 & A6).
+    destruct (H2 fuel ltac:(lia)) as (B1 & B2 & B3 & B4 & B5 & B6).
+    cbv zeta. change (sc_problem (without_rule cfg)) with pb in B4, B5, B6.
+    split; [rewrite A4, B4; reflexivity|]. split; [exact A4|]. split; [|auto 10].
+    destruct (opt_enum pb) as [v|] eqn:Eo.
+    - destruct (A5 v eq_refl) as (E1 & _). destruct (B5 v eq_refl) as (E2 & _). congruence.
+    - destruct (A6 eq_refl) as [_ E1]. destruct (B6 eq_refl) as [_ E2]. congruence.
+  Qed.
+End C10.
+
+(* ================================================================== 12. non-vacuity: the table family *)
+Section TableDom.
+  Variable ti : tinst.
+  Variable C : Z.
+  Hypothesis Hwf : t_wf ti C.
+  Variable flv : flavour.
+  Hypothesis Hflv : flv = CleanLEL \/ flv = CleanFC.
+  Variable width : nat.
+  Hypothesis Hwidth : (1 <= width)%nat.
+  Hypothesis Hkind : t_domkind ti = 1%Z.
+  Local Notation cfg := (tb_sconfig ti flv false false true width 0).
+
+  Lemma table_cfg_dom : sc_domrule cfg = Some (t_key_of ti, t_ncoord ti, t_coord ti, t_usevalue ti).
+  Proof. cbn [tb_sconfig sc_domrule]. unfold t_domrule. rewrite Hkind. reflexivity. Qed.
+
+  Theorem C10_table_instances :
+    check_undominated (t_problem ti) (t_key_of ti) (t_ncoord ti) (t_coord ti) (t_usevalue ti) = true ->
+    exists f0, forall fuel, (f0 <= fuel)%nat ->
+      let r := maximize tstate_eqb cfg fuel None in
+      r_crash r = false /\ r_outoffuel r = false /\ r_exact r = true /\ r_value r = opt_enum (t_problem ti) /\
+      (forall v, opt_enum (t_problem ti) = Some v ->
+         r_lb r = v /\ r_ub r = v /\
+         exists sol, r_sol r = Some (sort_by dec_var_cmp sol) /\ MddProgress.feasible (t_problem ti) sol v) /\
+      (opt_enum (t_problem ti) = None -> r_sol r = None /\ r_lb r = IMIN).
+  Proof.
+    intros Hchk.
+    destruct (table_premises ti C Hwf flv Hflv width Hwidth 0%nat)
+      as (P1 & P2 & P3 & P4 & P5 & P6 & P7 & P8 & P9 & P10 & P11 & P12 & P13).
+    exact (C10_sequential_dominance_optimal tstate_eqb P1 cfg (t_key_of ti) (t_ncoord ti) (t_coord ti) (t_usevalue ti)
+             P2 P3 table_cfg_dom P5 P6 eq_refl P7 P8 P9 P10 (length (t_trans ti)) P11 (tB ti C) P12 P13
+             (check_undominated_sound (t_problem ti) P7 P9 (t_key_of ti) (t_ncoord ti) (t_coord ti) (t_usevalue ti) Hchk)).
+  Qed.
+End TableDom.
+
+(* a 3-variable instance on which the rule prunes: base states 1 (value 5, value-to-go 3) and 2 (value 2, value-to-go 1)
+   of depth 1 have the same key; 1 dominates 2, the node of 2 is dropped and its child 5 is never created: the root's
+   restricted diagram of width 2 is exact (one compilation instead of two).  The rule is the generators' exact rule
+   (coordinate 0 = value-to-go, with values) and the theorem applies: the optimum 8 is returned. *)
+Definition exd_ti : tinst := {|
+  t_nvars := 3; t_nbase := 7; t_init := 0; t_initval := 0; t_slack := 0; t_rubkind := 0; t_domkind := 1;
+  t_usevalue := true; t_ncoord := 1; t_order := [0; 1; 2]%nat;
+  t_trans := [ (0%nat, 0, 0, 1, 5); (0%nat, 0, 1, 2, 2);
+               (1%nat, 1, 0, 3, 0); (1%nat, 1, 1, 4, 1); (1%nat, 2, 0, 5, 0);
+               (2%nat, 3, 0, 6, 3); (2%nat, 4, 0, 6, 0); (2%nat, 5, 0, 6, 1) ];
+  t_notimp := []; t_rub := [];
+  t_key := [-1; 1; 1; 2; 2; 2; -1];
+  t_coords := [[0];[3];[1];[3];[0];[1];[0]];
+  t_mergekind := 0; t_pos := []; t_up := [] |}%Z.
+
+Example exd_wf : t_wf exd_ti 5.
+Proof. apply t_wfb_spec. vm_compute. reflexivity. Qed.
+
+Example exd_undominated :
+  check_undominated (t_problem exd_ti) (t_key_of exd_ti) (t_ncoord exd_ti) (t_coord exd_ti) (t_usevalue exd_ti) = true.
+Proof. vm_compute. reflexivity. Qed.
+
+Example exd_C10 :
+  exists f0, forall fuel, (f0 <= fuel)%nat ->
+    let r := maximize tstate_eqb (tb_sconfig exd_ti CleanLEL false false true 2 0) fuel None in
+    r_crash r = false /\ r_outoffuel r = false /\ r_exact r = true /\ r_value r = Some 8%Z.
+Proof.
+  destruct (C10_table_instances exd_ti 5 exd_wf CleanLEL (or_introl eq_refl) 2 (le_S 1 1 (le_n 1)) eq_refl exd_undominated)
+    as [f0 Hf].
+  exists f0. intros fuel Hfuel. destruct (Hf fuel Hfuel) as (A1 & A2 & A3 & A4 & _).
+  cbv zeta. split; [exact A1|]. split; [exact A2|]. split; [exact A3|]. rewrite A4. vm_compute. reflexivity.
+Qed.
+
+(* the rule does prune: same optimum, one compilation instead of two *)
+Example exd_prunes :
+  (let r := maximize tstate_eqb (tb_sconfig exd_ti CleanLEL false false true 2 0) 50 None in
+   (r_value r, r_exact r, r_explored r, r_compiles r)) = (Some 8%Z, true, 1%nat, 1%nat) /\
+  (let r := maximize tstate_eqb (tb_sconfig exd_ti CleanLEL false false false 2 0) 50 None in
+   (r_value r, r_exact r, r_explored r, r_compiles r)) = (Some 8%Z, true, 1%nat, 2%nat).
+Proof. split; vm_compute; reflexivity. Qed.
+
+(* the refuted instance does not satisfy the premise, as it must *)
+Example cyc_not_undominated :
+  check_undominated (t_problem cyc_ti) (t_key_of cyc_ti) (t_ncoord cyc_ti) (t_coord cyc_ti) (t_usevalue cyc_ti) = false.
+Proof. vm_compute. reflexivity. Qed.
+
+(* ------------------------------------------------------------------ assumptions *)
+Print Assumptions C10_refuted_for_admissible_rules.
+Print Assumptions C10_refuted_without_values.
+Print Assumptions dom_maximize_correct.
+Print Assumptions KD_all.
+Print Assumptions C10_sequential_dominance_optimal.
+Print Assumptions C10_sequential_dominance_optimal_strict.
+Print Assumptions C10_dominance_does_not_change_the_answer.
+Print Assumptions C10_table_instances.
+Print Assumptions exd_C10.
+Print Assumptions exd_prunes.
